@@ -76,56 +76,56 @@ mod verif_c01_step_flags {
             let w_pr = hw_walk(&pool, probe);
             let f_post = pool.rd(fk, fs);
 
-            if !APPLICABLE {
-                kani::assert(res.is_err(), ob!("C02", $lv, $sz, $shape, "level_above_leaf_does_not_exist_is_error: a page of this size has no parent entry at this level"));
-            } else if outcome == E_PARENT_HUGE && sh.d == N {
-                // the level-N entry is a huge leaf
-                kani::assert(
-                    matches!(res, Err(FlagUpdateError::ParentEntryHugePage)) && pool.rd(N, ix.0[N]) == pre.e[N],
-                    ob!("C02", $lv, $sz, $shape, "reports_parent_entry_huge_page_and_unchanged: the page lies inside a huge page whose leaf is this entry; ParentEntryHugePage and the leaf bit-identical"),
-                );
-            } else {
-                match &res {
-                    Ok(_) => kani::assert(outcome == OK, ob!("C02", $lv, $sz, $shape, "documented_outcome: Ok only when the entry exists and points to a table")),
-                    Err(FlagUpdateError::PageNotMapped) => kani::assert(outcome == E_NOT_MAPPED, ob!("C02", $lv, $sz, $shape, "documented_outcome: PageNotMapped iff an entry down to this level is absent")),
-                    Err(FlagUpdateError::ParentEntryHugePage) => kani::assert(outcome == E_PARENT_HUGE, ob!("C02", $lv, $sz, $shape, "documented_outcome: ParentEntryHugePage iff the page lies inside a huge page")),
-                }
-            }
-            if res.is_ok() {
-                // C11: a change to a parent entry returns the flush-all token (MapperFlushAll, by type)
-                kani::assert(true, ob!("C11", $lv, $sz, $shape, "flush_all_token"));
-                kani::assert(
-                    same_mapping(&w_in_pre, &w_in) && same_mapping(&w_pr_pre, &w_pr),
-                    ob!("C01", $lv, $sz, $shape, "no_leaf_changes: frame, size and leaf flags of the target and of an arbitrary address as before"),
-                );
-                kani::assert(
-                    pool.rd(N, ix.0[N]) == (pre.e[N] & ADDR) | flags.bits(),
-                    ob!("C01", $lv, $sz, $shape, "entry_flags_replaced_address_kept: the level-N entry holds its old address with exactly the given flags"),
-                );
-            } else {
-                kani::assert(
-                    same_mapping(&w_in_pre, &w_in) && same_mapping(&w_pr_pre, &w_pr) && rights_only_added(&w_in_pre, &w_in, 0) && rights_only_added(&w_pr_pre, &w_pr, 0),
-                    ob!("C02", $lv, $sz, $shape, "error_leaves_every_mapping: frame, size, leaf flags and rights of the target and of an arbitrary address as before"),
-                );
-            }
-            kani::assert(w_in.kind != MALFORMED && w_pr.kind != MALFORMED, ob!("C09", $lv, $sz, $shape, "no_dangling_table_pointer: every present non-leaf entry still points to a page table"));
-            kani::assert(
-                dict.agrees(fk, fs, f_pre, f_post),
-                ob!("C09", $lv, $sz, $shape, "only_dictated_slots_change: only the level-N entry of a successful call changes; nothing else is written"),
-            );
+            // ---- every clause is evaluated first, then each is checked on its own path (each!)
+            let ok = res.is_ok();
+            // the level-N entry is itself the leaf of a huge page (the page lies inside a huge page)
+            let huge_leaf_case = APPLICABLE && outcome == E_PARENT_HUGE && sh.d == N;
+            // a success there is attributed to ONE clause
+            let bogus = huge_leaf_case && ok;
+            let c_huge_leaf = !huge_leaf_case || (matches!(res, Err(FlagUpdateError::ParentEntryHugePage)) && pool.rd(N, ix.0[N]) == pre.e[N]);
+            let c_na = APPLICABLE || !ok;
+            let outcome_ok = !APPLICABLE
+                || huge_leaf_case
+                || match &res {
+                    Ok(_) => outcome == OK,
+                    Err(FlagUpdateError::PageNotMapped) => outcome == E_NOT_MAPPED,
+                    Err(FlagUpdateError::ParentEntryHugePage) => outcome == E_PARENT_HUGE,
+                };
+            let good = ok && !bogus;
+            let c_noleaf = !good || (same_mapping(&w_in_pre, &w_in) && same_mapping(&w_pr_pre, &w_pr));
+            let c_entry = !good || !APPLICABLE || pool.rd(N, ix.0[N]) == (pre.e[N] & ADDR) | flags.bits();
+            let c_err_same = ok || (same_mapping(&w_in_pre, &w_in) && same_mapping(&w_pr_pre, &w_pr) && rights_only_added(&w_in_pre, &w_in, 0) && rights_only_added(&w_pr_pre, &w_pr, 0));
+            let c_wf = bogus || (w_in.kind != MALFORMED && w_pr.kind != MALFORMED);
+            let c_frame = bogus || dict.agrees(fk, fs, f_pre, f_post);
             let g = ghost();
-            kani::assert(g.seq == 0 && g.zero_elsewhere == 0, ob!("C09", $lv, $sz, $shape, "no_frames_requested_or_zeroed: the call has no allocator and never runs zero()"));
+            let c_noalloc = g.seq == 0 && g.zero_elsewhere == 0;
+            let c_outside = g.outside == 0;
+            each! {
+                c_na => ob!("C02", $lv, $sz, $shape, "level_above_leaf_does_not_exist_is_error: a page of this size has no parent entry at this level"),
+                c_huge_leaf => ob!("C02", $lv, $sz, $shape, "reports_parent_entry_huge_page_and_unchanged: the page lies inside a huge page whose leaf is this entry; ParentEntryHugePage and the leaf bit-identical"),
+                outcome_ok => ob!("C02", $lv, $sz, $shape, "documented_outcome: Ok iff the entry exists and points to a table, PageNotMapped iff an entry down to this level is absent, ParentEntryHugePage iff the page lies inside a huge page"),
+                // C11: a change to a parent entry returns the flush-all token: Result<MapperFlushAll, _> by type
+                true => ob!("C11", $lv, $sz, $shape, "flush_all_token"),
+                c_noleaf => ob!("C01", $lv, $sz, $shape, "no_leaf_changes: frame, size and leaf flags of the target and of an arbitrary address as before"),
+                c_entry => ob!("C01", $lv, $sz, $shape, "entry_flags_replaced_address_kept: the level-N entry holds its old address with exactly the given flags"),
+                c_err_same => ob!("C02", $lv, $sz, $shape, "error_leaves_every_mapping: frame, size, leaf flags and rights of the target and of an arbitrary address as before"),
+                c_wf => ob!("C09", $lv, $sz, $shape, "no_dangling_table_pointer: every present non-leaf entry still points to a page table"),
+                c_frame => ob!("C09", $lv, $sz, $shape, "only_dictated_slots_change: only the level-N entry of a successful call changes; nothing else is written"),
+                c_noalloc => ob!("C09", $lv, $sz, $shape, "no_frames_requested_or_zeroed: the call has no allocator and never runs zero()"),
+                c_outside => ob!("C09", $lv, $sz, $shape, "no_access_outside_page_tables: no pointer was requested for a frame that is not a page table of the hierarchy"),
+            }
             kani::cover(outcome == OK, concat!("set_flags_", $lv, "_", $sz, " ", $shape, ": Ok"));
             kani::cover(outcome == E_NOT_MAPPED, concat!("set_flags_", $lv, "_", $sz, " ", $shape, ": PageNotMapped"));
             kani::cover(outcome == E_PARENT_HUGE, concat!("set_flags_", $lv, "_", $sz, " ", $shape, ": ParentEntryHugePage"));
         }};
     }
 
-    //@ obligation C02 C02.set_flags_p4_entry_4kib.shape_p4_absent.documented_outcome tier=thorough bounded="pool of 7 tables (4 path + 3 allocatable); tree-shaped sparse pre-state (target path, one neighbour word per path table, garbage in allocatable frames); page-table indices (0,0,0,0)"
-    //@ obligation C02 C02.set_flags_p4_entry_4kib.shape_p4_absent.error_leaves_every_mapping tier=thorough bounded="pool of 7 tables (4 path + 3 allocatable); tree-shaped sparse pre-state (target path, one neighbour word per path table, garbage in allocatable frames); page-table indices (0,0,0,0)"
-    //@ obligation C09 C09.set_flags_p4_entry_4kib.shape_p4_absent.only_dictated_slots_change tier=thorough bounded="pool of 7 tables (4 path + 3 allocatable); tree-shaped sparse pre-state (target path, one neighbour word per path table, garbage in allocatable frames); page-table indices (0,0,0,0)"
-    //@ obligation C09 C09.set_flags_p4_entry_4kib.shape_p4_absent.no_frames_requested_or_zeroed tier=thorough bounded="pool of 7 tables (4 path + 3 allocatable); tree-shaped sparse pre-state (target path, one neighbour word per path table, garbage in allocatable frames); page-table indices (0,0,0,0)"
-    //@ obligation C09 C09.set_flags_p4_entry_4kib.shape_p4_absent.no_dangling_table_pointer tier=thorough bounded="pool of 7 tables (4 path + 3 allocatable); tree-shaped sparse pre-state (target path, one neighbour word per path table, garbage in allocatable frames); page-table indices (0,0,0,0)"
+    //@ obligation C02 C02.set_flags_p4_entry_4kib.shape_p4_absent.documented_outcome tier=thorough bounded="pool of 7 tables (4 path + 3 allocatable); tree-shaped sparse pre-state (target path, one neighbour word per path table, garbage in allocatable frames); page-table indices (0,1,511,2)"
+    //@ obligation C02 C02.set_flags_p4_entry_4kib.shape_p4_absent.error_leaves_every_mapping tier=thorough bounded="pool of 7 tables (4 path + 3 allocatable); tree-shaped sparse pre-state (target path, one neighbour word per path table, garbage in allocatable frames); page-table indices (0,1,511,2)"
+    //@ obligation C09 C09.set_flags_p4_entry_4kib.shape_p4_absent.only_dictated_slots_change tier=thorough bounded="pool of 7 tables (4 path + 3 allocatable); tree-shaped sparse pre-state (target path, one neighbour word per path table, garbage in allocatable frames); page-table indices (0,1,511,2)"
+    //@ obligation C09 C09.set_flags_p4_entry_4kib.shape_p4_absent.no_frames_requested_or_zeroed tier=thorough bounded="pool of 7 tables (4 path + 3 allocatable); tree-shaped sparse pre-state (target path, one neighbour word per path table, garbage in allocatable frames); page-table indices (0,1,511,2)"
+    //@ obligation C09 C09.set_flags_p4_entry_4kib.shape_p4_absent.no_dangling_table_pointer tier=thorough bounded="pool of 7 tables (4 path + 3 allocatable); tree-shaped sparse pre-state (target path, one neighbour word per path table, garbage in allocatable frames); page-table indices (0,1,511,2)"
+    //@ obligation C09 C09.set_flags_p4_entry_4kib.shape_p4_absent.no_access_outside_page_tables tier=thorough bounded="pool of 7 tables (4 path + 3 allocatable); tree-shaped sparse pre-state (target path, one neighbour word per path table, garbage in allocatable frames); page-table indices (0,1,511,2)"
     #[kani::proof]
     #[kani::stub(PageTable::zero, zero_stub)]
     fn c02_set_flags_p4_entry_4kib_p4_absent_lo() {
@@ -133,11 +133,12 @@ mod verif_c01_step_flags {
         kani::cover!(true, "c02_set_flags_p4_entry_4kib_p4_absent_lo: reachable");
     }
 
-    //@ obligation C02 C02.set_flags_p4_entry_4kib.shape_p4_absent.documented_outcome tier=thorough bounded="pool of 7 tables (4 path + 3 allocatable); tree-shaped sparse pre-state (target path, one neighbour word per path table, garbage in allocatable frames); page-table indices (511,511,511,511)"
-    //@ obligation C02 C02.set_flags_p4_entry_4kib.shape_p4_absent.error_leaves_every_mapping tier=thorough bounded="pool of 7 tables (4 path + 3 allocatable); tree-shaped sparse pre-state (target path, one neighbour word per path table, garbage in allocatable frames); page-table indices (511,511,511,511)"
-    //@ obligation C09 C09.set_flags_p4_entry_4kib.shape_p4_absent.only_dictated_slots_change tier=thorough bounded="pool of 7 tables (4 path + 3 allocatable); tree-shaped sparse pre-state (target path, one neighbour word per path table, garbage in allocatable frames); page-table indices (511,511,511,511)"
-    //@ obligation C09 C09.set_flags_p4_entry_4kib.shape_p4_absent.no_frames_requested_or_zeroed tier=thorough bounded="pool of 7 tables (4 path + 3 allocatable); tree-shaped sparse pre-state (target path, one neighbour word per path table, garbage in allocatable frames); page-table indices (511,511,511,511)"
-    //@ obligation C09 C09.set_flags_p4_entry_4kib.shape_p4_absent.no_dangling_table_pointer tier=thorough bounded="pool of 7 tables (4 path + 3 allocatable); tree-shaped sparse pre-state (target path, one neighbour word per path table, garbage in allocatable frames); page-table indices (511,511,511,511)"
+    //@ obligation C02 C02.set_flags_p4_entry_4kib.shape_p4_absent.documented_outcome tier=thorough bounded="pool of 7 tables (4 path + 3 allocatable); tree-shaped sparse pre-state (target path, one neighbour word per path table, garbage in allocatable frames); page-table indices (511,510,1,0)"
+    //@ obligation C02 C02.set_flags_p4_entry_4kib.shape_p4_absent.error_leaves_every_mapping tier=thorough bounded="pool of 7 tables (4 path + 3 allocatable); tree-shaped sparse pre-state (target path, one neighbour word per path table, garbage in allocatable frames); page-table indices (511,510,1,0)"
+    //@ obligation C09 C09.set_flags_p4_entry_4kib.shape_p4_absent.only_dictated_slots_change tier=thorough bounded="pool of 7 tables (4 path + 3 allocatable); tree-shaped sparse pre-state (target path, one neighbour word per path table, garbage in allocatable frames); page-table indices (511,510,1,0)"
+    //@ obligation C09 C09.set_flags_p4_entry_4kib.shape_p4_absent.no_frames_requested_or_zeroed tier=thorough bounded="pool of 7 tables (4 path + 3 allocatable); tree-shaped sparse pre-state (target path, one neighbour word per path table, garbage in allocatable frames); page-table indices (511,510,1,0)"
+    //@ obligation C09 C09.set_flags_p4_entry_4kib.shape_p4_absent.no_dangling_table_pointer tier=thorough bounded="pool of 7 tables (4 path + 3 allocatable); tree-shaped sparse pre-state (target path, one neighbour word per path table, garbage in allocatable frames); page-table indices (511,510,1,0)"
+    //@ obligation C09 C09.set_flags_p4_entry_4kib.shape_p4_absent.no_access_outside_page_tables tier=thorough bounded="pool of 7 tables (4 path + 3 allocatable); tree-shaped sparse pre-state (target path, one neighbour word per path table, garbage in allocatable frames); page-table indices (511,510,1,0)"
     #[kani::proof]
     #[kani::stub(PageTable::zero, zero_stub)]
     fn c02_set_flags_p4_entry_4kib_p4_absent_hi() {
@@ -145,11 +146,12 @@ mod verif_c01_step_flags {
         kani::cover!(true, "c02_set_flags_p4_entry_4kib_p4_absent_hi: reachable");
     }
 
-    //@ obligation C02 C02.set_flags_p4_entry_4kib.shape_p4_absent.documented_outcome tier=thorough bounded="pool of 7 tables (4 path + 3 allocatable); tree-shaped sparse pre-state (target path, one neighbour word per path table, garbage in allocatable frames); page-table indices (255,511,0,1)"
-    //@ obligation C02 C02.set_flags_p4_entry_4kib.shape_p4_absent.error_leaves_every_mapping tier=thorough bounded="pool of 7 tables (4 path + 3 allocatable); tree-shaped sparse pre-state (target path, one neighbour word per path table, garbage in allocatable frames); page-table indices (255,511,0,1)"
-    //@ obligation C09 C09.set_flags_p4_entry_4kib.shape_p4_absent.only_dictated_slots_change tier=thorough bounded="pool of 7 tables (4 path + 3 allocatable); tree-shaped sparse pre-state (target path, one neighbour word per path table, garbage in allocatable frames); page-table indices (255,511,0,1)"
-    //@ obligation C09 C09.set_flags_p4_entry_4kib.shape_p4_absent.no_frames_requested_or_zeroed tier=thorough bounded="pool of 7 tables (4 path + 3 allocatable); tree-shaped sparse pre-state (target path, one neighbour word per path table, garbage in allocatable frames); page-table indices (255,511,0,1)"
-    //@ obligation C09 C09.set_flags_p4_entry_4kib.shape_p4_absent.no_dangling_table_pointer tier=thorough bounded="pool of 7 tables (4 path + 3 allocatable); tree-shaped sparse pre-state (target path, one neighbour word per path table, garbage in allocatable frames); page-table indices (255,511,0,1)"
+    //@ obligation C02 C02.set_flags_p4_entry_4kib.shape_p4_absent.documented_outcome tier=thorough bounded="pool of 7 tables (4 path + 3 allocatable); tree-shaped sparse pre-state (target path, one neighbour word per path table, garbage in allocatable frames); page-table indices (255,511,0,256)"
+    //@ obligation C02 C02.set_flags_p4_entry_4kib.shape_p4_absent.error_leaves_every_mapping tier=thorough bounded="pool of 7 tables (4 path + 3 allocatable); tree-shaped sparse pre-state (target path, one neighbour word per path table, garbage in allocatable frames); page-table indices (255,511,0,256)"
+    //@ obligation C09 C09.set_flags_p4_entry_4kib.shape_p4_absent.only_dictated_slots_change tier=thorough bounded="pool of 7 tables (4 path + 3 allocatable); tree-shaped sparse pre-state (target path, one neighbour word per path table, garbage in allocatable frames); page-table indices (255,511,0,256)"
+    //@ obligation C09 C09.set_flags_p4_entry_4kib.shape_p4_absent.no_frames_requested_or_zeroed tier=thorough bounded="pool of 7 tables (4 path + 3 allocatable); tree-shaped sparse pre-state (target path, one neighbour word per path table, garbage in allocatable frames); page-table indices (255,511,0,256)"
+    //@ obligation C09 C09.set_flags_p4_entry_4kib.shape_p4_absent.no_dangling_table_pointer tier=thorough bounded="pool of 7 tables (4 path + 3 allocatable); tree-shaped sparse pre-state (target path, one neighbour word per path table, garbage in allocatable frames); page-table indices (255,511,0,256)"
+    //@ obligation C09 C09.set_flags_p4_entry_4kib.shape_p4_absent.no_access_outside_page_tables tier=thorough bounded="pool of 7 tables (4 path + 3 allocatable); tree-shaped sparse pre-state (target path, one neighbour word per path table, garbage in allocatable frames); page-table indices (255,511,0,256)"
     #[kani::proof]
     #[kani::stub(PageTable::zero, zero_stub)]
     fn c02_set_flags_p4_entry_4kib_p4_absent_mid() {
@@ -157,11 +159,12 @@ mod verif_c01_step_flags {
         kani::cover!(true, "c02_set_flags_p4_entry_4kib_p4_absent_mid: reachable");
     }
 
-    //@ obligation C02 C02.set_flags_p4_entry_4kib.shape_p4_absent.documented_outcome tier=thorough bounded="pool of 7 tables (4 path + 3 allocatable); tree-shaped sparse pre-state (target path, one neighbour word per path table, garbage in allocatable frames); page-table indices (256,1,510,255)"
-    //@ obligation C02 C02.set_flags_p4_entry_4kib.shape_p4_absent.error_leaves_every_mapping tier=thorough bounded="pool of 7 tables (4 path + 3 allocatable); tree-shaped sparse pre-state (target path, one neighbour word per path table, garbage in allocatable frames); page-table indices (256,1,510,255)"
-    //@ obligation C09 C09.set_flags_p4_entry_4kib.shape_p4_absent.only_dictated_slots_change tier=thorough bounded="pool of 7 tables (4 path + 3 allocatable); tree-shaped sparse pre-state (target path, one neighbour word per path table, garbage in allocatable frames); page-table indices (256,1,510,255)"
-    //@ obligation C09 C09.set_flags_p4_entry_4kib.shape_p4_absent.no_frames_requested_or_zeroed tier=thorough bounded="pool of 7 tables (4 path + 3 allocatable); tree-shaped sparse pre-state (target path, one neighbour word per path table, garbage in allocatable frames); page-table indices (256,1,510,255)"
-    //@ obligation C09 C09.set_flags_p4_entry_4kib.shape_p4_absent.no_dangling_table_pointer tier=thorough bounded="pool of 7 tables (4 path + 3 allocatable); tree-shaped sparse pre-state (target path, one neighbour word per path table, garbage in allocatable frames); page-table indices (256,1,510,255)"
+    //@ obligation C02 C02.set_flags_p4_entry_4kib.shape_p4_absent.documented_outcome tier=thorough bounded="pool of 7 tables (4 path + 3 allocatable); tree-shaped sparse pre-state (target path, one neighbour word per path table, garbage in allocatable frames); page-table indices (256,0,510,511)"
+    //@ obligation C02 C02.set_flags_p4_entry_4kib.shape_p4_absent.error_leaves_every_mapping tier=thorough bounded="pool of 7 tables (4 path + 3 allocatable); tree-shaped sparse pre-state (target path, one neighbour word per path table, garbage in allocatable frames); page-table indices (256,0,510,511)"
+    //@ obligation C09 C09.set_flags_p4_entry_4kib.shape_p4_absent.only_dictated_slots_change tier=thorough bounded="pool of 7 tables (4 path + 3 allocatable); tree-shaped sparse pre-state (target path, one neighbour word per path table, garbage in allocatable frames); page-table indices (256,0,510,511)"
+    //@ obligation C09 C09.set_flags_p4_entry_4kib.shape_p4_absent.no_frames_requested_or_zeroed tier=thorough bounded="pool of 7 tables (4 path + 3 allocatable); tree-shaped sparse pre-state (target path, one neighbour word per path table, garbage in allocatable frames); page-table indices (256,0,510,511)"
+    //@ obligation C09 C09.set_flags_p4_entry_4kib.shape_p4_absent.no_dangling_table_pointer tier=thorough bounded="pool of 7 tables (4 path + 3 allocatable); tree-shaped sparse pre-state (target path, one neighbour word per path table, garbage in allocatable frames); page-table indices (256,0,510,511)"
+    //@ obligation C09 C09.set_flags_p4_entry_4kib.shape_p4_absent.no_access_outside_page_tables tier=thorough bounded="pool of 7 tables (4 path + 3 allocatable); tree-shaped sparse pre-state (target path, one neighbour word per path table, garbage in allocatable frames); page-table indices (256,0,510,511)"
     #[kani::proof]
     #[kani::stub(PageTable::zero, zero_stub)]
     fn c02_set_flags_p4_entry_4kib_p4_absent_up() {
@@ -169,13 +172,14 @@ mod verif_c01_step_flags {
         kani::cover!(true, "c02_set_flags_p4_entry_4kib_p4_absent_up: reachable");
     }
 
-    //@ obligation C02 C02.set_flags_p4_entry_4kib.shape_p4_table.documented_outcome tier=thorough bounded="pool of 7 tables (4 path + 3 allocatable); tree-shaped sparse pre-state (target path, one neighbour word per path table, garbage in allocatable frames); page-table indices (0,0,0,0)"
-    //@ obligation C01 C01.set_flags_p4_entry_4kib.shape_p4_table.no_leaf_changes tier=thorough bounded="pool of 7 tables (4 path + 3 allocatable); tree-shaped sparse pre-state (target path, one neighbour word per path table, garbage in allocatable frames); page-table indices (0,0,0,0)"
-    //@ obligation C01 C01.set_flags_p4_entry_4kib.shape_p4_table.entry_flags_replaced_address_kept tier=thorough bounded="pool of 7 tables (4 path + 3 allocatable); tree-shaped sparse pre-state (target path, one neighbour word per path table, garbage in allocatable frames); page-table indices (0,0,0,0)"
-    //@ obligation C11 C11.set_flags_p4_entry_4kib.shape_p4_table.flush_all_token tier=thorough bounded="pool of 7 tables (4 path + 3 allocatable); tree-shaped sparse pre-state (target path, one neighbour word per path table, garbage in allocatable frames); page-table indices (0,0,0,0)"
-    //@ obligation C09 C09.set_flags_p4_entry_4kib.shape_p4_table.only_dictated_slots_change tier=thorough bounded="pool of 7 tables (4 path + 3 allocatable); tree-shaped sparse pre-state (target path, one neighbour word per path table, garbage in allocatable frames); page-table indices (0,0,0,0)"
-    //@ obligation C09 C09.set_flags_p4_entry_4kib.shape_p4_table.no_frames_requested_or_zeroed tier=thorough bounded="pool of 7 tables (4 path + 3 allocatable); tree-shaped sparse pre-state (target path, one neighbour word per path table, garbage in allocatable frames); page-table indices (0,0,0,0)"
-    //@ obligation C09 C09.set_flags_p4_entry_4kib.shape_p4_table.no_dangling_table_pointer tier=thorough bounded="pool of 7 tables (4 path + 3 allocatable); tree-shaped sparse pre-state (target path, one neighbour word per path table, garbage in allocatable frames); page-table indices (0,0,0,0)"
+    //@ obligation C02 C02.set_flags_p4_entry_4kib.shape_p4_table.documented_outcome tier=thorough bounded="pool of 7 tables (4 path + 3 allocatable); tree-shaped sparse pre-state (target path, one neighbour word per path table, garbage in allocatable frames); page-table indices (0,1,511,2)"
+    //@ obligation C01 C01.set_flags_p4_entry_4kib.shape_p4_table.no_leaf_changes tier=thorough bounded="pool of 7 tables (4 path + 3 allocatable); tree-shaped sparse pre-state (target path, one neighbour word per path table, garbage in allocatable frames); page-table indices (0,1,511,2)"
+    //@ obligation C01 C01.set_flags_p4_entry_4kib.shape_p4_table.entry_flags_replaced_address_kept tier=thorough bounded="pool of 7 tables (4 path + 3 allocatable); tree-shaped sparse pre-state (target path, one neighbour word per path table, garbage in allocatable frames); page-table indices (0,1,511,2)"
+    //@ obligation C11 C11.set_flags_p4_entry_4kib.shape_p4_table.flush_all_token tier=thorough bounded="pool of 7 tables (4 path + 3 allocatable); tree-shaped sparse pre-state (target path, one neighbour word per path table, garbage in allocatable frames); page-table indices (0,1,511,2)"
+    //@ obligation C09 C09.set_flags_p4_entry_4kib.shape_p4_table.only_dictated_slots_change tier=thorough bounded="pool of 7 tables (4 path + 3 allocatable); tree-shaped sparse pre-state (target path, one neighbour word per path table, garbage in allocatable frames); page-table indices (0,1,511,2)"
+    //@ obligation C09 C09.set_flags_p4_entry_4kib.shape_p4_table.no_frames_requested_or_zeroed tier=thorough bounded="pool of 7 tables (4 path + 3 allocatable); tree-shaped sparse pre-state (target path, one neighbour word per path table, garbage in allocatable frames); page-table indices (0,1,511,2)"
+    //@ obligation C09 C09.set_flags_p4_entry_4kib.shape_p4_table.no_dangling_table_pointer tier=thorough bounded="pool of 7 tables (4 path + 3 allocatable); tree-shaped sparse pre-state (target path, one neighbour word per path table, garbage in allocatable frames); page-table indices (0,1,511,2)"
+    //@ obligation C09 C09.set_flags_p4_entry_4kib.shape_p4_table.no_access_outside_page_tables tier=thorough bounded="pool of 7 tables (4 path + 3 allocatable); tree-shaped sparse pre-state (target path, one neighbour word per path table, garbage in allocatable frames); page-table indices (0,1,511,2)"
     #[kani::proof]
     #[kani::stub(PageTable::zero, zero_stub)]
     fn c01_set_flags_p4_entry_4kib_p4_table_lo() {
@@ -183,13 +187,14 @@ mod verif_c01_step_flags {
         kani::cover!(true, "c01_set_flags_p4_entry_4kib_p4_table_lo: reachable");
     }
 
-    //@ obligation C02 C02.set_flags_p4_entry_4kib.shape_p4_table.documented_outcome tier=thorough bounded="pool of 7 tables (4 path + 3 allocatable); tree-shaped sparse pre-state (target path, one neighbour word per path table, garbage in allocatable frames); page-table indices (511,511,511,511)"
-    //@ obligation C01 C01.set_flags_p4_entry_4kib.shape_p4_table.no_leaf_changes tier=thorough bounded="pool of 7 tables (4 path + 3 allocatable); tree-shaped sparse pre-state (target path, one neighbour word per path table, garbage in allocatable frames); page-table indices (511,511,511,511)"
-    //@ obligation C01 C01.set_flags_p4_entry_4kib.shape_p4_table.entry_flags_replaced_address_kept tier=thorough bounded="pool of 7 tables (4 path + 3 allocatable); tree-shaped sparse pre-state (target path, one neighbour word per path table, garbage in allocatable frames); page-table indices (511,511,511,511)"
-    //@ obligation C11 C11.set_flags_p4_entry_4kib.shape_p4_table.flush_all_token tier=thorough bounded="pool of 7 tables (4 path + 3 allocatable); tree-shaped sparse pre-state (target path, one neighbour word per path table, garbage in allocatable frames); page-table indices (511,511,511,511)"
-    //@ obligation C09 C09.set_flags_p4_entry_4kib.shape_p4_table.only_dictated_slots_change tier=thorough bounded="pool of 7 tables (4 path + 3 allocatable); tree-shaped sparse pre-state (target path, one neighbour word per path table, garbage in allocatable frames); page-table indices (511,511,511,511)"
-    //@ obligation C09 C09.set_flags_p4_entry_4kib.shape_p4_table.no_frames_requested_or_zeroed tier=thorough bounded="pool of 7 tables (4 path + 3 allocatable); tree-shaped sparse pre-state (target path, one neighbour word per path table, garbage in allocatable frames); page-table indices (511,511,511,511)"
-    //@ obligation C09 C09.set_flags_p4_entry_4kib.shape_p4_table.no_dangling_table_pointer tier=thorough bounded="pool of 7 tables (4 path + 3 allocatable); tree-shaped sparse pre-state (target path, one neighbour word per path table, garbage in allocatable frames); page-table indices (511,511,511,511)"
+    //@ obligation C02 C02.set_flags_p4_entry_4kib.shape_p4_table.documented_outcome tier=thorough bounded="pool of 7 tables (4 path + 3 allocatable); tree-shaped sparse pre-state (target path, one neighbour word per path table, garbage in allocatable frames); page-table indices (511,510,1,0)"
+    //@ obligation C01 C01.set_flags_p4_entry_4kib.shape_p4_table.no_leaf_changes tier=thorough bounded="pool of 7 tables (4 path + 3 allocatable); tree-shaped sparse pre-state (target path, one neighbour word per path table, garbage in allocatable frames); page-table indices (511,510,1,0)"
+    //@ obligation C01 C01.set_flags_p4_entry_4kib.shape_p4_table.entry_flags_replaced_address_kept tier=thorough bounded="pool of 7 tables (4 path + 3 allocatable); tree-shaped sparse pre-state (target path, one neighbour word per path table, garbage in allocatable frames); page-table indices (511,510,1,0)"
+    //@ obligation C11 C11.set_flags_p4_entry_4kib.shape_p4_table.flush_all_token tier=thorough bounded="pool of 7 tables (4 path + 3 allocatable); tree-shaped sparse pre-state (target path, one neighbour word per path table, garbage in allocatable frames); page-table indices (511,510,1,0)"
+    //@ obligation C09 C09.set_flags_p4_entry_4kib.shape_p4_table.only_dictated_slots_change tier=thorough bounded="pool of 7 tables (4 path + 3 allocatable); tree-shaped sparse pre-state (target path, one neighbour word per path table, garbage in allocatable frames); page-table indices (511,510,1,0)"
+    //@ obligation C09 C09.set_flags_p4_entry_4kib.shape_p4_table.no_frames_requested_or_zeroed tier=thorough bounded="pool of 7 tables (4 path + 3 allocatable); tree-shaped sparse pre-state (target path, one neighbour word per path table, garbage in allocatable frames); page-table indices (511,510,1,0)"
+    //@ obligation C09 C09.set_flags_p4_entry_4kib.shape_p4_table.no_dangling_table_pointer tier=thorough bounded="pool of 7 tables (4 path + 3 allocatable); tree-shaped sparse pre-state (target path, one neighbour word per path table, garbage in allocatable frames); page-table indices (511,510,1,0)"
+    //@ obligation C09 C09.set_flags_p4_entry_4kib.shape_p4_table.no_access_outside_page_tables tier=thorough bounded="pool of 7 tables (4 path + 3 allocatable); tree-shaped sparse pre-state (target path, one neighbour word per path table, garbage in allocatable frames); page-table indices (511,510,1,0)"
     #[kani::proof]
     #[kani::stub(PageTable::zero, zero_stub)]
     fn c01_set_flags_p4_entry_4kib_p4_table_hi() {
@@ -197,13 +202,14 @@ mod verif_c01_step_flags {
         kani::cover!(true, "c01_set_flags_p4_entry_4kib_p4_table_hi: reachable");
     }
 
-    //@ obligation C02 C02.set_flags_p4_entry_4kib.shape_p4_table.documented_outcome tier=thorough bounded="pool of 7 tables (4 path + 3 allocatable); tree-shaped sparse pre-state (target path, one neighbour word per path table, garbage in allocatable frames); page-table indices (255,511,0,1)"
-    //@ obligation C01 C01.set_flags_p4_entry_4kib.shape_p4_table.no_leaf_changes tier=thorough bounded="pool of 7 tables (4 path + 3 allocatable); tree-shaped sparse pre-state (target path, one neighbour word per path table, garbage in allocatable frames); page-table indices (255,511,0,1)"
-    //@ obligation C01 C01.set_flags_p4_entry_4kib.shape_p4_table.entry_flags_replaced_address_kept tier=thorough bounded="pool of 7 tables (4 path + 3 allocatable); tree-shaped sparse pre-state (target path, one neighbour word per path table, garbage in allocatable frames); page-table indices (255,511,0,1)"
-    //@ obligation C11 C11.set_flags_p4_entry_4kib.shape_p4_table.flush_all_token tier=thorough bounded="pool of 7 tables (4 path + 3 allocatable); tree-shaped sparse pre-state (target path, one neighbour word per path table, garbage in allocatable frames); page-table indices (255,511,0,1)"
-    //@ obligation C09 C09.set_flags_p4_entry_4kib.shape_p4_table.only_dictated_slots_change tier=thorough bounded="pool of 7 tables (4 path + 3 allocatable); tree-shaped sparse pre-state (target path, one neighbour word per path table, garbage in allocatable frames); page-table indices (255,511,0,1)"
-    //@ obligation C09 C09.set_flags_p4_entry_4kib.shape_p4_table.no_frames_requested_or_zeroed tier=thorough bounded="pool of 7 tables (4 path + 3 allocatable); tree-shaped sparse pre-state (target path, one neighbour word per path table, garbage in allocatable frames); page-table indices (255,511,0,1)"
-    //@ obligation C09 C09.set_flags_p4_entry_4kib.shape_p4_table.no_dangling_table_pointer tier=thorough bounded="pool of 7 tables (4 path + 3 allocatable); tree-shaped sparse pre-state (target path, one neighbour word per path table, garbage in allocatable frames); page-table indices (255,511,0,1)"
+    //@ obligation C02 C02.set_flags_p4_entry_4kib.shape_p4_table.documented_outcome tier=thorough bounded="pool of 7 tables (4 path + 3 allocatable); tree-shaped sparse pre-state (target path, one neighbour word per path table, garbage in allocatable frames); page-table indices (255,511,0,256)"
+    //@ obligation C01 C01.set_flags_p4_entry_4kib.shape_p4_table.no_leaf_changes tier=thorough bounded="pool of 7 tables (4 path + 3 allocatable); tree-shaped sparse pre-state (target path, one neighbour word per path table, garbage in allocatable frames); page-table indices (255,511,0,256)"
+    //@ obligation C01 C01.set_flags_p4_entry_4kib.shape_p4_table.entry_flags_replaced_address_kept tier=thorough bounded="pool of 7 tables (4 path + 3 allocatable); tree-shaped sparse pre-state (target path, one neighbour word per path table, garbage in allocatable frames); page-table indices (255,511,0,256)"
+    //@ obligation C11 C11.set_flags_p4_entry_4kib.shape_p4_table.flush_all_token tier=thorough bounded="pool of 7 tables (4 path + 3 allocatable); tree-shaped sparse pre-state (target path, one neighbour word per path table, garbage in allocatable frames); page-table indices (255,511,0,256)"
+    //@ obligation C09 C09.set_flags_p4_entry_4kib.shape_p4_table.only_dictated_slots_change tier=thorough bounded="pool of 7 tables (4 path + 3 allocatable); tree-shaped sparse pre-state (target path, one neighbour word per path table, garbage in allocatable frames); page-table indices (255,511,0,256)"
+    //@ obligation C09 C09.set_flags_p4_entry_4kib.shape_p4_table.no_frames_requested_or_zeroed tier=thorough bounded="pool of 7 tables (4 path + 3 allocatable); tree-shaped sparse pre-state (target path, one neighbour word per path table, garbage in allocatable frames); page-table indices (255,511,0,256)"
+    //@ obligation C09 C09.set_flags_p4_entry_4kib.shape_p4_table.no_dangling_table_pointer tier=thorough bounded="pool of 7 tables (4 path + 3 allocatable); tree-shaped sparse pre-state (target path, one neighbour word per path table, garbage in allocatable frames); page-table indices (255,511,0,256)"
+    //@ obligation C09 C09.set_flags_p4_entry_4kib.shape_p4_table.no_access_outside_page_tables tier=thorough bounded="pool of 7 tables (4 path + 3 allocatable); tree-shaped sparse pre-state (target path, one neighbour word per path table, garbage in allocatable frames); page-table indices (255,511,0,256)"
     #[kani::proof]
     #[kani::stub(PageTable::zero, zero_stub)]
     fn c01_set_flags_p4_entry_4kib_p4_table_mid() {
@@ -211,13 +217,14 @@ mod verif_c01_step_flags {
         kani::cover!(true, "c01_set_flags_p4_entry_4kib_p4_table_mid: reachable");
     }
 
-    //@ obligation C02 C02.set_flags_p4_entry_4kib.shape_p4_table.documented_outcome bounded="pool of 7 tables (4 path + 3 allocatable); tree-shaped sparse pre-state (target path, one neighbour word per path table, garbage in allocatable frames); page-table indices (256,1,510,255)"
-    //@ obligation C01 C01.set_flags_p4_entry_4kib.shape_p4_table.no_leaf_changes bounded="pool of 7 tables (4 path + 3 allocatable); tree-shaped sparse pre-state (target path, one neighbour word per path table, garbage in allocatable frames); page-table indices (256,1,510,255)"
-    //@ obligation C01 C01.set_flags_p4_entry_4kib.shape_p4_table.entry_flags_replaced_address_kept bounded="pool of 7 tables (4 path + 3 allocatable); tree-shaped sparse pre-state (target path, one neighbour word per path table, garbage in allocatable frames); page-table indices (256,1,510,255)"
-    //@ obligation C11 C11.set_flags_p4_entry_4kib.shape_p4_table.flush_all_token bounded="pool of 7 tables (4 path + 3 allocatable); tree-shaped sparse pre-state (target path, one neighbour word per path table, garbage in allocatable frames); page-table indices (256,1,510,255)"
-    //@ obligation C09 C09.set_flags_p4_entry_4kib.shape_p4_table.only_dictated_slots_change bounded="pool of 7 tables (4 path + 3 allocatable); tree-shaped sparse pre-state (target path, one neighbour word per path table, garbage in allocatable frames); page-table indices (256,1,510,255)"
-    //@ obligation C09 C09.set_flags_p4_entry_4kib.shape_p4_table.no_frames_requested_or_zeroed bounded="pool of 7 tables (4 path + 3 allocatable); tree-shaped sparse pre-state (target path, one neighbour word per path table, garbage in allocatable frames); page-table indices (256,1,510,255)"
-    //@ obligation C09 C09.set_flags_p4_entry_4kib.shape_p4_table.no_dangling_table_pointer bounded="pool of 7 tables (4 path + 3 allocatable); tree-shaped sparse pre-state (target path, one neighbour word per path table, garbage in allocatable frames); page-table indices (256,1,510,255)"
+    //@ obligation C02 C02.set_flags_p4_entry_4kib.shape_p4_table.documented_outcome bounded="pool of 7 tables (4 path + 3 allocatable); tree-shaped sparse pre-state (target path, one neighbour word per path table, garbage in allocatable frames); page-table indices (256,0,510,511)"
+    //@ obligation C01 C01.set_flags_p4_entry_4kib.shape_p4_table.no_leaf_changes bounded="pool of 7 tables (4 path + 3 allocatable); tree-shaped sparse pre-state (target path, one neighbour word per path table, garbage in allocatable frames); page-table indices (256,0,510,511)"
+    //@ obligation C01 C01.set_flags_p4_entry_4kib.shape_p4_table.entry_flags_replaced_address_kept bounded="pool of 7 tables (4 path + 3 allocatable); tree-shaped sparse pre-state (target path, one neighbour word per path table, garbage in allocatable frames); page-table indices (256,0,510,511)"
+    //@ obligation C11 C11.set_flags_p4_entry_4kib.shape_p4_table.flush_all_token bounded="pool of 7 tables (4 path + 3 allocatable); tree-shaped sparse pre-state (target path, one neighbour word per path table, garbage in allocatable frames); page-table indices (256,0,510,511)"
+    //@ obligation C09 C09.set_flags_p4_entry_4kib.shape_p4_table.only_dictated_slots_change bounded="pool of 7 tables (4 path + 3 allocatable); tree-shaped sparse pre-state (target path, one neighbour word per path table, garbage in allocatable frames); page-table indices (256,0,510,511)"
+    //@ obligation C09 C09.set_flags_p4_entry_4kib.shape_p4_table.no_frames_requested_or_zeroed bounded="pool of 7 tables (4 path + 3 allocatable); tree-shaped sparse pre-state (target path, one neighbour word per path table, garbage in allocatable frames); page-table indices (256,0,510,511)"
+    //@ obligation C09 C09.set_flags_p4_entry_4kib.shape_p4_table.no_dangling_table_pointer bounded="pool of 7 tables (4 path + 3 allocatable); tree-shaped sparse pre-state (target path, one neighbour word per path table, garbage in allocatable frames); page-table indices (256,0,510,511)"
+    //@ obligation C09 C09.set_flags_p4_entry_4kib.shape_p4_table.no_access_outside_page_tables bounded="pool of 7 tables (4 path + 3 allocatable); tree-shaped sparse pre-state (target path, one neighbour word per path table, garbage in allocatable frames); page-table indices (256,0,510,511)"
     #[kani::proof]
     #[kani::stub(PageTable::zero, zero_stub)]
     fn c01_set_flags_p4_entry_4kib_p4_table_up() {
@@ -225,11 +232,12 @@ mod verif_c01_step_flags {
         kani::cover!(true, "c01_set_flags_p4_entry_4kib_p4_table_up: reachable");
     }
 
-    //@ obligation C02 C02.set_flags_p4_entry_2mib.shape_p4_absent.documented_outcome tier=thorough bounded="pool of 7 tables (4 path + 3 allocatable); tree-shaped sparse pre-state (target path, one neighbour word per path table, garbage in allocatable frames); page-table indices (0,0,0,0)"
-    //@ obligation C02 C02.set_flags_p4_entry_2mib.shape_p4_absent.error_leaves_every_mapping tier=thorough bounded="pool of 7 tables (4 path + 3 allocatable); tree-shaped sparse pre-state (target path, one neighbour word per path table, garbage in allocatable frames); page-table indices (0,0,0,0)"
-    //@ obligation C09 C09.set_flags_p4_entry_2mib.shape_p4_absent.only_dictated_slots_change tier=thorough bounded="pool of 7 tables (4 path + 3 allocatable); tree-shaped sparse pre-state (target path, one neighbour word per path table, garbage in allocatable frames); page-table indices (0,0,0,0)"
-    //@ obligation C09 C09.set_flags_p4_entry_2mib.shape_p4_absent.no_frames_requested_or_zeroed tier=thorough bounded="pool of 7 tables (4 path + 3 allocatable); tree-shaped sparse pre-state (target path, one neighbour word per path table, garbage in allocatable frames); page-table indices (0,0,0,0)"
-    //@ obligation C09 C09.set_flags_p4_entry_2mib.shape_p4_absent.no_dangling_table_pointer tier=thorough bounded="pool of 7 tables (4 path + 3 allocatable); tree-shaped sparse pre-state (target path, one neighbour word per path table, garbage in allocatable frames); page-table indices (0,0,0,0)"
+    //@ obligation C02 C02.set_flags_p4_entry_2mib.shape_p4_absent.documented_outcome tier=thorough bounded="pool of 7 tables (4 path + 3 allocatable); tree-shaped sparse pre-state (target path, one neighbour word per path table, garbage in allocatable frames); page-table indices (0,1,511,2)"
+    //@ obligation C02 C02.set_flags_p4_entry_2mib.shape_p4_absent.error_leaves_every_mapping tier=thorough bounded="pool of 7 tables (4 path + 3 allocatable); tree-shaped sparse pre-state (target path, one neighbour word per path table, garbage in allocatable frames); page-table indices (0,1,511,2)"
+    //@ obligation C09 C09.set_flags_p4_entry_2mib.shape_p4_absent.only_dictated_slots_change tier=thorough bounded="pool of 7 tables (4 path + 3 allocatable); tree-shaped sparse pre-state (target path, one neighbour word per path table, garbage in allocatable frames); page-table indices (0,1,511,2)"
+    //@ obligation C09 C09.set_flags_p4_entry_2mib.shape_p4_absent.no_frames_requested_or_zeroed tier=thorough bounded="pool of 7 tables (4 path + 3 allocatable); tree-shaped sparse pre-state (target path, one neighbour word per path table, garbage in allocatable frames); page-table indices (0,1,511,2)"
+    //@ obligation C09 C09.set_flags_p4_entry_2mib.shape_p4_absent.no_dangling_table_pointer tier=thorough bounded="pool of 7 tables (4 path + 3 allocatable); tree-shaped sparse pre-state (target path, one neighbour word per path table, garbage in allocatable frames); page-table indices (0,1,511,2)"
+    //@ obligation C09 C09.set_flags_p4_entry_2mib.shape_p4_absent.no_access_outside_page_tables tier=thorough bounded="pool of 7 tables (4 path + 3 allocatable); tree-shaped sparse pre-state (target path, one neighbour word per path table, garbage in allocatable frames); page-table indices (0,1,511,2)"
     #[kani::proof]
     #[kani::stub(PageTable::zero, zero_stub)]
     fn c02_set_flags_p4_entry_2mib_p4_absent_lo() {
@@ -237,11 +245,12 @@ mod verif_c01_step_flags {
         kani::cover!(true, "c02_set_flags_p4_entry_2mib_p4_absent_lo: reachable");
     }
 
-    //@ obligation C02 C02.set_flags_p4_entry_2mib.shape_p4_absent.documented_outcome tier=thorough bounded="pool of 7 tables (4 path + 3 allocatable); tree-shaped sparse pre-state (target path, one neighbour word per path table, garbage in allocatable frames); page-table indices (511,511,511,511)"
-    //@ obligation C02 C02.set_flags_p4_entry_2mib.shape_p4_absent.error_leaves_every_mapping tier=thorough bounded="pool of 7 tables (4 path + 3 allocatable); tree-shaped sparse pre-state (target path, one neighbour word per path table, garbage in allocatable frames); page-table indices (511,511,511,511)"
-    //@ obligation C09 C09.set_flags_p4_entry_2mib.shape_p4_absent.only_dictated_slots_change tier=thorough bounded="pool of 7 tables (4 path + 3 allocatable); tree-shaped sparse pre-state (target path, one neighbour word per path table, garbage in allocatable frames); page-table indices (511,511,511,511)"
-    //@ obligation C09 C09.set_flags_p4_entry_2mib.shape_p4_absent.no_frames_requested_or_zeroed tier=thorough bounded="pool of 7 tables (4 path + 3 allocatable); tree-shaped sparse pre-state (target path, one neighbour word per path table, garbage in allocatable frames); page-table indices (511,511,511,511)"
-    //@ obligation C09 C09.set_flags_p4_entry_2mib.shape_p4_absent.no_dangling_table_pointer tier=thorough bounded="pool of 7 tables (4 path + 3 allocatable); tree-shaped sparse pre-state (target path, one neighbour word per path table, garbage in allocatable frames); page-table indices (511,511,511,511)"
+    //@ obligation C02 C02.set_flags_p4_entry_2mib.shape_p4_absent.documented_outcome tier=thorough bounded="pool of 7 tables (4 path + 3 allocatable); tree-shaped sparse pre-state (target path, one neighbour word per path table, garbage in allocatable frames); page-table indices (511,510,1,0)"
+    //@ obligation C02 C02.set_flags_p4_entry_2mib.shape_p4_absent.error_leaves_every_mapping tier=thorough bounded="pool of 7 tables (4 path + 3 allocatable); tree-shaped sparse pre-state (target path, one neighbour word per path table, garbage in allocatable frames); page-table indices (511,510,1,0)"
+    //@ obligation C09 C09.set_flags_p4_entry_2mib.shape_p4_absent.only_dictated_slots_change tier=thorough bounded="pool of 7 tables (4 path + 3 allocatable); tree-shaped sparse pre-state (target path, one neighbour word per path table, garbage in allocatable frames); page-table indices (511,510,1,0)"
+    //@ obligation C09 C09.set_flags_p4_entry_2mib.shape_p4_absent.no_frames_requested_or_zeroed tier=thorough bounded="pool of 7 tables (4 path + 3 allocatable); tree-shaped sparse pre-state (target path, one neighbour word per path table, garbage in allocatable frames); page-table indices (511,510,1,0)"
+    //@ obligation C09 C09.set_flags_p4_entry_2mib.shape_p4_absent.no_dangling_table_pointer tier=thorough bounded="pool of 7 tables (4 path + 3 allocatable); tree-shaped sparse pre-state (target path, one neighbour word per path table, garbage in allocatable frames); page-table indices (511,510,1,0)"
+    //@ obligation C09 C09.set_flags_p4_entry_2mib.shape_p4_absent.no_access_outside_page_tables tier=thorough bounded="pool of 7 tables (4 path + 3 allocatable); tree-shaped sparse pre-state (target path, one neighbour word per path table, garbage in allocatable frames); page-table indices (511,510,1,0)"
     #[kani::proof]
     #[kani::stub(PageTable::zero, zero_stub)]
     fn c02_set_flags_p4_entry_2mib_p4_absent_hi() {
@@ -249,11 +258,12 @@ mod verif_c01_step_flags {
         kani::cover!(true, "c02_set_flags_p4_entry_2mib_p4_absent_hi: reachable");
     }
 
-    //@ obligation C02 C02.set_flags_p4_entry_2mib.shape_p4_absent.documented_outcome tier=thorough bounded="pool of 7 tables (4 path + 3 allocatable); tree-shaped sparse pre-state (target path, one neighbour word per path table, garbage in allocatable frames); page-table indices (255,511,0,1)"
-    //@ obligation C02 C02.set_flags_p4_entry_2mib.shape_p4_absent.error_leaves_every_mapping tier=thorough bounded="pool of 7 tables (4 path + 3 allocatable); tree-shaped sparse pre-state (target path, one neighbour word per path table, garbage in allocatable frames); page-table indices (255,511,0,1)"
-    //@ obligation C09 C09.set_flags_p4_entry_2mib.shape_p4_absent.only_dictated_slots_change tier=thorough bounded="pool of 7 tables (4 path + 3 allocatable); tree-shaped sparse pre-state (target path, one neighbour word per path table, garbage in allocatable frames); page-table indices (255,511,0,1)"
-    //@ obligation C09 C09.set_flags_p4_entry_2mib.shape_p4_absent.no_frames_requested_or_zeroed tier=thorough bounded="pool of 7 tables (4 path + 3 allocatable); tree-shaped sparse pre-state (target path, one neighbour word per path table, garbage in allocatable frames); page-table indices (255,511,0,1)"
-    //@ obligation C09 C09.set_flags_p4_entry_2mib.shape_p4_absent.no_dangling_table_pointer tier=thorough bounded="pool of 7 tables (4 path + 3 allocatable); tree-shaped sparse pre-state (target path, one neighbour word per path table, garbage in allocatable frames); page-table indices (255,511,0,1)"
+    //@ obligation C02 C02.set_flags_p4_entry_2mib.shape_p4_absent.documented_outcome tier=thorough bounded="pool of 7 tables (4 path + 3 allocatable); tree-shaped sparse pre-state (target path, one neighbour word per path table, garbage in allocatable frames); page-table indices (255,511,0,256)"
+    //@ obligation C02 C02.set_flags_p4_entry_2mib.shape_p4_absent.error_leaves_every_mapping tier=thorough bounded="pool of 7 tables (4 path + 3 allocatable); tree-shaped sparse pre-state (target path, one neighbour word per path table, garbage in allocatable frames); page-table indices (255,511,0,256)"
+    //@ obligation C09 C09.set_flags_p4_entry_2mib.shape_p4_absent.only_dictated_slots_change tier=thorough bounded="pool of 7 tables (4 path + 3 allocatable); tree-shaped sparse pre-state (target path, one neighbour word per path table, garbage in allocatable frames); page-table indices (255,511,0,256)"
+    //@ obligation C09 C09.set_flags_p4_entry_2mib.shape_p4_absent.no_frames_requested_or_zeroed tier=thorough bounded="pool of 7 tables (4 path + 3 allocatable); tree-shaped sparse pre-state (target path, one neighbour word per path table, garbage in allocatable frames); page-table indices (255,511,0,256)"
+    //@ obligation C09 C09.set_flags_p4_entry_2mib.shape_p4_absent.no_dangling_table_pointer tier=thorough bounded="pool of 7 tables (4 path + 3 allocatable); tree-shaped sparse pre-state (target path, one neighbour word per path table, garbage in allocatable frames); page-table indices (255,511,0,256)"
+    //@ obligation C09 C09.set_flags_p4_entry_2mib.shape_p4_absent.no_access_outside_page_tables tier=thorough bounded="pool of 7 tables (4 path + 3 allocatable); tree-shaped sparse pre-state (target path, one neighbour word per path table, garbage in allocatable frames); page-table indices (255,511,0,256)"
     #[kani::proof]
     #[kani::stub(PageTable::zero, zero_stub)]
     fn c02_set_flags_p4_entry_2mib_p4_absent_mid() {
@@ -261,11 +271,12 @@ mod verif_c01_step_flags {
         kani::cover!(true, "c02_set_flags_p4_entry_2mib_p4_absent_mid: reachable");
     }
 
-    //@ obligation C02 C02.set_flags_p4_entry_2mib.shape_p4_absent.documented_outcome tier=thorough bounded="pool of 7 tables (4 path + 3 allocatable); tree-shaped sparse pre-state (target path, one neighbour word per path table, garbage in allocatable frames); page-table indices (256,1,510,255)"
-    //@ obligation C02 C02.set_flags_p4_entry_2mib.shape_p4_absent.error_leaves_every_mapping tier=thorough bounded="pool of 7 tables (4 path + 3 allocatable); tree-shaped sparse pre-state (target path, one neighbour word per path table, garbage in allocatable frames); page-table indices (256,1,510,255)"
-    //@ obligation C09 C09.set_flags_p4_entry_2mib.shape_p4_absent.only_dictated_slots_change tier=thorough bounded="pool of 7 tables (4 path + 3 allocatable); tree-shaped sparse pre-state (target path, one neighbour word per path table, garbage in allocatable frames); page-table indices (256,1,510,255)"
-    //@ obligation C09 C09.set_flags_p4_entry_2mib.shape_p4_absent.no_frames_requested_or_zeroed tier=thorough bounded="pool of 7 tables (4 path + 3 allocatable); tree-shaped sparse pre-state (target path, one neighbour word per path table, garbage in allocatable frames); page-table indices (256,1,510,255)"
-    //@ obligation C09 C09.set_flags_p4_entry_2mib.shape_p4_absent.no_dangling_table_pointer tier=thorough bounded="pool of 7 tables (4 path + 3 allocatable); tree-shaped sparse pre-state (target path, one neighbour word per path table, garbage in allocatable frames); page-table indices (256,1,510,255)"
+    //@ obligation C02 C02.set_flags_p4_entry_2mib.shape_p4_absent.documented_outcome tier=thorough bounded="pool of 7 tables (4 path + 3 allocatable); tree-shaped sparse pre-state (target path, one neighbour word per path table, garbage in allocatable frames); page-table indices (256,0,510,511)"
+    //@ obligation C02 C02.set_flags_p4_entry_2mib.shape_p4_absent.error_leaves_every_mapping tier=thorough bounded="pool of 7 tables (4 path + 3 allocatable); tree-shaped sparse pre-state (target path, one neighbour word per path table, garbage in allocatable frames); page-table indices (256,0,510,511)"
+    //@ obligation C09 C09.set_flags_p4_entry_2mib.shape_p4_absent.only_dictated_slots_change tier=thorough bounded="pool of 7 tables (4 path + 3 allocatable); tree-shaped sparse pre-state (target path, one neighbour word per path table, garbage in allocatable frames); page-table indices (256,0,510,511)"
+    //@ obligation C09 C09.set_flags_p4_entry_2mib.shape_p4_absent.no_frames_requested_or_zeroed tier=thorough bounded="pool of 7 tables (4 path + 3 allocatable); tree-shaped sparse pre-state (target path, one neighbour word per path table, garbage in allocatable frames); page-table indices (256,0,510,511)"
+    //@ obligation C09 C09.set_flags_p4_entry_2mib.shape_p4_absent.no_dangling_table_pointer tier=thorough bounded="pool of 7 tables (4 path + 3 allocatable); tree-shaped sparse pre-state (target path, one neighbour word per path table, garbage in allocatable frames); page-table indices (256,0,510,511)"
+    //@ obligation C09 C09.set_flags_p4_entry_2mib.shape_p4_absent.no_access_outside_page_tables tier=thorough bounded="pool of 7 tables (4 path + 3 allocatable); tree-shaped sparse pre-state (target path, one neighbour word per path table, garbage in allocatable frames); page-table indices (256,0,510,511)"
     #[kani::proof]
     #[kani::stub(PageTable::zero, zero_stub)]
     fn c02_set_flags_p4_entry_2mib_p4_absent_up() {
@@ -273,13 +284,14 @@ mod verif_c01_step_flags {
         kani::cover!(true, "c02_set_flags_p4_entry_2mib_p4_absent_up: reachable");
     }
 
-    //@ obligation C02 C02.set_flags_p4_entry_2mib.shape_p4_table.documented_outcome tier=thorough bounded="pool of 7 tables (4 path + 3 allocatable); tree-shaped sparse pre-state (target path, one neighbour word per path table, garbage in allocatable frames); page-table indices (0,0,0,0)"
-    //@ obligation C01 C01.set_flags_p4_entry_2mib.shape_p4_table.no_leaf_changes tier=thorough bounded="pool of 7 tables (4 path + 3 allocatable); tree-shaped sparse pre-state (target path, one neighbour word per path table, garbage in allocatable frames); page-table indices (0,0,0,0)"
-    //@ obligation C01 C01.set_flags_p4_entry_2mib.shape_p4_table.entry_flags_replaced_address_kept tier=thorough bounded="pool of 7 tables (4 path + 3 allocatable); tree-shaped sparse pre-state (target path, one neighbour word per path table, garbage in allocatable frames); page-table indices (0,0,0,0)"
-    //@ obligation C11 C11.set_flags_p4_entry_2mib.shape_p4_table.flush_all_token tier=thorough bounded="pool of 7 tables (4 path + 3 allocatable); tree-shaped sparse pre-state (target path, one neighbour word per path table, garbage in allocatable frames); page-table indices (0,0,0,0)"
-    //@ obligation C09 C09.set_flags_p4_entry_2mib.shape_p4_table.only_dictated_slots_change tier=thorough bounded="pool of 7 tables (4 path + 3 allocatable); tree-shaped sparse pre-state (target path, one neighbour word per path table, garbage in allocatable frames); page-table indices (0,0,0,0)"
-    //@ obligation C09 C09.set_flags_p4_entry_2mib.shape_p4_table.no_frames_requested_or_zeroed tier=thorough bounded="pool of 7 tables (4 path + 3 allocatable); tree-shaped sparse pre-state (target path, one neighbour word per path table, garbage in allocatable frames); page-table indices (0,0,0,0)"
-    //@ obligation C09 C09.set_flags_p4_entry_2mib.shape_p4_table.no_dangling_table_pointer tier=thorough bounded="pool of 7 tables (4 path + 3 allocatable); tree-shaped sparse pre-state (target path, one neighbour word per path table, garbage in allocatable frames); page-table indices (0,0,0,0)"
+    //@ obligation C02 C02.set_flags_p4_entry_2mib.shape_p4_table.documented_outcome tier=thorough bounded="pool of 7 tables (4 path + 3 allocatable); tree-shaped sparse pre-state (target path, one neighbour word per path table, garbage in allocatable frames); page-table indices (0,1,511,2)"
+    //@ obligation C01 C01.set_flags_p4_entry_2mib.shape_p4_table.no_leaf_changes tier=thorough bounded="pool of 7 tables (4 path + 3 allocatable); tree-shaped sparse pre-state (target path, one neighbour word per path table, garbage in allocatable frames); page-table indices (0,1,511,2)"
+    //@ obligation C01 C01.set_flags_p4_entry_2mib.shape_p4_table.entry_flags_replaced_address_kept tier=thorough bounded="pool of 7 tables (4 path + 3 allocatable); tree-shaped sparse pre-state (target path, one neighbour word per path table, garbage in allocatable frames); page-table indices (0,1,511,2)"
+    //@ obligation C11 C11.set_flags_p4_entry_2mib.shape_p4_table.flush_all_token tier=thorough bounded="pool of 7 tables (4 path + 3 allocatable); tree-shaped sparse pre-state (target path, one neighbour word per path table, garbage in allocatable frames); page-table indices (0,1,511,2)"
+    //@ obligation C09 C09.set_flags_p4_entry_2mib.shape_p4_table.only_dictated_slots_change tier=thorough bounded="pool of 7 tables (4 path + 3 allocatable); tree-shaped sparse pre-state (target path, one neighbour word per path table, garbage in allocatable frames); page-table indices (0,1,511,2)"
+    //@ obligation C09 C09.set_flags_p4_entry_2mib.shape_p4_table.no_frames_requested_or_zeroed tier=thorough bounded="pool of 7 tables (4 path + 3 allocatable); tree-shaped sparse pre-state (target path, one neighbour word per path table, garbage in allocatable frames); page-table indices (0,1,511,2)"
+    //@ obligation C09 C09.set_flags_p4_entry_2mib.shape_p4_table.no_dangling_table_pointer tier=thorough bounded="pool of 7 tables (4 path + 3 allocatable); tree-shaped sparse pre-state (target path, one neighbour word per path table, garbage in allocatable frames); page-table indices (0,1,511,2)"
+    //@ obligation C09 C09.set_flags_p4_entry_2mib.shape_p4_table.no_access_outside_page_tables tier=thorough bounded="pool of 7 tables (4 path + 3 allocatable); tree-shaped sparse pre-state (target path, one neighbour word per path table, garbage in allocatable frames); page-table indices (0,1,511,2)"
     #[kani::proof]
     #[kani::stub(PageTable::zero, zero_stub)]
     fn c01_set_flags_p4_entry_2mib_p4_table_lo() {
@@ -287,13 +299,14 @@ mod verif_c01_step_flags {
         kani::cover!(true, "c01_set_flags_p4_entry_2mib_p4_table_lo: reachable");
     }
 
-    //@ obligation C02 C02.set_flags_p4_entry_2mib.shape_p4_table.documented_outcome tier=thorough bounded="pool of 7 tables (4 path + 3 allocatable); tree-shaped sparse pre-state (target path, one neighbour word per path table, garbage in allocatable frames); page-table indices (511,511,511,511)"
-    //@ obligation C01 C01.set_flags_p4_entry_2mib.shape_p4_table.no_leaf_changes tier=thorough bounded="pool of 7 tables (4 path + 3 allocatable); tree-shaped sparse pre-state (target path, one neighbour word per path table, garbage in allocatable frames); page-table indices (511,511,511,511)"
-    //@ obligation C01 C01.set_flags_p4_entry_2mib.shape_p4_table.entry_flags_replaced_address_kept tier=thorough bounded="pool of 7 tables (4 path + 3 allocatable); tree-shaped sparse pre-state (target path, one neighbour word per path table, garbage in allocatable frames); page-table indices (511,511,511,511)"
-    //@ obligation C11 C11.set_flags_p4_entry_2mib.shape_p4_table.flush_all_token tier=thorough bounded="pool of 7 tables (4 path + 3 allocatable); tree-shaped sparse pre-state (target path, one neighbour word per path table, garbage in allocatable frames); page-table indices (511,511,511,511)"
-    //@ obligation C09 C09.set_flags_p4_entry_2mib.shape_p4_table.only_dictated_slots_change tier=thorough bounded="pool of 7 tables (4 path + 3 allocatable); tree-shaped sparse pre-state (target path, one neighbour word per path table, garbage in allocatable frames); page-table indices (511,511,511,511)"
-    //@ obligation C09 C09.set_flags_p4_entry_2mib.shape_p4_table.no_frames_requested_or_zeroed tier=thorough bounded="pool of 7 tables (4 path + 3 allocatable); tree-shaped sparse pre-state (target path, one neighbour word per path table, garbage in allocatable frames); page-table indices (511,511,511,511)"
-    //@ obligation C09 C09.set_flags_p4_entry_2mib.shape_p4_table.no_dangling_table_pointer tier=thorough bounded="pool of 7 tables (4 path + 3 allocatable); tree-shaped sparse pre-state (target path, one neighbour word per path table, garbage in allocatable frames); page-table indices (511,511,511,511)"
+    //@ obligation C02 C02.set_flags_p4_entry_2mib.shape_p4_table.documented_outcome tier=thorough bounded="pool of 7 tables (4 path + 3 allocatable); tree-shaped sparse pre-state (target path, one neighbour word per path table, garbage in allocatable frames); page-table indices (511,510,1,0)"
+    //@ obligation C01 C01.set_flags_p4_entry_2mib.shape_p4_table.no_leaf_changes tier=thorough bounded="pool of 7 tables (4 path + 3 allocatable); tree-shaped sparse pre-state (target path, one neighbour word per path table, garbage in allocatable frames); page-table indices (511,510,1,0)"
+    //@ obligation C01 C01.set_flags_p4_entry_2mib.shape_p4_table.entry_flags_replaced_address_kept tier=thorough bounded="pool of 7 tables (4 path + 3 allocatable); tree-shaped sparse pre-state (target path, one neighbour word per path table, garbage in allocatable frames); page-table indices (511,510,1,0)"
+    //@ obligation C11 C11.set_flags_p4_entry_2mib.shape_p4_table.flush_all_token tier=thorough bounded="pool of 7 tables (4 path + 3 allocatable); tree-shaped sparse pre-state (target path, one neighbour word per path table, garbage in allocatable frames); page-table indices (511,510,1,0)"
+    //@ obligation C09 C09.set_flags_p4_entry_2mib.shape_p4_table.only_dictated_slots_change tier=thorough bounded="pool of 7 tables (4 path + 3 allocatable); tree-shaped sparse pre-state (target path, one neighbour word per path table, garbage in allocatable frames); page-table indices (511,510,1,0)"
+    //@ obligation C09 C09.set_flags_p4_entry_2mib.shape_p4_table.no_frames_requested_or_zeroed tier=thorough bounded="pool of 7 tables (4 path + 3 allocatable); tree-shaped sparse pre-state (target path, one neighbour word per path table, garbage in allocatable frames); page-table indices (511,510,1,0)"
+    //@ obligation C09 C09.set_flags_p4_entry_2mib.shape_p4_table.no_dangling_table_pointer tier=thorough bounded="pool of 7 tables (4 path + 3 allocatable); tree-shaped sparse pre-state (target path, one neighbour word per path table, garbage in allocatable frames); page-table indices (511,510,1,0)"
+    //@ obligation C09 C09.set_flags_p4_entry_2mib.shape_p4_table.no_access_outside_page_tables tier=thorough bounded="pool of 7 tables (4 path + 3 allocatable); tree-shaped sparse pre-state (target path, one neighbour word per path table, garbage in allocatable frames); page-table indices (511,510,1,0)"
     #[kani::proof]
     #[kani::stub(PageTable::zero, zero_stub)]
     fn c01_set_flags_p4_entry_2mib_p4_table_hi() {
@@ -301,13 +314,14 @@ mod verif_c01_step_flags {
         kani::cover!(true, "c01_set_flags_p4_entry_2mib_p4_table_hi: reachable");
     }
 
-    //@ obligation C02 C02.set_flags_p4_entry_2mib.shape_p4_table.documented_outcome tier=thorough bounded="pool of 7 tables (4 path + 3 allocatable); tree-shaped sparse pre-state (target path, one neighbour word per path table, garbage in allocatable frames); page-table indices (255,511,0,1)"
-    //@ obligation C01 C01.set_flags_p4_entry_2mib.shape_p4_table.no_leaf_changes tier=thorough bounded="pool of 7 tables (4 path + 3 allocatable); tree-shaped sparse pre-state (target path, one neighbour word per path table, garbage in allocatable frames); page-table indices (255,511,0,1)"
-    //@ obligation C01 C01.set_flags_p4_entry_2mib.shape_p4_table.entry_flags_replaced_address_kept tier=thorough bounded="pool of 7 tables (4 path + 3 allocatable); tree-shaped sparse pre-state (target path, one neighbour word per path table, garbage in allocatable frames); page-table indices (255,511,0,1)"
-    //@ obligation C11 C11.set_flags_p4_entry_2mib.shape_p4_table.flush_all_token tier=thorough bounded="pool of 7 tables (4 path + 3 allocatable); tree-shaped sparse pre-state (target path, one neighbour word per path table, garbage in allocatable frames); page-table indices (255,511,0,1)"
-    //@ obligation C09 C09.set_flags_p4_entry_2mib.shape_p4_table.only_dictated_slots_change tier=thorough bounded="pool of 7 tables (4 path + 3 allocatable); tree-shaped sparse pre-state (target path, one neighbour word per path table, garbage in allocatable frames); page-table indices (255,511,0,1)"
-    //@ obligation C09 C09.set_flags_p4_entry_2mib.shape_p4_table.no_frames_requested_or_zeroed tier=thorough bounded="pool of 7 tables (4 path + 3 allocatable); tree-shaped sparse pre-state (target path, one neighbour word per path table, garbage in allocatable frames); page-table indices (255,511,0,1)"
-    //@ obligation C09 C09.set_flags_p4_entry_2mib.shape_p4_table.no_dangling_table_pointer tier=thorough bounded="pool of 7 tables (4 path + 3 allocatable); tree-shaped sparse pre-state (target path, one neighbour word per path table, garbage in allocatable frames); page-table indices (255,511,0,1)"
+    //@ obligation C02 C02.set_flags_p4_entry_2mib.shape_p4_table.documented_outcome tier=thorough bounded="pool of 7 tables (4 path + 3 allocatable); tree-shaped sparse pre-state (target path, one neighbour word per path table, garbage in allocatable frames); page-table indices (255,511,0,256)"
+    //@ obligation C01 C01.set_flags_p4_entry_2mib.shape_p4_table.no_leaf_changes tier=thorough bounded="pool of 7 tables (4 path + 3 allocatable); tree-shaped sparse pre-state (target path, one neighbour word per path table, garbage in allocatable frames); page-table indices (255,511,0,256)"
+    //@ obligation C01 C01.set_flags_p4_entry_2mib.shape_p4_table.entry_flags_replaced_address_kept tier=thorough bounded="pool of 7 tables (4 path + 3 allocatable); tree-shaped sparse pre-state (target path, one neighbour word per path table, garbage in allocatable frames); page-table indices (255,511,0,256)"
+    //@ obligation C11 C11.set_flags_p4_entry_2mib.shape_p4_table.flush_all_token tier=thorough bounded="pool of 7 tables (4 path + 3 allocatable); tree-shaped sparse pre-state (target path, one neighbour word per path table, garbage in allocatable frames); page-table indices (255,511,0,256)"
+    //@ obligation C09 C09.set_flags_p4_entry_2mib.shape_p4_table.only_dictated_slots_change tier=thorough bounded="pool of 7 tables (4 path + 3 allocatable); tree-shaped sparse pre-state (target path, one neighbour word per path table, garbage in allocatable frames); page-table indices (255,511,0,256)"
+    //@ obligation C09 C09.set_flags_p4_entry_2mib.shape_p4_table.no_frames_requested_or_zeroed tier=thorough bounded="pool of 7 tables (4 path + 3 allocatable); tree-shaped sparse pre-state (target path, one neighbour word per path table, garbage in allocatable frames); page-table indices (255,511,0,256)"
+    //@ obligation C09 C09.set_flags_p4_entry_2mib.shape_p4_table.no_dangling_table_pointer tier=thorough bounded="pool of 7 tables (4 path + 3 allocatable); tree-shaped sparse pre-state (target path, one neighbour word per path table, garbage in allocatable frames); page-table indices (255,511,0,256)"
+    //@ obligation C09 C09.set_flags_p4_entry_2mib.shape_p4_table.no_access_outside_page_tables tier=thorough bounded="pool of 7 tables (4 path + 3 allocatable); tree-shaped sparse pre-state (target path, one neighbour word per path table, garbage in allocatable frames); page-table indices (255,511,0,256)"
     #[kani::proof]
     #[kani::stub(PageTable::zero, zero_stub)]
     fn c01_set_flags_p4_entry_2mib_p4_table_mid() {
@@ -315,13 +329,14 @@ mod verif_c01_step_flags {
         kani::cover!(true, "c01_set_flags_p4_entry_2mib_p4_table_mid: reachable");
     }
 
-    //@ obligation C02 C02.set_flags_p4_entry_2mib.shape_p4_table.documented_outcome tier=thorough bounded="pool of 7 tables (4 path + 3 allocatable); tree-shaped sparse pre-state (target path, one neighbour word per path table, garbage in allocatable frames); page-table indices (256,1,510,255)"
-    //@ obligation C01 C01.set_flags_p4_entry_2mib.shape_p4_table.no_leaf_changes tier=thorough bounded="pool of 7 tables (4 path + 3 allocatable); tree-shaped sparse pre-state (target path, one neighbour word per path table, garbage in allocatable frames); page-table indices (256,1,510,255)"
-    //@ obligation C01 C01.set_flags_p4_entry_2mib.shape_p4_table.entry_flags_replaced_address_kept tier=thorough bounded="pool of 7 tables (4 path + 3 allocatable); tree-shaped sparse pre-state (target path, one neighbour word per path table, garbage in allocatable frames); page-table indices (256,1,510,255)"
-    //@ obligation C11 C11.set_flags_p4_entry_2mib.shape_p4_table.flush_all_token tier=thorough bounded="pool of 7 tables (4 path + 3 allocatable); tree-shaped sparse pre-state (target path, one neighbour word per path table, garbage in allocatable frames); page-table indices (256,1,510,255)"
-    //@ obligation C09 C09.set_flags_p4_entry_2mib.shape_p4_table.only_dictated_slots_change tier=thorough bounded="pool of 7 tables (4 path + 3 allocatable); tree-shaped sparse pre-state (target path, one neighbour word per path table, garbage in allocatable frames); page-table indices (256,1,510,255)"
-    //@ obligation C09 C09.set_flags_p4_entry_2mib.shape_p4_table.no_frames_requested_or_zeroed tier=thorough bounded="pool of 7 tables (4 path + 3 allocatable); tree-shaped sparse pre-state (target path, one neighbour word per path table, garbage in allocatable frames); page-table indices (256,1,510,255)"
-    //@ obligation C09 C09.set_flags_p4_entry_2mib.shape_p4_table.no_dangling_table_pointer tier=thorough bounded="pool of 7 tables (4 path + 3 allocatable); tree-shaped sparse pre-state (target path, one neighbour word per path table, garbage in allocatable frames); page-table indices (256,1,510,255)"
+    //@ obligation C02 C02.set_flags_p4_entry_2mib.shape_p4_table.documented_outcome tier=thorough bounded="pool of 7 tables (4 path + 3 allocatable); tree-shaped sparse pre-state (target path, one neighbour word per path table, garbage in allocatable frames); page-table indices (256,0,510,511)"
+    //@ obligation C01 C01.set_flags_p4_entry_2mib.shape_p4_table.no_leaf_changes tier=thorough bounded="pool of 7 tables (4 path + 3 allocatable); tree-shaped sparse pre-state (target path, one neighbour word per path table, garbage in allocatable frames); page-table indices (256,0,510,511)"
+    //@ obligation C01 C01.set_flags_p4_entry_2mib.shape_p4_table.entry_flags_replaced_address_kept tier=thorough bounded="pool of 7 tables (4 path + 3 allocatable); tree-shaped sparse pre-state (target path, one neighbour word per path table, garbage in allocatable frames); page-table indices (256,0,510,511)"
+    //@ obligation C11 C11.set_flags_p4_entry_2mib.shape_p4_table.flush_all_token tier=thorough bounded="pool of 7 tables (4 path + 3 allocatable); tree-shaped sparse pre-state (target path, one neighbour word per path table, garbage in allocatable frames); page-table indices (256,0,510,511)"
+    //@ obligation C09 C09.set_flags_p4_entry_2mib.shape_p4_table.only_dictated_slots_change tier=thorough bounded="pool of 7 tables (4 path + 3 allocatable); tree-shaped sparse pre-state (target path, one neighbour word per path table, garbage in allocatable frames); page-table indices (256,0,510,511)"
+    //@ obligation C09 C09.set_flags_p4_entry_2mib.shape_p4_table.no_frames_requested_or_zeroed tier=thorough bounded="pool of 7 tables (4 path + 3 allocatable); tree-shaped sparse pre-state (target path, one neighbour word per path table, garbage in allocatable frames); page-table indices (256,0,510,511)"
+    //@ obligation C09 C09.set_flags_p4_entry_2mib.shape_p4_table.no_dangling_table_pointer tier=thorough bounded="pool of 7 tables (4 path + 3 allocatable); tree-shaped sparse pre-state (target path, one neighbour word per path table, garbage in allocatable frames); page-table indices (256,0,510,511)"
+    //@ obligation C09 C09.set_flags_p4_entry_2mib.shape_p4_table.no_access_outside_page_tables tier=thorough bounded="pool of 7 tables (4 path + 3 allocatable); tree-shaped sparse pre-state (target path, one neighbour word per path table, garbage in allocatable frames); page-table indices (256,0,510,511)"
     #[kani::proof]
     #[kani::stub(PageTable::zero, zero_stub)]
     fn c01_set_flags_p4_entry_2mib_p4_table_up() {
@@ -329,11 +344,12 @@ mod verif_c01_step_flags {
         kani::cover!(true, "c01_set_flags_p4_entry_2mib_p4_table_up: reachable");
     }
 
-    //@ obligation C02 C02.set_flags_p4_entry_1gib.shape_p4_absent.documented_outcome tier=thorough bounded="pool of 7 tables (4 path + 3 allocatable); tree-shaped sparse pre-state (target path, one neighbour word per path table, garbage in allocatable frames); page-table indices (0,0,0,0)"
-    //@ obligation C02 C02.set_flags_p4_entry_1gib.shape_p4_absent.error_leaves_every_mapping tier=thorough bounded="pool of 7 tables (4 path + 3 allocatable); tree-shaped sparse pre-state (target path, one neighbour word per path table, garbage in allocatable frames); page-table indices (0,0,0,0)"
-    //@ obligation C09 C09.set_flags_p4_entry_1gib.shape_p4_absent.only_dictated_slots_change tier=thorough bounded="pool of 7 tables (4 path + 3 allocatable); tree-shaped sparse pre-state (target path, one neighbour word per path table, garbage in allocatable frames); page-table indices (0,0,0,0)"
-    //@ obligation C09 C09.set_flags_p4_entry_1gib.shape_p4_absent.no_frames_requested_or_zeroed tier=thorough bounded="pool of 7 tables (4 path + 3 allocatable); tree-shaped sparse pre-state (target path, one neighbour word per path table, garbage in allocatable frames); page-table indices (0,0,0,0)"
-    //@ obligation C09 C09.set_flags_p4_entry_1gib.shape_p4_absent.no_dangling_table_pointer tier=thorough bounded="pool of 7 tables (4 path + 3 allocatable); tree-shaped sparse pre-state (target path, one neighbour word per path table, garbage in allocatable frames); page-table indices (0,0,0,0)"
+    //@ obligation C02 C02.set_flags_p4_entry_1gib.shape_p4_absent.documented_outcome tier=thorough bounded="pool of 7 tables (4 path + 3 allocatable); tree-shaped sparse pre-state (target path, one neighbour word per path table, garbage in allocatable frames); page-table indices (0,1,511,2)"
+    //@ obligation C02 C02.set_flags_p4_entry_1gib.shape_p4_absent.error_leaves_every_mapping tier=thorough bounded="pool of 7 tables (4 path + 3 allocatable); tree-shaped sparse pre-state (target path, one neighbour word per path table, garbage in allocatable frames); page-table indices (0,1,511,2)"
+    //@ obligation C09 C09.set_flags_p4_entry_1gib.shape_p4_absent.only_dictated_slots_change tier=thorough bounded="pool of 7 tables (4 path + 3 allocatable); tree-shaped sparse pre-state (target path, one neighbour word per path table, garbage in allocatable frames); page-table indices (0,1,511,2)"
+    //@ obligation C09 C09.set_flags_p4_entry_1gib.shape_p4_absent.no_frames_requested_or_zeroed tier=thorough bounded="pool of 7 tables (4 path + 3 allocatable); tree-shaped sparse pre-state (target path, one neighbour word per path table, garbage in allocatable frames); page-table indices (0,1,511,2)"
+    //@ obligation C09 C09.set_flags_p4_entry_1gib.shape_p4_absent.no_dangling_table_pointer tier=thorough bounded="pool of 7 tables (4 path + 3 allocatable); tree-shaped sparse pre-state (target path, one neighbour word per path table, garbage in allocatable frames); page-table indices (0,1,511,2)"
+    //@ obligation C09 C09.set_flags_p4_entry_1gib.shape_p4_absent.no_access_outside_page_tables tier=thorough bounded="pool of 7 tables (4 path + 3 allocatable); tree-shaped sparse pre-state (target path, one neighbour word per path table, garbage in allocatable frames); page-table indices (0,1,511,2)"
     #[kani::proof]
     #[kani::stub(PageTable::zero, zero_stub)]
     fn c02_set_flags_p4_entry_1gib_p4_absent_lo() {
@@ -341,11 +357,12 @@ mod verif_c01_step_flags {
         kani::cover!(true, "c02_set_flags_p4_entry_1gib_p4_absent_lo: reachable");
     }
 
-    //@ obligation C02 C02.set_flags_p4_entry_1gib.shape_p4_absent.documented_outcome tier=thorough bounded="pool of 7 tables (4 path + 3 allocatable); tree-shaped sparse pre-state (target path, one neighbour word per path table, garbage in allocatable frames); page-table indices (511,511,511,511)"
-    //@ obligation C02 C02.set_flags_p4_entry_1gib.shape_p4_absent.error_leaves_every_mapping tier=thorough bounded="pool of 7 tables (4 path + 3 allocatable); tree-shaped sparse pre-state (target path, one neighbour word per path table, garbage in allocatable frames); page-table indices (511,511,511,511)"
-    //@ obligation C09 C09.set_flags_p4_entry_1gib.shape_p4_absent.only_dictated_slots_change tier=thorough bounded="pool of 7 tables (4 path + 3 allocatable); tree-shaped sparse pre-state (target path, one neighbour word per path table, garbage in allocatable frames); page-table indices (511,511,511,511)"
-    //@ obligation C09 C09.set_flags_p4_entry_1gib.shape_p4_absent.no_frames_requested_or_zeroed tier=thorough bounded="pool of 7 tables (4 path + 3 allocatable); tree-shaped sparse pre-state (target path, one neighbour word per path table, garbage in allocatable frames); page-table indices (511,511,511,511)"
-    //@ obligation C09 C09.set_flags_p4_entry_1gib.shape_p4_absent.no_dangling_table_pointer tier=thorough bounded="pool of 7 tables (4 path + 3 allocatable); tree-shaped sparse pre-state (target path, one neighbour word per path table, garbage in allocatable frames); page-table indices (511,511,511,511)"
+    //@ obligation C02 C02.set_flags_p4_entry_1gib.shape_p4_absent.documented_outcome tier=thorough bounded="pool of 7 tables (4 path + 3 allocatable); tree-shaped sparse pre-state (target path, one neighbour word per path table, garbage in allocatable frames); page-table indices (511,510,1,0)"
+    //@ obligation C02 C02.set_flags_p4_entry_1gib.shape_p4_absent.error_leaves_every_mapping tier=thorough bounded="pool of 7 tables (4 path + 3 allocatable); tree-shaped sparse pre-state (target path, one neighbour word per path table, garbage in allocatable frames); page-table indices (511,510,1,0)"
+    //@ obligation C09 C09.set_flags_p4_entry_1gib.shape_p4_absent.only_dictated_slots_change tier=thorough bounded="pool of 7 tables (4 path + 3 allocatable); tree-shaped sparse pre-state (target path, one neighbour word per path table, garbage in allocatable frames); page-table indices (511,510,1,0)"
+    //@ obligation C09 C09.set_flags_p4_entry_1gib.shape_p4_absent.no_frames_requested_or_zeroed tier=thorough bounded="pool of 7 tables (4 path + 3 allocatable); tree-shaped sparse pre-state (target path, one neighbour word per path table, garbage in allocatable frames); page-table indices (511,510,1,0)"
+    //@ obligation C09 C09.set_flags_p4_entry_1gib.shape_p4_absent.no_dangling_table_pointer tier=thorough bounded="pool of 7 tables (4 path + 3 allocatable); tree-shaped sparse pre-state (target path, one neighbour word per path table, garbage in allocatable frames); page-table indices (511,510,1,0)"
+    //@ obligation C09 C09.set_flags_p4_entry_1gib.shape_p4_absent.no_access_outside_page_tables tier=thorough bounded="pool of 7 tables (4 path + 3 allocatable); tree-shaped sparse pre-state (target path, one neighbour word per path table, garbage in allocatable frames); page-table indices (511,510,1,0)"
     #[kani::proof]
     #[kani::stub(PageTable::zero, zero_stub)]
     fn c02_set_flags_p4_entry_1gib_p4_absent_hi() {
@@ -353,11 +370,12 @@ mod verif_c01_step_flags {
         kani::cover!(true, "c02_set_flags_p4_entry_1gib_p4_absent_hi: reachable");
     }
 
-    //@ obligation C02 C02.set_flags_p4_entry_1gib.shape_p4_absent.documented_outcome bounded="pool of 7 tables (4 path + 3 allocatable); tree-shaped sparse pre-state (target path, one neighbour word per path table, garbage in allocatable frames); page-table indices (255,511,0,1)"
-    //@ obligation C02 C02.set_flags_p4_entry_1gib.shape_p4_absent.error_leaves_every_mapping bounded="pool of 7 tables (4 path + 3 allocatable); tree-shaped sparse pre-state (target path, one neighbour word per path table, garbage in allocatable frames); page-table indices (255,511,0,1)"
-    //@ obligation C09 C09.set_flags_p4_entry_1gib.shape_p4_absent.only_dictated_slots_change bounded="pool of 7 tables (4 path + 3 allocatable); tree-shaped sparse pre-state (target path, one neighbour word per path table, garbage in allocatable frames); page-table indices (255,511,0,1)"
-    //@ obligation C09 C09.set_flags_p4_entry_1gib.shape_p4_absent.no_frames_requested_or_zeroed bounded="pool of 7 tables (4 path + 3 allocatable); tree-shaped sparse pre-state (target path, one neighbour word per path table, garbage in allocatable frames); page-table indices (255,511,0,1)"
-    //@ obligation C09 C09.set_flags_p4_entry_1gib.shape_p4_absent.no_dangling_table_pointer bounded="pool of 7 tables (4 path + 3 allocatable); tree-shaped sparse pre-state (target path, one neighbour word per path table, garbage in allocatable frames); page-table indices (255,511,0,1)"
+    //@ obligation C02 C02.set_flags_p4_entry_1gib.shape_p4_absent.documented_outcome bounded="pool of 7 tables (4 path + 3 allocatable); tree-shaped sparse pre-state (target path, one neighbour word per path table, garbage in allocatable frames); page-table indices (255,511,0,256)"
+    //@ obligation C02 C02.set_flags_p4_entry_1gib.shape_p4_absent.error_leaves_every_mapping bounded="pool of 7 tables (4 path + 3 allocatable); tree-shaped sparse pre-state (target path, one neighbour word per path table, garbage in allocatable frames); page-table indices (255,511,0,256)"
+    //@ obligation C09 C09.set_flags_p4_entry_1gib.shape_p4_absent.only_dictated_slots_change bounded="pool of 7 tables (4 path + 3 allocatable); tree-shaped sparse pre-state (target path, one neighbour word per path table, garbage in allocatable frames); page-table indices (255,511,0,256)"
+    //@ obligation C09 C09.set_flags_p4_entry_1gib.shape_p4_absent.no_frames_requested_or_zeroed bounded="pool of 7 tables (4 path + 3 allocatable); tree-shaped sparse pre-state (target path, one neighbour word per path table, garbage in allocatable frames); page-table indices (255,511,0,256)"
+    //@ obligation C09 C09.set_flags_p4_entry_1gib.shape_p4_absent.no_dangling_table_pointer bounded="pool of 7 tables (4 path + 3 allocatable); tree-shaped sparse pre-state (target path, one neighbour word per path table, garbage in allocatable frames); page-table indices (255,511,0,256)"
+    //@ obligation C09 C09.set_flags_p4_entry_1gib.shape_p4_absent.no_access_outside_page_tables bounded="pool of 7 tables (4 path + 3 allocatable); tree-shaped sparse pre-state (target path, one neighbour word per path table, garbage in allocatable frames); page-table indices (255,511,0,256)"
     #[kani::proof]
     #[kani::stub(PageTable::zero, zero_stub)]
     fn c02_set_flags_p4_entry_1gib_p4_absent_mid() {
@@ -365,11 +383,12 @@ mod verif_c01_step_flags {
         kani::cover!(true, "c02_set_flags_p4_entry_1gib_p4_absent_mid: reachable");
     }
 
-    //@ obligation C02 C02.set_flags_p4_entry_1gib.shape_p4_absent.documented_outcome tier=thorough bounded="pool of 7 tables (4 path + 3 allocatable); tree-shaped sparse pre-state (target path, one neighbour word per path table, garbage in allocatable frames); page-table indices (256,1,510,255)"
-    //@ obligation C02 C02.set_flags_p4_entry_1gib.shape_p4_absent.error_leaves_every_mapping tier=thorough bounded="pool of 7 tables (4 path + 3 allocatable); tree-shaped sparse pre-state (target path, one neighbour word per path table, garbage in allocatable frames); page-table indices (256,1,510,255)"
-    //@ obligation C09 C09.set_flags_p4_entry_1gib.shape_p4_absent.only_dictated_slots_change tier=thorough bounded="pool of 7 tables (4 path + 3 allocatable); tree-shaped sparse pre-state (target path, one neighbour word per path table, garbage in allocatable frames); page-table indices (256,1,510,255)"
-    //@ obligation C09 C09.set_flags_p4_entry_1gib.shape_p4_absent.no_frames_requested_or_zeroed tier=thorough bounded="pool of 7 tables (4 path + 3 allocatable); tree-shaped sparse pre-state (target path, one neighbour word per path table, garbage in allocatable frames); page-table indices (256,1,510,255)"
-    //@ obligation C09 C09.set_flags_p4_entry_1gib.shape_p4_absent.no_dangling_table_pointer tier=thorough bounded="pool of 7 tables (4 path + 3 allocatable); tree-shaped sparse pre-state (target path, one neighbour word per path table, garbage in allocatable frames); page-table indices (256,1,510,255)"
+    //@ obligation C02 C02.set_flags_p4_entry_1gib.shape_p4_absent.documented_outcome tier=thorough bounded="pool of 7 tables (4 path + 3 allocatable); tree-shaped sparse pre-state (target path, one neighbour word per path table, garbage in allocatable frames); page-table indices (256,0,510,511)"
+    //@ obligation C02 C02.set_flags_p4_entry_1gib.shape_p4_absent.error_leaves_every_mapping tier=thorough bounded="pool of 7 tables (4 path + 3 allocatable); tree-shaped sparse pre-state (target path, one neighbour word per path table, garbage in allocatable frames); page-table indices (256,0,510,511)"
+    //@ obligation C09 C09.set_flags_p4_entry_1gib.shape_p4_absent.only_dictated_slots_change tier=thorough bounded="pool of 7 tables (4 path + 3 allocatable); tree-shaped sparse pre-state (target path, one neighbour word per path table, garbage in allocatable frames); page-table indices (256,0,510,511)"
+    //@ obligation C09 C09.set_flags_p4_entry_1gib.shape_p4_absent.no_frames_requested_or_zeroed tier=thorough bounded="pool of 7 tables (4 path + 3 allocatable); tree-shaped sparse pre-state (target path, one neighbour word per path table, garbage in allocatable frames); page-table indices (256,0,510,511)"
+    //@ obligation C09 C09.set_flags_p4_entry_1gib.shape_p4_absent.no_dangling_table_pointer tier=thorough bounded="pool of 7 tables (4 path + 3 allocatable); tree-shaped sparse pre-state (target path, one neighbour word per path table, garbage in allocatable frames); page-table indices (256,0,510,511)"
+    //@ obligation C09 C09.set_flags_p4_entry_1gib.shape_p4_absent.no_access_outside_page_tables tier=thorough bounded="pool of 7 tables (4 path + 3 allocatable); tree-shaped sparse pre-state (target path, one neighbour word per path table, garbage in allocatable frames); page-table indices (256,0,510,511)"
     #[kani::proof]
     #[kani::stub(PageTable::zero, zero_stub)]
     fn c02_set_flags_p4_entry_1gib_p4_absent_up() {
@@ -377,13 +396,14 @@ mod verif_c01_step_flags {
         kani::cover!(true, "c02_set_flags_p4_entry_1gib_p4_absent_up: reachable");
     }
 
-    //@ obligation C02 C02.set_flags_p4_entry_1gib.shape_p4_table.documented_outcome tier=thorough bounded="pool of 7 tables (4 path + 3 allocatable); tree-shaped sparse pre-state (target path, one neighbour word per path table, garbage in allocatable frames); page-table indices (0,0,0,0)"
-    //@ obligation C01 C01.set_flags_p4_entry_1gib.shape_p4_table.no_leaf_changes tier=thorough bounded="pool of 7 tables (4 path + 3 allocatable); tree-shaped sparse pre-state (target path, one neighbour word per path table, garbage in allocatable frames); page-table indices (0,0,0,0)"
-    //@ obligation C01 C01.set_flags_p4_entry_1gib.shape_p4_table.entry_flags_replaced_address_kept tier=thorough bounded="pool of 7 tables (4 path + 3 allocatable); tree-shaped sparse pre-state (target path, one neighbour word per path table, garbage in allocatable frames); page-table indices (0,0,0,0)"
-    //@ obligation C11 C11.set_flags_p4_entry_1gib.shape_p4_table.flush_all_token tier=thorough bounded="pool of 7 tables (4 path + 3 allocatable); tree-shaped sparse pre-state (target path, one neighbour word per path table, garbage in allocatable frames); page-table indices (0,0,0,0)"
-    //@ obligation C09 C09.set_flags_p4_entry_1gib.shape_p4_table.only_dictated_slots_change tier=thorough bounded="pool of 7 tables (4 path + 3 allocatable); tree-shaped sparse pre-state (target path, one neighbour word per path table, garbage in allocatable frames); page-table indices (0,0,0,0)"
-    //@ obligation C09 C09.set_flags_p4_entry_1gib.shape_p4_table.no_frames_requested_or_zeroed tier=thorough bounded="pool of 7 tables (4 path + 3 allocatable); tree-shaped sparse pre-state (target path, one neighbour word per path table, garbage in allocatable frames); page-table indices (0,0,0,0)"
-    //@ obligation C09 C09.set_flags_p4_entry_1gib.shape_p4_table.no_dangling_table_pointer tier=thorough bounded="pool of 7 tables (4 path + 3 allocatable); tree-shaped sparse pre-state (target path, one neighbour word per path table, garbage in allocatable frames); page-table indices (0,0,0,0)"
+    //@ obligation C02 C02.set_flags_p4_entry_1gib.shape_p4_table.documented_outcome tier=thorough bounded="pool of 7 tables (4 path + 3 allocatable); tree-shaped sparse pre-state (target path, one neighbour word per path table, garbage in allocatable frames); page-table indices (0,1,511,2)"
+    //@ obligation C01 C01.set_flags_p4_entry_1gib.shape_p4_table.no_leaf_changes tier=thorough bounded="pool of 7 tables (4 path + 3 allocatable); tree-shaped sparse pre-state (target path, one neighbour word per path table, garbage in allocatable frames); page-table indices (0,1,511,2)"
+    //@ obligation C01 C01.set_flags_p4_entry_1gib.shape_p4_table.entry_flags_replaced_address_kept tier=thorough bounded="pool of 7 tables (4 path + 3 allocatable); tree-shaped sparse pre-state (target path, one neighbour word per path table, garbage in allocatable frames); page-table indices (0,1,511,2)"
+    //@ obligation C11 C11.set_flags_p4_entry_1gib.shape_p4_table.flush_all_token tier=thorough bounded="pool of 7 tables (4 path + 3 allocatable); tree-shaped sparse pre-state (target path, one neighbour word per path table, garbage in allocatable frames); page-table indices (0,1,511,2)"
+    //@ obligation C09 C09.set_flags_p4_entry_1gib.shape_p4_table.only_dictated_slots_change tier=thorough bounded="pool of 7 tables (4 path + 3 allocatable); tree-shaped sparse pre-state (target path, one neighbour word per path table, garbage in allocatable frames); page-table indices (0,1,511,2)"
+    //@ obligation C09 C09.set_flags_p4_entry_1gib.shape_p4_table.no_frames_requested_or_zeroed tier=thorough bounded="pool of 7 tables (4 path + 3 allocatable); tree-shaped sparse pre-state (target path, one neighbour word per path table, garbage in allocatable frames); page-table indices (0,1,511,2)"
+    //@ obligation C09 C09.set_flags_p4_entry_1gib.shape_p4_table.no_dangling_table_pointer tier=thorough bounded="pool of 7 tables (4 path + 3 allocatable); tree-shaped sparse pre-state (target path, one neighbour word per path table, garbage in allocatable frames); page-table indices (0,1,511,2)"
+    //@ obligation C09 C09.set_flags_p4_entry_1gib.shape_p4_table.no_access_outside_page_tables tier=thorough bounded="pool of 7 tables (4 path + 3 allocatable); tree-shaped sparse pre-state (target path, one neighbour word per path table, garbage in allocatable frames); page-table indices (0,1,511,2)"
     #[kani::proof]
     #[kani::stub(PageTable::zero, zero_stub)]
     fn c01_set_flags_p4_entry_1gib_p4_table_lo() {
@@ -391,13 +411,14 @@ mod verif_c01_step_flags {
         kani::cover!(true, "c01_set_flags_p4_entry_1gib_p4_table_lo: reachable");
     }
 
-    //@ obligation C02 C02.set_flags_p4_entry_1gib.shape_p4_table.documented_outcome tier=thorough bounded="pool of 7 tables (4 path + 3 allocatable); tree-shaped sparse pre-state (target path, one neighbour word per path table, garbage in allocatable frames); page-table indices (511,511,511,511)"
-    //@ obligation C01 C01.set_flags_p4_entry_1gib.shape_p4_table.no_leaf_changes tier=thorough bounded="pool of 7 tables (4 path + 3 allocatable); tree-shaped sparse pre-state (target path, one neighbour word per path table, garbage in allocatable frames); page-table indices (511,511,511,511)"
-    //@ obligation C01 C01.set_flags_p4_entry_1gib.shape_p4_table.entry_flags_replaced_address_kept tier=thorough bounded="pool of 7 tables (4 path + 3 allocatable); tree-shaped sparse pre-state (target path, one neighbour word per path table, garbage in allocatable frames); page-table indices (511,511,511,511)"
-    //@ obligation C11 C11.set_flags_p4_entry_1gib.shape_p4_table.flush_all_token tier=thorough bounded="pool of 7 tables (4 path + 3 allocatable); tree-shaped sparse pre-state (target path, one neighbour word per path table, garbage in allocatable frames); page-table indices (511,511,511,511)"
-    //@ obligation C09 C09.set_flags_p4_entry_1gib.shape_p4_table.only_dictated_slots_change tier=thorough bounded="pool of 7 tables (4 path + 3 allocatable); tree-shaped sparse pre-state (target path, one neighbour word per path table, garbage in allocatable frames); page-table indices (511,511,511,511)"
-    //@ obligation C09 C09.set_flags_p4_entry_1gib.shape_p4_table.no_frames_requested_or_zeroed tier=thorough bounded="pool of 7 tables (4 path + 3 allocatable); tree-shaped sparse pre-state (target path, one neighbour word per path table, garbage in allocatable frames); page-table indices (511,511,511,511)"
-    //@ obligation C09 C09.set_flags_p4_entry_1gib.shape_p4_table.no_dangling_table_pointer tier=thorough bounded="pool of 7 tables (4 path + 3 allocatable); tree-shaped sparse pre-state (target path, one neighbour word per path table, garbage in allocatable frames); page-table indices (511,511,511,511)"
+    //@ obligation C02 C02.set_flags_p4_entry_1gib.shape_p4_table.documented_outcome tier=thorough bounded="pool of 7 tables (4 path + 3 allocatable); tree-shaped sparse pre-state (target path, one neighbour word per path table, garbage in allocatable frames); page-table indices (511,510,1,0)"
+    //@ obligation C01 C01.set_flags_p4_entry_1gib.shape_p4_table.no_leaf_changes tier=thorough bounded="pool of 7 tables (4 path + 3 allocatable); tree-shaped sparse pre-state (target path, one neighbour word per path table, garbage in allocatable frames); page-table indices (511,510,1,0)"
+    //@ obligation C01 C01.set_flags_p4_entry_1gib.shape_p4_table.entry_flags_replaced_address_kept tier=thorough bounded="pool of 7 tables (4 path + 3 allocatable); tree-shaped sparse pre-state (target path, one neighbour word per path table, garbage in allocatable frames); page-table indices (511,510,1,0)"
+    //@ obligation C11 C11.set_flags_p4_entry_1gib.shape_p4_table.flush_all_token tier=thorough bounded="pool of 7 tables (4 path + 3 allocatable); tree-shaped sparse pre-state (target path, one neighbour word per path table, garbage in allocatable frames); page-table indices (511,510,1,0)"
+    //@ obligation C09 C09.set_flags_p4_entry_1gib.shape_p4_table.only_dictated_slots_change tier=thorough bounded="pool of 7 tables (4 path + 3 allocatable); tree-shaped sparse pre-state (target path, one neighbour word per path table, garbage in allocatable frames); page-table indices (511,510,1,0)"
+    //@ obligation C09 C09.set_flags_p4_entry_1gib.shape_p4_table.no_frames_requested_or_zeroed tier=thorough bounded="pool of 7 tables (4 path + 3 allocatable); tree-shaped sparse pre-state (target path, one neighbour word per path table, garbage in allocatable frames); page-table indices (511,510,1,0)"
+    //@ obligation C09 C09.set_flags_p4_entry_1gib.shape_p4_table.no_dangling_table_pointer tier=thorough bounded="pool of 7 tables (4 path + 3 allocatable); tree-shaped sparse pre-state (target path, one neighbour word per path table, garbage in allocatable frames); page-table indices (511,510,1,0)"
+    //@ obligation C09 C09.set_flags_p4_entry_1gib.shape_p4_table.no_access_outside_page_tables tier=thorough bounded="pool of 7 tables (4 path + 3 allocatable); tree-shaped sparse pre-state (target path, one neighbour word per path table, garbage in allocatable frames); page-table indices (511,510,1,0)"
     #[kani::proof]
     #[kani::stub(PageTable::zero, zero_stub)]
     fn c01_set_flags_p4_entry_1gib_p4_table_hi() {
@@ -405,13 +426,14 @@ mod verif_c01_step_flags {
         kani::cover!(true, "c01_set_flags_p4_entry_1gib_p4_table_hi: reachable");
     }
 
-    //@ obligation C02 C02.set_flags_p4_entry_1gib.shape_p4_table.documented_outcome tier=thorough bounded="pool of 7 tables (4 path + 3 allocatable); tree-shaped sparse pre-state (target path, one neighbour word per path table, garbage in allocatable frames); page-table indices (255,511,0,1)"
-    //@ obligation C01 C01.set_flags_p4_entry_1gib.shape_p4_table.no_leaf_changes tier=thorough bounded="pool of 7 tables (4 path + 3 allocatable); tree-shaped sparse pre-state (target path, one neighbour word per path table, garbage in allocatable frames); page-table indices (255,511,0,1)"
-    //@ obligation C01 C01.set_flags_p4_entry_1gib.shape_p4_table.entry_flags_replaced_address_kept tier=thorough bounded="pool of 7 tables (4 path + 3 allocatable); tree-shaped sparse pre-state (target path, one neighbour word per path table, garbage in allocatable frames); page-table indices (255,511,0,1)"
-    //@ obligation C11 C11.set_flags_p4_entry_1gib.shape_p4_table.flush_all_token tier=thorough bounded="pool of 7 tables (4 path + 3 allocatable); tree-shaped sparse pre-state (target path, one neighbour word per path table, garbage in allocatable frames); page-table indices (255,511,0,1)"
-    //@ obligation C09 C09.set_flags_p4_entry_1gib.shape_p4_table.only_dictated_slots_change tier=thorough bounded="pool of 7 tables (4 path + 3 allocatable); tree-shaped sparse pre-state (target path, one neighbour word per path table, garbage in allocatable frames); page-table indices (255,511,0,1)"
-    //@ obligation C09 C09.set_flags_p4_entry_1gib.shape_p4_table.no_frames_requested_or_zeroed tier=thorough bounded="pool of 7 tables (4 path + 3 allocatable); tree-shaped sparse pre-state (target path, one neighbour word per path table, garbage in allocatable frames); page-table indices (255,511,0,1)"
-    //@ obligation C09 C09.set_flags_p4_entry_1gib.shape_p4_table.no_dangling_table_pointer tier=thorough bounded="pool of 7 tables (4 path + 3 allocatable); tree-shaped sparse pre-state (target path, one neighbour word per path table, garbage in allocatable frames); page-table indices (255,511,0,1)"
+    //@ obligation C02 C02.set_flags_p4_entry_1gib.shape_p4_table.documented_outcome tier=thorough bounded="pool of 7 tables (4 path + 3 allocatable); tree-shaped sparse pre-state (target path, one neighbour word per path table, garbage in allocatable frames); page-table indices (255,511,0,256)"
+    //@ obligation C01 C01.set_flags_p4_entry_1gib.shape_p4_table.no_leaf_changes tier=thorough bounded="pool of 7 tables (4 path + 3 allocatable); tree-shaped sparse pre-state (target path, one neighbour word per path table, garbage in allocatable frames); page-table indices (255,511,0,256)"
+    //@ obligation C01 C01.set_flags_p4_entry_1gib.shape_p4_table.entry_flags_replaced_address_kept tier=thorough bounded="pool of 7 tables (4 path + 3 allocatable); tree-shaped sparse pre-state (target path, one neighbour word per path table, garbage in allocatable frames); page-table indices (255,511,0,256)"
+    //@ obligation C11 C11.set_flags_p4_entry_1gib.shape_p4_table.flush_all_token tier=thorough bounded="pool of 7 tables (4 path + 3 allocatable); tree-shaped sparse pre-state (target path, one neighbour word per path table, garbage in allocatable frames); page-table indices (255,511,0,256)"
+    //@ obligation C09 C09.set_flags_p4_entry_1gib.shape_p4_table.only_dictated_slots_change tier=thorough bounded="pool of 7 tables (4 path + 3 allocatable); tree-shaped sparse pre-state (target path, one neighbour word per path table, garbage in allocatable frames); page-table indices (255,511,0,256)"
+    //@ obligation C09 C09.set_flags_p4_entry_1gib.shape_p4_table.no_frames_requested_or_zeroed tier=thorough bounded="pool of 7 tables (4 path + 3 allocatable); tree-shaped sparse pre-state (target path, one neighbour word per path table, garbage in allocatable frames); page-table indices (255,511,0,256)"
+    //@ obligation C09 C09.set_flags_p4_entry_1gib.shape_p4_table.no_dangling_table_pointer tier=thorough bounded="pool of 7 tables (4 path + 3 allocatable); tree-shaped sparse pre-state (target path, one neighbour word per path table, garbage in allocatable frames); page-table indices (255,511,0,256)"
+    //@ obligation C09 C09.set_flags_p4_entry_1gib.shape_p4_table.no_access_outside_page_tables tier=thorough bounded="pool of 7 tables (4 path + 3 allocatable); tree-shaped sparse pre-state (target path, one neighbour word per path table, garbage in allocatable frames); page-table indices (255,511,0,256)"
     #[kani::proof]
     #[kani::stub(PageTable::zero, zero_stub)]
     fn c01_set_flags_p4_entry_1gib_p4_table_mid() {
@@ -419,13 +441,14 @@ mod verif_c01_step_flags {
         kani::cover!(true, "c01_set_flags_p4_entry_1gib_p4_table_mid: reachable");
     }
 
-    //@ obligation C02 C02.set_flags_p4_entry_1gib.shape_p4_table.documented_outcome tier=thorough bounded="pool of 7 tables (4 path + 3 allocatable); tree-shaped sparse pre-state (target path, one neighbour word per path table, garbage in allocatable frames); page-table indices (256,1,510,255)"
-    //@ obligation C01 C01.set_flags_p4_entry_1gib.shape_p4_table.no_leaf_changes tier=thorough bounded="pool of 7 tables (4 path + 3 allocatable); tree-shaped sparse pre-state (target path, one neighbour word per path table, garbage in allocatable frames); page-table indices (256,1,510,255)"
-    //@ obligation C01 C01.set_flags_p4_entry_1gib.shape_p4_table.entry_flags_replaced_address_kept tier=thorough bounded="pool of 7 tables (4 path + 3 allocatable); tree-shaped sparse pre-state (target path, one neighbour word per path table, garbage in allocatable frames); page-table indices (256,1,510,255)"
-    //@ obligation C11 C11.set_flags_p4_entry_1gib.shape_p4_table.flush_all_token tier=thorough bounded="pool of 7 tables (4 path + 3 allocatable); tree-shaped sparse pre-state (target path, one neighbour word per path table, garbage in allocatable frames); page-table indices (256,1,510,255)"
-    //@ obligation C09 C09.set_flags_p4_entry_1gib.shape_p4_table.only_dictated_slots_change tier=thorough bounded="pool of 7 tables (4 path + 3 allocatable); tree-shaped sparse pre-state (target path, one neighbour word per path table, garbage in allocatable frames); page-table indices (256,1,510,255)"
-    //@ obligation C09 C09.set_flags_p4_entry_1gib.shape_p4_table.no_frames_requested_or_zeroed tier=thorough bounded="pool of 7 tables (4 path + 3 allocatable); tree-shaped sparse pre-state (target path, one neighbour word per path table, garbage in allocatable frames); page-table indices (256,1,510,255)"
-    //@ obligation C09 C09.set_flags_p4_entry_1gib.shape_p4_table.no_dangling_table_pointer tier=thorough bounded="pool of 7 tables (4 path + 3 allocatable); tree-shaped sparse pre-state (target path, one neighbour word per path table, garbage in allocatable frames); page-table indices (256,1,510,255)"
+    //@ obligation C02 C02.set_flags_p4_entry_1gib.shape_p4_table.documented_outcome tier=thorough bounded="pool of 7 tables (4 path + 3 allocatable); tree-shaped sparse pre-state (target path, one neighbour word per path table, garbage in allocatable frames); page-table indices (256,0,510,511)"
+    //@ obligation C01 C01.set_flags_p4_entry_1gib.shape_p4_table.no_leaf_changes tier=thorough bounded="pool of 7 tables (4 path + 3 allocatable); tree-shaped sparse pre-state (target path, one neighbour word per path table, garbage in allocatable frames); page-table indices (256,0,510,511)"
+    //@ obligation C01 C01.set_flags_p4_entry_1gib.shape_p4_table.entry_flags_replaced_address_kept tier=thorough bounded="pool of 7 tables (4 path + 3 allocatable); tree-shaped sparse pre-state (target path, one neighbour word per path table, garbage in allocatable frames); page-table indices (256,0,510,511)"
+    //@ obligation C11 C11.set_flags_p4_entry_1gib.shape_p4_table.flush_all_token tier=thorough bounded="pool of 7 tables (4 path + 3 allocatable); tree-shaped sparse pre-state (target path, one neighbour word per path table, garbage in allocatable frames); page-table indices (256,0,510,511)"
+    //@ obligation C09 C09.set_flags_p4_entry_1gib.shape_p4_table.only_dictated_slots_change tier=thorough bounded="pool of 7 tables (4 path + 3 allocatable); tree-shaped sparse pre-state (target path, one neighbour word per path table, garbage in allocatable frames); page-table indices (256,0,510,511)"
+    //@ obligation C09 C09.set_flags_p4_entry_1gib.shape_p4_table.no_frames_requested_or_zeroed tier=thorough bounded="pool of 7 tables (4 path + 3 allocatable); tree-shaped sparse pre-state (target path, one neighbour word per path table, garbage in allocatable frames); page-table indices (256,0,510,511)"
+    //@ obligation C09 C09.set_flags_p4_entry_1gib.shape_p4_table.no_dangling_table_pointer tier=thorough bounded="pool of 7 tables (4 path + 3 allocatable); tree-shaped sparse pre-state (target path, one neighbour word per path table, garbage in allocatable frames); page-table indices (256,0,510,511)"
+    //@ obligation C09 C09.set_flags_p4_entry_1gib.shape_p4_table.no_access_outside_page_tables tier=thorough bounded="pool of 7 tables (4 path + 3 allocatable); tree-shaped sparse pre-state (target path, one neighbour word per path table, garbage in allocatable frames); page-table indices (256,0,510,511)"
     #[kani::proof]
     #[kani::stub(PageTable::zero, zero_stub)]
     fn c01_set_flags_p4_entry_1gib_p4_table_up() {
@@ -433,11 +456,12 @@ mod verif_c01_step_flags {
         kani::cover!(true, "c01_set_flags_p4_entry_1gib_p4_table_up: reachable");
     }
 
-    //@ obligation C02 C02.set_flags_p3_entry_4kib.shape_p4_absent.documented_outcome tier=thorough bounded="pool of 7 tables (4 path + 3 allocatable); tree-shaped sparse pre-state (target path, one neighbour word per path table, garbage in allocatable frames); page-table indices (0,0,0,0)"
-    //@ obligation C02 C02.set_flags_p3_entry_4kib.shape_p4_absent.error_leaves_every_mapping tier=thorough bounded="pool of 7 tables (4 path + 3 allocatable); tree-shaped sparse pre-state (target path, one neighbour word per path table, garbage in allocatable frames); page-table indices (0,0,0,0)"
-    //@ obligation C09 C09.set_flags_p3_entry_4kib.shape_p4_absent.only_dictated_slots_change tier=thorough bounded="pool of 7 tables (4 path + 3 allocatable); tree-shaped sparse pre-state (target path, one neighbour word per path table, garbage in allocatable frames); page-table indices (0,0,0,0)"
-    //@ obligation C09 C09.set_flags_p3_entry_4kib.shape_p4_absent.no_frames_requested_or_zeroed tier=thorough bounded="pool of 7 tables (4 path + 3 allocatable); tree-shaped sparse pre-state (target path, one neighbour word per path table, garbage in allocatable frames); page-table indices (0,0,0,0)"
-    //@ obligation C09 C09.set_flags_p3_entry_4kib.shape_p4_absent.no_dangling_table_pointer tier=thorough bounded="pool of 7 tables (4 path + 3 allocatable); tree-shaped sparse pre-state (target path, one neighbour word per path table, garbage in allocatable frames); page-table indices (0,0,0,0)"
+    //@ obligation C02 C02.set_flags_p3_entry_4kib.shape_p4_absent.documented_outcome tier=thorough bounded="pool of 7 tables (4 path + 3 allocatable); tree-shaped sparse pre-state (target path, one neighbour word per path table, garbage in allocatable frames); page-table indices (0,1,511,2)"
+    //@ obligation C02 C02.set_flags_p3_entry_4kib.shape_p4_absent.error_leaves_every_mapping tier=thorough bounded="pool of 7 tables (4 path + 3 allocatable); tree-shaped sparse pre-state (target path, one neighbour word per path table, garbage in allocatable frames); page-table indices (0,1,511,2)"
+    //@ obligation C09 C09.set_flags_p3_entry_4kib.shape_p4_absent.only_dictated_slots_change tier=thorough bounded="pool of 7 tables (4 path + 3 allocatable); tree-shaped sparse pre-state (target path, one neighbour word per path table, garbage in allocatable frames); page-table indices (0,1,511,2)"
+    //@ obligation C09 C09.set_flags_p3_entry_4kib.shape_p4_absent.no_frames_requested_or_zeroed tier=thorough bounded="pool of 7 tables (4 path + 3 allocatable); tree-shaped sparse pre-state (target path, one neighbour word per path table, garbage in allocatable frames); page-table indices (0,1,511,2)"
+    //@ obligation C09 C09.set_flags_p3_entry_4kib.shape_p4_absent.no_dangling_table_pointer tier=thorough bounded="pool of 7 tables (4 path + 3 allocatable); tree-shaped sparse pre-state (target path, one neighbour word per path table, garbage in allocatable frames); page-table indices (0,1,511,2)"
+    //@ obligation C09 C09.set_flags_p3_entry_4kib.shape_p4_absent.no_access_outside_page_tables tier=thorough bounded="pool of 7 tables (4 path + 3 allocatable); tree-shaped sparse pre-state (target path, one neighbour word per path table, garbage in allocatable frames); page-table indices (0,1,511,2)"
     #[kani::proof]
     #[kani::stub(PageTable::zero, zero_stub)]
     fn c02_set_flags_p3_entry_4kib_p4_absent_lo() {
@@ -445,11 +469,12 @@ mod verif_c01_step_flags {
         kani::cover!(true, "c02_set_flags_p3_entry_4kib_p4_absent_lo: reachable");
     }
 
-    //@ obligation C02 C02.set_flags_p3_entry_4kib.shape_p4_absent.documented_outcome tier=thorough bounded="pool of 7 tables (4 path + 3 allocatable); tree-shaped sparse pre-state (target path, one neighbour word per path table, garbage in allocatable frames); page-table indices (511,511,511,511)"
-    //@ obligation C02 C02.set_flags_p3_entry_4kib.shape_p4_absent.error_leaves_every_mapping tier=thorough bounded="pool of 7 tables (4 path + 3 allocatable); tree-shaped sparse pre-state (target path, one neighbour word per path table, garbage in allocatable frames); page-table indices (511,511,511,511)"
-    //@ obligation C09 C09.set_flags_p3_entry_4kib.shape_p4_absent.only_dictated_slots_change tier=thorough bounded="pool of 7 tables (4 path + 3 allocatable); tree-shaped sparse pre-state (target path, one neighbour word per path table, garbage in allocatable frames); page-table indices (511,511,511,511)"
-    //@ obligation C09 C09.set_flags_p3_entry_4kib.shape_p4_absent.no_frames_requested_or_zeroed tier=thorough bounded="pool of 7 tables (4 path + 3 allocatable); tree-shaped sparse pre-state (target path, one neighbour word per path table, garbage in allocatable frames); page-table indices (511,511,511,511)"
-    //@ obligation C09 C09.set_flags_p3_entry_4kib.shape_p4_absent.no_dangling_table_pointer tier=thorough bounded="pool of 7 tables (4 path + 3 allocatable); tree-shaped sparse pre-state (target path, one neighbour word per path table, garbage in allocatable frames); page-table indices (511,511,511,511)"
+    //@ obligation C02 C02.set_flags_p3_entry_4kib.shape_p4_absent.documented_outcome tier=thorough bounded="pool of 7 tables (4 path + 3 allocatable); tree-shaped sparse pre-state (target path, one neighbour word per path table, garbage in allocatable frames); page-table indices (511,510,1,0)"
+    //@ obligation C02 C02.set_flags_p3_entry_4kib.shape_p4_absent.error_leaves_every_mapping tier=thorough bounded="pool of 7 tables (4 path + 3 allocatable); tree-shaped sparse pre-state (target path, one neighbour word per path table, garbage in allocatable frames); page-table indices (511,510,1,0)"
+    //@ obligation C09 C09.set_flags_p3_entry_4kib.shape_p4_absent.only_dictated_slots_change tier=thorough bounded="pool of 7 tables (4 path + 3 allocatable); tree-shaped sparse pre-state (target path, one neighbour word per path table, garbage in allocatable frames); page-table indices (511,510,1,0)"
+    //@ obligation C09 C09.set_flags_p3_entry_4kib.shape_p4_absent.no_frames_requested_or_zeroed tier=thorough bounded="pool of 7 tables (4 path + 3 allocatable); tree-shaped sparse pre-state (target path, one neighbour word per path table, garbage in allocatable frames); page-table indices (511,510,1,0)"
+    //@ obligation C09 C09.set_flags_p3_entry_4kib.shape_p4_absent.no_dangling_table_pointer tier=thorough bounded="pool of 7 tables (4 path + 3 allocatable); tree-shaped sparse pre-state (target path, one neighbour word per path table, garbage in allocatable frames); page-table indices (511,510,1,0)"
+    //@ obligation C09 C09.set_flags_p3_entry_4kib.shape_p4_absent.no_access_outside_page_tables tier=thorough bounded="pool of 7 tables (4 path + 3 allocatable); tree-shaped sparse pre-state (target path, one neighbour word per path table, garbage in allocatable frames); page-table indices (511,510,1,0)"
     #[kani::proof]
     #[kani::stub(PageTable::zero, zero_stub)]
     fn c02_set_flags_p3_entry_4kib_p4_absent_hi() {
@@ -457,11 +482,12 @@ mod verif_c01_step_flags {
         kani::cover!(true, "c02_set_flags_p3_entry_4kib_p4_absent_hi: reachable");
     }
 
-    //@ obligation C02 C02.set_flags_p3_entry_4kib.shape_p4_absent.documented_outcome tier=thorough bounded="pool of 7 tables (4 path + 3 allocatable); tree-shaped sparse pre-state (target path, one neighbour word per path table, garbage in allocatable frames); page-table indices (255,511,0,1)"
-    //@ obligation C02 C02.set_flags_p3_entry_4kib.shape_p4_absent.error_leaves_every_mapping tier=thorough bounded="pool of 7 tables (4 path + 3 allocatable); tree-shaped sparse pre-state (target path, one neighbour word per path table, garbage in allocatable frames); page-table indices (255,511,0,1)"
-    //@ obligation C09 C09.set_flags_p3_entry_4kib.shape_p4_absent.only_dictated_slots_change tier=thorough bounded="pool of 7 tables (4 path + 3 allocatable); tree-shaped sparse pre-state (target path, one neighbour word per path table, garbage in allocatable frames); page-table indices (255,511,0,1)"
-    //@ obligation C09 C09.set_flags_p3_entry_4kib.shape_p4_absent.no_frames_requested_or_zeroed tier=thorough bounded="pool of 7 tables (4 path + 3 allocatable); tree-shaped sparse pre-state (target path, one neighbour word per path table, garbage in allocatable frames); page-table indices (255,511,0,1)"
-    //@ obligation C09 C09.set_flags_p3_entry_4kib.shape_p4_absent.no_dangling_table_pointer tier=thorough bounded="pool of 7 tables (4 path + 3 allocatable); tree-shaped sparse pre-state (target path, one neighbour word per path table, garbage in allocatable frames); page-table indices (255,511,0,1)"
+    //@ obligation C02 C02.set_flags_p3_entry_4kib.shape_p4_absent.documented_outcome tier=thorough bounded="pool of 7 tables (4 path + 3 allocatable); tree-shaped sparse pre-state (target path, one neighbour word per path table, garbage in allocatable frames); page-table indices (255,511,0,256)"
+    //@ obligation C02 C02.set_flags_p3_entry_4kib.shape_p4_absent.error_leaves_every_mapping tier=thorough bounded="pool of 7 tables (4 path + 3 allocatable); tree-shaped sparse pre-state (target path, one neighbour word per path table, garbage in allocatable frames); page-table indices (255,511,0,256)"
+    //@ obligation C09 C09.set_flags_p3_entry_4kib.shape_p4_absent.only_dictated_slots_change tier=thorough bounded="pool of 7 tables (4 path + 3 allocatable); tree-shaped sparse pre-state (target path, one neighbour word per path table, garbage in allocatable frames); page-table indices (255,511,0,256)"
+    //@ obligation C09 C09.set_flags_p3_entry_4kib.shape_p4_absent.no_frames_requested_or_zeroed tier=thorough bounded="pool of 7 tables (4 path + 3 allocatable); tree-shaped sparse pre-state (target path, one neighbour word per path table, garbage in allocatable frames); page-table indices (255,511,0,256)"
+    //@ obligation C09 C09.set_flags_p3_entry_4kib.shape_p4_absent.no_dangling_table_pointer tier=thorough bounded="pool of 7 tables (4 path + 3 allocatable); tree-shaped sparse pre-state (target path, one neighbour word per path table, garbage in allocatable frames); page-table indices (255,511,0,256)"
+    //@ obligation C09 C09.set_flags_p3_entry_4kib.shape_p4_absent.no_access_outside_page_tables tier=thorough bounded="pool of 7 tables (4 path + 3 allocatable); tree-shaped sparse pre-state (target path, one neighbour word per path table, garbage in allocatable frames); page-table indices (255,511,0,256)"
     #[kani::proof]
     #[kani::stub(PageTable::zero, zero_stub)]
     fn c02_set_flags_p3_entry_4kib_p4_absent_mid() {
@@ -469,11 +495,12 @@ mod verif_c01_step_flags {
         kani::cover!(true, "c02_set_flags_p3_entry_4kib_p4_absent_mid: reachable");
     }
 
-    //@ obligation C02 C02.set_flags_p3_entry_4kib.shape_p4_absent.documented_outcome tier=thorough bounded="pool of 7 tables (4 path + 3 allocatable); tree-shaped sparse pre-state (target path, one neighbour word per path table, garbage in allocatable frames); page-table indices (256,1,510,255)"
-    //@ obligation C02 C02.set_flags_p3_entry_4kib.shape_p4_absent.error_leaves_every_mapping tier=thorough bounded="pool of 7 tables (4 path + 3 allocatable); tree-shaped sparse pre-state (target path, one neighbour word per path table, garbage in allocatable frames); page-table indices (256,1,510,255)"
-    //@ obligation C09 C09.set_flags_p3_entry_4kib.shape_p4_absent.only_dictated_slots_change tier=thorough bounded="pool of 7 tables (4 path + 3 allocatable); tree-shaped sparse pre-state (target path, one neighbour word per path table, garbage in allocatable frames); page-table indices (256,1,510,255)"
-    //@ obligation C09 C09.set_flags_p3_entry_4kib.shape_p4_absent.no_frames_requested_or_zeroed tier=thorough bounded="pool of 7 tables (4 path + 3 allocatable); tree-shaped sparse pre-state (target path, one neighbour word per path table, garbage in allocatable frames); page-table indices (256,1,510,255)"
-    //@ obligation C09 C09.set_flags_p3_entry_4kib.shape_p4_absent.no_dangling_table_pointer tier=thorough bounded="pool of 7 tables (4 path + 3 allocatable); tree-shaped sparse pre-state (target path, one neighbour word per path table, garbage in allocatable frames); page-table indices (256,1,510,255)"
+    //@ obligation C02 C02.set_flags_p3_entry_4kib.shape_p4_absent.documented_outcome tier=thorough bounded="pool of 7 tables (4 path + 3 allocatable); tree-shaped sparse pre-state (target path, one neighbour word per path table, garbage in allocatable frames); page-table indices (256,0,510,511)"
+    //@ obligation C02 C02.set_flags_p3_entry_4kib.shape_p4_absent.error_leaves_every_mapping tier=thorough bounded="pool of 7 tables (4 path + 3 allocatable); tree-shaped sparse pre-state (target path, one neighbour word per path table, garbage in allocatable frames); page-table indices (256,0,510,511)"
+    //@ obligation C09 C09.set_flags_p3_entry_4kib.shape_p4_absent.only_dictated_slots_change tier=thorough bounded="pool of 7 tables (4 path + 3 allocatable); tree-shaped sparse pre-state (target path, one neighbour word per path table, garbage in allocatable frames); page-table indices (256,0,510,511)"
+    //@ obligation C09 C09.set_flags_p3_entry_4kib.shape_p4_absent.no_frames_requested_or_zeroed tier=thorough bounded="pool of 7 tables (4 path + 3 allocatable); tree-shaped sparse pre-state (target path, one neighbour word per path table, garbage in allocatable frames); page-table indices (256,0,510,511)"
+    //@ obligation C09 C09.set_flags_p3_entry_4kib.shape_p4_absent.no_dangling_table_pointer tier=thorough bounded="pool of 7 tables (4 path + 3 allocatable); tree-shaped sparse pre-state (target path, one neighbour word per path table, garbage in allocatable frames); page-table indices (256,0,510,511)"
+    //@ obligation C09 C09.set_flags_p3_entry_4kib.shape_p4_absent.no_access_outside_page_tables tier=thorough bounded="pool of 7 tables (4 path + 3 allocatable); tree-shaped sparse pre-state (target path, one neighbour word per path table, garbage in allocatable frames); page-table indices (256,0,510,511)"
     #[kani::proof]
     #[kani::stub(PageTable::zero, zero_stub)]
     fn c02_set_flags_p3_entry_4kib_p4_absent_up() {
@@ -481,11 +508,12 @@ mod verif_c01_step_flags {
         kani::cover!(true, "c02_set_flags_p3_entry_4kib_p4_absent_up: reachable");
     }
 
-    //@ obligation C02 C02.set_flags_p3_entry_4kib.shape_p3_absent.documented_outcome tier=thorough bounded="pool of 7 tables (4 path + 3 allocatable); tree-shaped sparse pre-state (target path, one neighbour word per path table, garbage in allocatable frames); page-table indices (0,0,0,0)"
-    //@ obligation C02 C02.set_flags_p3_entry_4kib.shape_p3_absent.error_leaves_every_mapping tier=thorough bounded="pool of 7 tables (4 path + 3 allocatable); tree-shaped sparse pre-state (target path, one neighbour word per path table, garbage in allocatable frames); page-table indices (0,0,0,0)"
-    //@ obligation C09 C09.set_flags_p3_entry_4kib.shape_p3_absent.only_dictated_slots_change tier=thorough bounded="pool of 7 tables (4 path + 3 allocatable); tree-shaped sparse pre-state (target path, one neighbour word per path table, garbage in allocatable frames); page-table indices (0,0,0,0)"
-    //@ obligation C09 C09.set_flags_p3_entry_4kib.shape_p3_absent.no_frames_requested_or_zeroed tier=thorough bounded="pool of 7 tables (4 path + 3 allocatable); tree-shaped sparse pre-state (target path, one neighbour word per path table, garbage in allocatable frames); page-table indices (0,0,0,0)"
-    //@ obligation C09 C09.set_flags_p3_entry_4kib.shape_p3_absent.no_dangling_table_pointer tier=thorough bounded="pool of 7 tables (4 path + 3 allocatable); tree-shaped sparse pre-state (target path, one neighbour word per path table, garbage in allocatable frames); page-table indices (0,0,0,0)"
+    //@ obligation C02 C02.set_flags_p3_entry_4kib.shape_p3_absent.documented_outcome tier=thorough bounded="pool of 7 tables (4 path + 3 allocatable); tree-shaped sparse pre-state (target path, one neighbour word per path table, garbage in allocatable frames); page-table indices (0,1,511,2)"
+    //@ obligation C02 C02.set_flags_p3_entry_4kib.shape_p3_absent.error_leaves_every_mapping tier=thorough bounded="pool of 7 tables (4 path + 3 allocatable); tree-shaped sparse pre-state (target path, one neighbour word per path table, garbage in allocatable frames); page-table indices (0,1,511,2)"
+    //@ obligation C09 C09.set_flags_p3_entry_4kib.shape_p3_absent.only_dictated_slots_change tier=thorough bounded="pool of 7 tables (4 path + 3 allocatable); tree-shaped sparse pre-state (target path, one neighbour word per path table, garbage in allocatable frames); page-table indices (0,1,511,2)"
+    //@ obligation C09 C09.set_flags_p3_entry_4kib.shape_p3_absent.no_frames_requested_or_zeroed tier=thorough bounded="pool of 7 tables (4 path + 3 allocatable); tree-shaped sparse pre-state (target path, one neighbour word per path table, garbage in allocatable frames); page-table indices (0,1,511,2)"
+    //@ obligation C09 C09.set_flags_p3_entry_4kib.shape_p3_absent.no_dangling_table_pointer tier=thorough bounded="pool of 7 tables (4 path + 3 allocatable); tree-shaped sparse pre-state (target path, one neighbour word per path table, garbage in allocatable frames); page-table indices (0,1,511,2)"
+    //@ obligation C09 C09.set_flags_p3_entry_4kib.shape_p3_absent.no_access_outside_page_tables tier=thorough bounded="pool of 7 tables (4 path + 3 allocatable); tree-shaped sparse pre-state (target path, one neighbour word per path table, garbage in allocatable frames); page-table indices (0,1,511,2)"
     #[kani::proof]
     #[kani::stub(PageTable::zero, zero_stub)]
     fn c02_set_flags_p3_entry_4kib_p3_absent_lo() {
@@ -493,11 +521,12 @@ mod verif_c01_step_flags {
         kani::cover!(true, "c02_set_flags_p3_entry_4kib_p3_absent_lo: reachable");
     }
 
-    //@ obligation C02 C02.set_flags_p3_entry_4kib.shape_p3_absent.documented_outcome tier=thorough bounded="pool of 7 tables (4 path + 3 allocatable); tree-shaped sparse pre-state (target path, one neighbour word per path table, garbage in allocatable frames); page-table indices (511,511,511,511)"
-    //@ obligation C02 C02.set_flags_p3_entry_4kib.shape_p3_absent.error_leaves_every_mapping tier=thorough bounded="pool of 7 tables (4 path + 3 allocatable); tree-shaped sparse pre-state (target path, one neighbour word per path table, garbage in allocatable frames); page-table indices (511,511,511,511)"
-    //@ obligation C09 C09.set_flags_p3_entry_4kib.shape_p3_absent.only_dictated_slots_change tier=thorough bounded="pool of 7 tables (4 path + 3 allocatable); tree-shaped sparse pre-state (target path, one neighbour word per path table, garbage in allocatable frames); page-table indices (511,511,511,511)"
-    //@ obligation C09 C09.set_flags_p3_entry_4kib.shape_p3_absent.no_frames_requested_or_zeroed tier=thorough bounded="pool of 7 tables (4 path + 3 allocatable); tree-shaped sparse pre-state (target path, one neighbour word per path table, garbage in allocatable frames); page-table indices (511,511,511,511)"
-    //@ obligation C09 C09.set_flags_p3_entry_4kib.shape_p3_absent.no_dangling_table_pointer tier=thorough bounded="pool of 7 tables (4 path + 3 allocatable); tree-shaped sparse pre-state (target path, one neighbour word per path table, garbage in allocatable frames); page-table indices (511,511,511,511)"
+    //@ obligation C02 C02.set_flags_p3_entry_4kib.shape_p3_absent.documented_outcome tier=thorough bounded="pool of 7 tables (4 path + 3 allocatable); tree-shaped sparse pre-state (target path, one neighbour word per path table, garbage in allocatable frames); page-table indices (511,510,1,0)"
+    //@ obligation C02 C02.set_flags_p3_entry_4kib.shape_p3_absent.error_leaves_every_mapping tier=thorough bounded="pool of 7 tables (4 path + 3 allocatable); tree-shaped sparse pre-state (target path, one neighbour word per path table, garbage in allocatable frames); page-table indices (511,510,1,0)"
+    //@ obligation C09 C09.set_flags_p3_entry_4kib.shape_p3_absent.only_dictated_slots_change tier=thorough bounded="pool of 7 tables (4 path + 3 allocatable); tree-shaped sparse pre-state (target path, one neighbour word per path table, garbage in allocatable frames); page-table indices (511,510,1,0)"
+    //@ obligation C09 C09.set_flags_p3_entry_4kib.shape_p3_absent.no_frames_requested_or_zeroed tier=thorough bounded="pool of 7 tables (4 path + 3 allocatable); tree-shaped sparse pre-state (target path, one neighbour word per path table, garbage in allocatable frames); page-table indices (511,510,1,0)"
+    //@ obligation C09 C09.set_flags_p3_entry_4kib.shape_p3_absent.no_dangling_table_pointer tier=thorough bounded="pool of 7 tables (4 path + 3 allocatable); tree-shaped sparse pre-state (target path, one neighbour word per path table, garbage in allocatable frames); page-table indices (511,510,1,0)"
+    //@ obligation C09 C09.set_flags_p3_entry_4kib.shape_p3_absent.no_access_outside_page_tables tier=thorough bounded="pool of 7 tables (4 path + 3 allocatable); tree-shaped sparse pre-state (target path, one neighbour word per path table, garbage in allocatable frames); page-table indices (511,510,1,0)"
     #[kani::proof]
     #[kani::stub(PageTable::zero, zero_stub)]
     fn c02_set_flags_p3_entry_4kib_p3_absent_hi() {
@@ -505,11 +534,12 @@ mod verif_c01_step_flags {
         kani::cover!(true, "c02_set_flags_p3_entry_4kib_p3_absent_hi: reachable");
     }
 
-    //@ obligation C02 C02.set_flags_p3_entry_4kib.shape_p3_absent.documented_outcome tier=thorough bounded="pool of 7 tables (4 path + 3 allocatable); tree-shaped sparse pre-state (target path, one neighbour word per path table, garbage in allocatable frames); page-table indices (255,511,0,1)"
-    //@ obligation C02 C02.set_flags_p3_entry_4kib.shape_p3_absent.error_leaves_every_mapping tier=thorough bounded="pool of 7 tables (4 path + 3 allocatable); tree-shaped sparse pre-state (target path, one neighbour word per path table, garbage in allocatable frames); page-table indices (255,511,0,1)"
-    //@ obligation C09 C09.set_flags_p3_entry_4kib.shape_p3_absent.only_dictated_slots_change tier=thorough bounded="pool of 7 tables (4 path + 3 allocatable); tree-shaped sparse pre-state (target path, one neighbour word per path table, garbage in allocatable frames); page-table indices (255,511,0,1)"
-    //@ obligation C09 C09.set_flags_p3_entry_4kib.shape_p3_absent.no_frames_requested_or_zeroed tier=thorough bounded="pool of 7 tables (4 path + 3 allocatable); tree-shaped sparse pre-state (target path, one neighbour word per path table, garbage in allocatable frames); page-table indices (255,511,0,1)"
-    //@ obligation C09 C09.set_flags_p3_entry_4kib.shape_p3_absent.no_dangling_table_pointer tier=thorough bounded="pool of 7 tables (4 path + 3 allocatable); tree-shaped sparse pre-state (target path, one neighbour word per path table, garbage in allocatable frames); page-table indices (255,511,0,1)"
+    //@ obligation C02 C02.set_flags_p3_entry_4kib.shape_p3_absent.documented_outcome tier=thorough bounded="pool of 7 tables (4 path + 3 allocatable); tree-shaped sparse pre-state (target path, one neighbour word per path table, garbage in allocatable frames); page-table indices (255,511,0,256)"
+    //@ obligation C02 C02.set_flags_p3_entry_4kib.shape_p3_absent.error_leaves_every_mapping tier=thorough bounded="pool of 7 tables (4 path + 3 allocatable); tree-shaped sparse pre-state (target path, one neighbour word per path table, garbage in allocatable frames); page-table indices (255,511,0,256)"
+    //@ obligation C09 C09.set_flags_p3_entry_4kib.shape_p3_absent.only_dictated_slots_change tier=thorough bounded="pool of 7 tables (4 path + 3 allocatable); tree-shaped sparse pre-state (target path, one neighbour word per path table, garbage in allocatable frames); page-table indices (255,511,0,256)"
+    //@ obligation C09 C09.set_flags_p3_entry_4kib.shape_p3_absent.no_frames_requested_or_zeroed tier=thorough bounded="pool of 7 tables (4 path + 3 allocatable); tree-shaped sparse pre-state (target path, one neighbour word per path table, garbage in allocatable frames); page-table indices (255,511,0,256)"
+    //@ obligation C09 C09.set_flags_p3_entry_4kib.shape_p3_absent.no_dangling_table_pointer tier=thorough bounded="pool of 7 tables (4 path + 3 allocatable); tree-shaped sparse pre-state (target path, one neighbour word per path table, garbage in allocatable frames); page-table indices (255,511,0,256)"
+    //@ obligation C09 C09.set_flags_p3_entry_4kib.shape_p3_absent.no_access_outside_page_tables tier=thorough bounded="pool of 7 tables (4 path + 3 allocatable); tree-shaped sparse pre-state (target path, one neighbour word per path table, garbage in allocatable frames); page-table indices (255,511,0,256)"
     #[kani::proof]
     #[kani::stub(PageTable::zero, zero_stub)]
     fn c02_set_flags_p3_entry_4kib_p3_absent_mid() {
@@ -517,11 +547,12 @@ mod verif_c01_step_flags {
         kani::cover!(true, "c02_set_flags_p3_entry_4kib_p3_absent_mid: reachable");
     }
 
-    //@ obligation C02 C02.set_flags_p3_entry_4kib.shape_p3_absent.documented_outcome tier=thorough bounded="pool of 7 tables (4 path + 3 allocatable); tree-shaped sparse pre-state (target path, one neighbour word per path table, garbage in allocatable frames); page-table indices (256,1,510,255)"
-    //@ obligation C02 C02.set_flags_p3_entry_4kib.shape_p3_absent.error_leaves_every_mapping tier=thorough bounded="pool of 7 tables (4 path + 3 allocatable); tree-shaped sparse pre-state (target path, one neighbour word per path table, garbage in allocatable frames); page-table indices (256,1,510,255)"
-    //@ obligation C09 C09.set_flags_p3_entry_4kib.shape_p3_absent.only_dictated_slots_change tier=thorough bounded="pool of 7 tables (4 path + 3 allocatable); tree-shaped sparse pre-state (target path, one neighbour word per path table, garbage in allocatable frames); page-table indices (256,1,510,255)"
-    //@ obligation C09 C09.set_flags_p3_entry_4kib.shape_p3_absent.no_frames_requested_or_zeroed tier=thorough bounded="pool of 7 tables (4 path + 3 allocatable); tree-shaped sparse pre-state (target path, one neighbour word per path table, garbage in allocatable frames); page-table indices (256,1,510,255)"
-    //@ obligation C09 C09.set_flags_p3_entry_4kib.shape_p3_absent.no_dangling_table_pointer tier=thorough bounded="pool of 7 tables (4 path + 3 allocatable); tree-shaped sparse pre-state (target path, one neighbour word per path table, garbage in allocatable frames); page-table indices (256,1,510,255)"
+    //@ obligation C02 C02.set_flags_p3_entry_4kib.shape_p3_absent.documented_outcome tier=thorough bounded="pool of 7 tables (4 path + 3 allocatable); tree-shaped sparse pre-state (target path, one neighbour word per path table, garbage in allocatable frames); page-table indices (256,0,510,511)"
+    //@ obligation C02 C02.set_flags_p3_entry_4kib.shape_p3_absent.error_leaves_every_mapping tier=thorough bounded="pool of 7 tables (4 path + 3 allocatable); tree-shaped sparse pre-state (target path, one neighbour word per path table, garbage in allocatable frames); page-table indices (256,0,510,511)"
+    //@ obligation C09 C09.set_flags_p3_entry_4kib.shape_p3_absent.only_dictated_slots_change tier=thorough bounded="pool of 7 tables (4 path + 3 allocatable); tree-shaped sparse pre-state (target path, one neighbour word per path table, garbage in allocatable frames); page-table indices (256,0,510,511)"
+    //@ obligation C09 C09.set_flags_p3_entry_4kib.shape_p3_absent.no_frames_requested_or_zeroed tier=thorough bounded="pool of 7 tables (4 path + 3 allocatable); tree-shaped sparse pre-state (target path, one neighbour word per path table, garbage in allocatable frames); page-table indices (256,0,510,511)"
+    //@ obligation C09 C09.set_flags_p3_entry_4kib.shape_p3_absent.no_dangling_table_pointer tier=thorough bounded="pool of 7 tables (4 path + 3 allocatable); tree-shaped sparse pre-state (target path, one neighbour word per path table, garbage in allocatable frames); page-table indices (256,0,510,511)"
+    //@ obligation C09 C09.set_flags_p3_entry_4kib.shape_p3_absent.no_access_outside_page_tables tier=thorough bounded="pool of 7 tables (4 path + 3 allocatable); tree-shaped sparse pre-state (target path, one neighbour word per path table, garbage in allocatable frames); page-table indices (256,0,510,511)"
     #[kani::proof]
     #[kani::stub(PageTable::zero, zero_stub)]
     fn c02_set_flags_p3_entry_4kib_p3_absent_up() {
@@ -529,11 +560,12 @@ mod verif_c01_step_flags {
         kani::cover!(true, "c02_set_flags_p3_entry_4kib_p3_absent_up: reachable");
     }
 
-    //@ obligation C02 C02.set_flags_p3_entry_4kib.shape_huge_leaf.reports_parent_entry_huge_page_and_unchanged tier=thorough bounded="pool of 7 tables (4 path + 3 allocatable); tree-shaped sparse pre-state (target path, one neighbour word per path table, garbage in allocatable frames); page-table indices (0,0,0,0)"
-    //@ obligation C02 C02.set_flags_p3_entry_4kib.shape_huge_leaf.error_leaves_every_mapping tier=thorough bounded="pool of 7 tables (4 path + 3 allocatable); tree-shaped sparse pre-state (target path, one neighbour word per path table, garbage in allocatable frames); page-table indices (0,0,0,0)"
-    //@ obligation C09 C09.set_flags_p3_entry_4kib.shape_huge_leaf.only_dictated_slots_change tier=thorough bounded="pool of 7 tables (4 path + 3 allocatable); tree-shaped sparse pre-state (target path, one neighbour word per path table, garbage in allocatable frames); page-table indices (0,0,0,0)"
-    //@ obligation C09 C09.set_flags_p3_entry_4kib.shape_huge_leaf.no_frames_requested_or_zeroed tier=thorough bounded="pool of 7 tables (4 path + 3 allocatable); tree-shaped sparse pre-state (target path, one neighbour word per path table, garbage in allocatable frames); page-table indices (0,0,0,0)"
-    //@ obligation C09 C09.set_flags_p3_entry_4kib.shape_huge_leaf.no_dangling_table_pointer tier=thorough bounded="pool of 7 tables (4 path + 3 allocatable); tree-shaped sparse pre-state (target path, one neighbour word per path table, garbage in allocatable frames); page-table indices (0,0,0,0)"
+    //@ obligation C02 C02.set_flags_p3_entry_4kib.shape_huge_leaf.reports_parent_entry_huge_page_and_unchanged tier=thorough bounded="pool of 7 tables (4 path + 3 allocatable); tree-shaped sparse pre-state (target path, one neighbour word per path table, garbage in allocatable frames); page-table indices (0,1,511,2)"
+    //@ obligation C02 C02.set_flags_p3_entry_4kib.shape_huge_leaf.error_leaves_every_mapping tier=thorough bounded="pool of 7 tables (4 path + 3 allocatable); tree-shaped sparse pre-state (target path, one neighbour word per path table, garbage in allocatable frames); page-table indices (0,1,511,2)"
+    //@ obligation C09 C09.set_flags_p3_entry_4kib.shape_huge_leaf.only_dictated_slots_change tier=thorough bounded="pool of 7 tables (4 path + 3 allocatable); tree-shaped sparse pre-state (target path, one neighbour word per path table, garbage in allocatable frames); page-table indices (0,1,511,2)"
+    //@ obligation C09 C09.set_flags_p3_entry_4kib.shape_huge_leaf.no_frames_requested_or_zeroed tier=thorough bounded="pool of 7 tables (4 path + 3 allocatable); tree-shaped sparse pre-state (target path, one neighbour word per path table, garbage in allocatable frames); page-table indices (0,1,511,2)"
+    //@ obligation C09 C09.set_flags_p3_entry_4kib.shape_huge_leaf.no_dangling_table_pointer tier=thorough bounded="pool of 7 tables (4 path + 3 allocatable); tree-shaped sparse pre-state (target path, one neighbour word per path table, garbage in allocatable frames); page-table indices (0,1,511,2)"
+    //@ obligation C09 C09.set_flags_p3_entry_4kib.shape_huge_leaf.no_access_outside_page_tables tier=thorough bounded="pool of 7 tables (4 path + 3 allocatable); tree-shaped sparse pre-state (target path, one neighbour word per path table, garbage in allocatable frames); page-table indices (0,1,511,2)"
     #[kani::proof]
     #[kani::stub(PageTable::zero, zero_stub)]
     fn c02_set_flags_p3_entry_4kib_huge_leaf_lo() {
@@ -541,11 +573,12 @@ mod verif_c01_step_flags {
         kani::cover!(true, "c02_set_flags_p3_entry_4kib_huge_leaf_lo: reachable");
     }
 
-    //@ obligation C02 C02.set_flags_p3_entry_4kib.shape_huge_leaf.reports_parent_entry_huge_page_and_unchanged tier=thorough bounded="pool of 7 tables (4 path + 3 allocatable); tree-shaped sparse pre-state (target path, one neighbour word per path table, garbage in allocatable frames); page-table indices (511,511,511,511)"
-    //@ obligation C02 C02.set_flags_p3_entry_4kib.shape_huge_leaf.error_leaves_every_mapping tier=thorough bounded="pool of 7 tables (4 path + 3 allocatable); tree-shaped sparse pre-state (target path, one neighbour word per path table, garbage in allocatable frames); page-table indices (511,511,511,511)"
-    //@ obligation C09 C09.set_flags_p3_entry_4kib.shape_huge_leaf.only_dictated_slots_change tier=thorough bounded="pool of 7 tables (4 path + 3 allocatable); tree-shaped sparse pre-state (target path, one neighbour word per path table, garbage in allocatable frames); page-table indices (511,511,511,511)"
-    //@ obligation C09 C09.set_flags_p3_entry_4kib.shape_huge_leaf.no_frames_requested_or_zeroed tier=thorough bounded="pool of 7 tables (4 path + 3 allocatable); tree-shaped sparse pre-state (target path, one neighbour word per path table, garbage in allocatable frames); page-table indices (511,511,511,511)"
-    //@ obligation C09 C09.set_flags_p3_entry_4kib.shape_huge_leaf.no_dangling_table_pointer tier=thorough bounded="pool of 7 tables (4 path + 3 allocatable); tree-shaped sparse pre-state (target path, one neighbour word per path table, garbage in allocatable frames); page-table indices (511,511,511,511)"
+    //@ obligation C02 C02.set_flags_p3_entry_4kib.shape_huge_leaf.reports_parent_entry_huge_page_and_unchanged tier=thorough bounded="pool of 7 tables (4 path + 3 allocatable); tree-shaped sparse pre-state (target path, one neighbour word per path table, garbage in allocatable frames); page-table indices (511,510,1,0)"
+    //@ obligation C02 C02.set_flags_p3_entry_4kib.shape_huge_leaf.error_leaves_every_mapping tier=thorough bounded="pool of 7 tables (4 path + 3 allocatable); tree-shaped sparse pre-state (target path, one neighbour word per path table, garbage in allocatable frames); page-table indices (511,510,1,0)"
+    //@ obligation C09 C09.set_flags_p3_entry_4kib.shape_huge_leaf.only_dictated_slots_change tier=thorough bounded="pool of 7 tables (4 path + 3 allocatable); tree-shaped sparse pre-state (target path, one neighbour word per path table, garbage in allocatable frames); page-table indices (511,510,1,0)"
+    //@ obligation C09 C09.set_flags_p3_entry_4kib.shape_huge_leaf.no_frames_requested_or_zeroed tier=thorough bounded="pool of 7 tables (4 path + 3 allocatable); tree-shaped sparse pre-state (target path, one neighbour word per path table, garbage in allocatable frames); page-table indices (511,510,1,0)"
+    //@ obligation C09 C09.set_flags_p3_entry_4kib.shape_huge_leaf.no_dangling_table_pointer tier=thorough bounded="pool of 7 tables (4 path + 3 allocatable); tree-shaped sparse pre-state (target path, one neighbour word per path table, garbage in allocatable frames); page-table indices (511,510,1,0)"
+    //@ obligation C09 C09.set_flags_p3_entry_4kib.shape_huge_leaf.no_access_outside_page_tables tier=thorough bounded="pool of 7 tables (4 path + 3 allocatable); tree-shaped sparse pre-state (target path, one neighbour word per path table, garbage in allocatable frames); page-table indices (511,510,1,0)"
     #[kani::proof]
     #[kani::stub(PageTable::zero, zero_stub)]
     fn c02_set_flags_p3_entry_4kib_huge_leaf_hi() {
@@ -553,11 +586,12 @@ mod verif_c01_step_flags {
         kani::cover!(true, "c02_set_flags_p3_entry_4kib_huge_leaf_hi: reachable");
     }
 
-    //@ obligation C02 C02.set_flags_p3_entry_4kib.shape_huge_leaf.reports_parent_entry_huge_page_and_unchanged tier=thorough bounded="pool of 7 tables (4 path + 3 allocatable); tree-shaped sparse pre-state (target path, one neighbour word per path table, garbage in allocatable frames); page-table indices (255,511,0,1)"
-    //@ obligation C02 C02.set_flags_p3_entry_4kib.shape_huge_leaf.error_leaves_every_mapping tier=thorough bounded="pool of 7 tables (4 path + 3 allocatable); tree-shaped sparse pre-state (target path, one neighbour word per path table, garbage in allocatable frames); page-table indices (255,511,0,1)"
-    //@ obligation C09 C09.set_flags_p3_entry_4kib.shape_huge_leaf.only_dictated_slots_change tier=thorough bounded="pool of 7 tables (4 path + 3 allocatable); tree-shaped sparse pre-state (target path, one neighbour word per path table, garbage in allocatable frames); page-table indices (255,511,0,1)"
-    //@ obligation C09 C09.set_flags_p3_entry_4kib.shape_huge_leaf.no_frames_requested_or_zeroed tier=thorough bounded="pool of 7 tables (4 path + 3 allocatable); tree-shaped sparse pre-state (target path, one neighbour word per path table, garbage in allocatable frames); page-table indices (255,511,0,1)"
-    //@ obligation C09 C09.set_flags_p3_entry_4kib.shape_huge_leaf.no_dangling_table_pointer tier=thorough bounded="pool of 7 tables (4 path + 3 allocatable); tree-shaped sparse pre-state (target path, one neighbour word per path table, garbage in allocatable frames); page-table indices (255,511,0,1)"
+    //@ obligation C02 C02.set_flags_p3_entry_4kib.shape_huge_leaf.reports_parent_entry_huge_page_and_unchanged tier=thorough bounded="pool of 7 tables (4 path + 3 allocatable); tree-shaped sparse pre-state (target path, one neighbour word per path table, garbage in allocatable frames); page-table indices (255,511,0,256)"
+    //@ obligation C02 C02.set_flags_p3_entry_4kib.shape_huge_leaf.error_leaves_every_mapping tier=thorough bounded="pool of 7 tables (4 path + 3 allocatable); tree-shaped sparse pre-state (target path, one neighbour word per path table, garbage in allocatable frames); page-table indices (255,511,0,256)"
+    //@ obligation C09 C09.set_flags_p3_entry_4kib.shape_huge_leaf.only_dictated_slots_change tier=thorough bounded="pool of 7 tables (4 path + 3 allocatable); tree-shaped sparse pre-state (target path, one neighbour word per path table, garbage in allocatable frames); page-table indices (255,511,0,256)"
+    //@ obligation C09 C09.set_flags_p3_entry_4kib.shape_huge_leaf.no_frames_requested_or_zeroed tier=thorough bounded="pool of 7 tables (4 path + 3 allocatable); tree-shaped sparse pre-state (target path, one neighbour word per path table, garbage in allocatable frames); page-table indices (255,511,0,256)"
+    //@ obligation C09 C09.set_flags_p3_entry_4kib.shape_huge_leaf.no_dangling_table_pointer tier=thorough bounded="pool of 7 tables (4 path + 3 allocatable); tree-shaped sparse pre-state (target path, one neighbour word per path table, garbage in allocatable frames); page-table indices (255,511,0,256)"
+    //@ obligation C09 C09.set_flags_p3_entry_4kib.shape_huge_leaf.no_access_outside_page_tables tier=thorough bounded="pool of 7 tables (4 path + 3 allocatable); tree-shaped sparse pre-state (target path, one neighbour word per path table, garbage in allocatable frames); page-table indices (255,511,0,256)"
     #[kani::proof]
     #[kani::stub(PageTable::zero, zero_stub)]
     fn c02_set_flags_p3_entry_4kib_huge_leaf_mid() {
@@ -565,11 +599,12 @@ mod verif_c01_step_flags {
         kani::cover!(true, "c02_set_flags_p3_entry_4kib_huge_leaf_mid: reachable");
     }
 
-    //@ obligation C02 C02.set_flags_p3_entry_4kib.shape_huge_leaf.reports_parent_entry_huge_page_and_unchanged tier=thorough bounded="pool of 7 tables (4 path + 3 allocatable); tree-shaped sparse pre-state (target path, one neighbour word per path table, garbage in allocatable frames); page-table indices (256,1,510,255)"
-    //@ obligation C02 C02.set_flags_p3_entry_4kib.shape_huge_leaf.error_leaves_every_mapping tier=thorough bounded="pool of 7 tables (4 path + 3 allocatable); tree-shaped sparse pre-state (target path, one neighbour word per path table, garbage in allocatable frames); page-table indices (256,1,510,255)"
-    //@ obligation C09 C09.set_flags_p3_entry_4kib.shape_huge_leaf.only_dictated_slots_change tier=thorough bounded="pool of 7 tables (4 path + 3 allocatable); tree-shaped sparse pre-state (target path, one neighbour word per path table, garbage in allocatable frames); page-table indices (256,1,510,255)"
-    //@ obligation C09 C09.set_flags_p3_entry_4kib.shape_huge_leaf.no_frames_requested_or_zeroed tier=thorough bounded="pool of 7 tables (4 path + 3 allocatable); tree-shaped sparse pre-state (target path, one neighbour word per path table, garbage in allocatable frames); page-table indices (256,1,510,255)"
-    //@ obligation C09 C09.set_flags_p3_entry_4kib.shape_huge_leaf.no_dangling_table_pointer tier=thorough bounded="pool of 7 tables (4 path + 3 allocatable); tree-shaped sparse pre-state (target path, one neighbour word per path table, garbage in allocatable frames); page-table indices (256,1,510,255)"
+    //@ obligation C02 C02.set_flags_p3_entry_4kib.shape_huge_leaf.reports_parent_entry_huge_page_and_unchanged tier=thorough bounded="pool of 7 tables (4 path + 3 allocatable); tree-shaped sparse pre-state (target path, one neighbour word per path table, garbage in allocatable frames); page-table indices (256,0,510,511)"
+    //@ obligation C02 C02.set_flags_p3_entry_4kib.shape_huge_leaf.error_leaves_every_mapping tier=thorough bounded="pool of 7 tables (4 path + 3 allocatable); tree-shaped sparse pre-state (target path, one neighbour word per path table, garbage in allocatable frames); page-table indices (256,0,510,511)"
+    //@ obligation C09 C09.set_flags_p3_entry_4kib.shape_huge_leaf.only_dictated_slots_change tier=thorough bounded="pool of 7 tables (4 path + 3 allocatable); tree-shaped sparse pre-state (target path, one neighbour word per path table, garbage in allocatable frames); page-table indices (256,0,510,511)"
+    //@ obligation C09 C09.set_flags_p3_entry_4kib.shape_huge_leaf.no_frames_requested_or_zeroed tier=thorough bounded="pool of 7 tables (4 path + 3 allocatable); tree-shaped sparse pre-state (target path, one neighbour word per path table, garbage in allocatable frames); page-table indices (256,0,510,511)"
+    //@ obligation C09 C09.set_flags_p3_entry_4kib.shape_huge_leaf.no_dangling_table_pointer tier=thorough bounded="pool of 7 tables (4 path + 3 allocatable); tree-shaped sparse pre-state (target path, one neighbour word per path table, garbage in allocatable frames); page-table indices (256,0,510,511)"
+    //@ obligation C09 C09.set_flags_p3_entry_4kib.shape_huge_leaf.no_access_outside_page_tables tier=thorough bounded="pool of 7 tables (4 path + 3 allocatable); tree-shaped sparse pre-state (target path, one neighbour word per path table, garbage in allocatable frames); page-table indices (256,0,510,511)"
     #[kani::proof]
     #[kani::stub(PageTable::zero, zero_stub)]
     fn c02_set_flags_p3_entry_4kib_huge_leaf_up() {
@@ -577,13 +612,14 @@ mod verif_c01_step_flags {
         kani::cover!(true, "c02_set_flags_p3_entry_4kib_huge_leaf_up: reachable");
     }
 
-    //@ obligation C02 C02.set_flags_p3_entry_4kib.shape_p3_table.documented_outcome tier=thorough bounded="pool of 7 tables (4 path + 3 allocatable); tree-shaped sparse pre-state (target path, one neighbour word per path table, garbage in allocatable frames); page-table indices (0,0,0,0)"
-    //@ obligation C01 C01.set_flags_p3_entry_4kib.shape_p3_table.no_leaf_changes tier=thorough bounded="pool of 7 tables (4 path + 3 allocatable); tree-shaped sparse pre-state (target path, one neighbour word per path table, garbage in allocatable frames); page-table indices (0,0,0,0)"
-    //@ obligation C01 C01.set_flags_p3_entry_4kib.shape_p3_table.entry_flags_replaced_address_kept tier=thorough bounded="pool of 7 tables (4 path + 3 allocatable); tree-shaped sparse pre-state (target path, one neighbour word per path table, garbage in allocatable frames); page-table indices (0,0,0,0)"
-    //@ obligation C11 C11.set_flags_p3_entry_4kib.shape_p3_table.flush_all_token tier=thorough bounded="pool of 7 tables (4 path + 3 allocatable); tree-shaped sparse pre-state (target path, one neighbour word per path table, garbage in allocatable frames); page-table indices (0,0,0,0)"
-    //@ obligation C09 C09.set_flags_p3_entry_4kib.shape_p3_table.only_dictated_slots_change tier=thorough bounded="pool of 7 tables (4 path + 3 allocatable); tree-shaped sparse pre-state (target path, one neighbour word per path table, garbage in allocatable frames); page-table indices (0,0,0,0)"
-    //@ obligation C09 C09.set_flags_p3_entry_4kib.shape_p3_table.no_frames_requested_or_zeroed tier=thorough bounded="pool of 7 tables (4 path + 3 allocatable); tree-shaped sparse pre-state (target path, one neighbour word per path table, garbage in allocatable frames); page-table indices (0,0,0,0)"
-    //@ obligation C09 C09.set_flags_p3_entry_4kib.shape_p3_table.no_dangling_table_pointer tier=thorough bounded="pool of 7 tables (4 path + 3 allocatable); tree-shaped sparse pre-state (target path, one neighbour word per path table, garbage in allocatable frames); page-table indices (0,0,0,0)"
+    //@ obligation C02 C02.set_flags_p3_entry_4kib.shape_p3_table.documented_outcome tier=thorough bounded="pool of 7 tables (4 path + 3 allocatable); tree-shaped sparse pre-state (target path, one neighbour word per path table, garbage in allocatable frames); page-table indices (0,1,511,2)"
+    //@ obligation C01 C01.set_flags_p3_entry_4kib.shape_p3_table.no_leaf_changes tier=thorough bounded="pool of 7 tables (4 path + 3 allocatable); tree-shaped sparse pre-state (target path, one neighbour word per path table, garbage in allocatable frames); page-table indices (0,1,511,2)"
+    //@ obligation C01 C01.set_flags_p3_entry_4kib.shape_p3_table.entry_flags_replaced_address_kept tier=thorough bounded="pool of 7 tables (4 path + 3 allocatable); tree-shaped sparse pre-state (target path, one neighbour word per path table, garbage in allocatable frames); page-table indices (0,1,511,2)"
+    //@ obligation C11 C11.set_flags_p3_entry_4kib.shape_p3_table.flush_all_token tier=thorough bounded="pool of 7 tables (4 path + 3 allocatable); tree-shaped sparse pre-state (target path, one neighbour word per path table, garbage in allocatable frames); page-table indices (0,1,511,2)"
+    //@ obligation C09 C09.set_flags_p3_entry_4kib.shape_p3_table.only_dictated_slots_change tier=thorough bounded="pool of 7 tables (4 path + 3 allocatable); tree-shaped sparse pre-state (target path, one neighbour word per path table, garbage in allocatable frames); page-table indices (0,1,511,2)"
+    //@ obligation C09 C09.set_flags_p3_entry_4kib.shape_p3_table.no_frames_requested_or_zeroed tier=thorough bounded="pool of 7 tables (4 path + 3 allocatable); tree-shaped sparse pre-state (target path, one neighbour word per path table, garbage in allocatable frames); page-table indices (0,1,511,2)"
+    //@ obligation C09 C09.set_flags_p3_entry_4kib.shape_p3_table.no_dangling_table_pointer tier=thorough bounded="pool of 7 tables (4 path + 3 allocatable); tree-shaped sparse pre-state (target path, one neighbour word per path table, garbage in allocatable frames); page-table indices (0,1,511,2)"
+    //@ obligation C09 C09.set_flags_p3_entry_4kib.shape_p3_table.no_access_outside_page_tables tier=thorough bounded="pool of 7 tables (4 path + 3 allocatable); tree-shaped sparse pre-state (target path, one neighbour word per path table, garbage in allocatable frames); page-table indices (0,1,511,2)"
     #[kani::proof]
     #[kani::stub(PageTable::zero, zero_stub)]
     fn c01_set_flags_p3_entry_4kib_p3_table_lo() {
@@ -591,13 +627,14 @@ mod verif_c01_step_flags {
         kani::cover!(true, "c01_set_flags_p3_entry_4kib_p3_table_lo: reachable");
     }
 
-    //@ obligation C02 C02.set_flags_p3_entry_4kib.shape_p3_table.documented_outcome tier=thorough bounded="pool of 7 tables (4 path + 3 allocatable); tree-shaped sparse pre-state (target path, one neighbour word per path table, garbage in allocatable frames); page-table indices (511,511,511,511)"
-    //@ obligation C01 C01.set_flags_p3_entry_4kib.shape_p3_table.no_leaf_changes tier=thorough bounded="pool of 7 tables (4 path + 3 allocatable); tree-shaped sparse pre-state (target path, one neighbour word per path table, garbage in allocatable frames); page-table indices (511,511,511,511)"
-    //@ obligation C01 C01.set_flags_p3_entry_4kib.shape_p3_table.entry_flags_replaced_address_kept tier=thorough bounded="pool of 7 tables (4 path + 3 allocatable); tree-shaped sparse pre-state (target path, one neighbour word per path table, garbage in allocatable frames); page-table indices (511,511,511,511)"
-    //@ obligation C11 C11.set_flags_p3_entry_4kib.shape_p3_table.flush_all_token tier=thorough bounded="pool of 7 tables (4 path + 3 allocatable); tree-shaped sparse pre-state (target path, one neighbour word per path table, garbage in allocatable frames); page-table indices (511,511,511,511)"
-    //@ obligation C09 C09.set_flags_p3_entry_4kib.shape_p3_table.only_dictated_slots_change tier=thorough bounded="pool of 7 tables (4 path + 3 allocatable); tree-shaped sparse pre-state (target path, one neighbour word per path table, garbage in allocatable frames); page-table indices (511,511,511,511)"
-    //@ obligation C09 C09.set_flags_p3_entry_4kib.shape_p3_table.no_frames_requested_or_zeroed tier=thorough bounded="pool of 7 tables (4 path + 3 allocatable); tree-shaped sparse pre-state (target path, one neighbour word per path table, garbage in allocatable frames); page-table indices (511,511,511,511)"
-    //@ obligation C09 C09.set_flags_p3_entry_4kib.shape_p3_table.no_dangling_table_pointer tier=thorough bounded="pool of 7 tables (4 path + 3 allocatable); tree-shaped sparse pre-state (target path, one neighbour word per path table, garbage in allocatable frames); page-table indices (511,511,511,511)"
+    //@ obligation C02 C02.set_flags_p3_entry_4kib.shape_p3_table.documented_outcome tier=thorough bounded="pool of 7 tables (4 path + 3 allocatable); tree-shaped sparse pre-state (target path, one neighbour word per path table, garbage in allocatable frames); page-table indices (511,510,1,0)"
+    //@ obligation C01 C01.set_flags_p3_entry_4kib.shape_p3_table.no_leaf_changes tier=thorough bounded="pool of 7 tables (4 path + 3 allocatable); tree-shaped sparse pre-state (target path, one neighbour word per path table, garbage in allocatable frames); page-table indices (511,510,1,0)"
+    //@ obligation C01 C01.set_flags_p3_entry_4kib.shape_p3_table.entry_flags_replaced_address_kept tier=thorough bounded="pool of 7 tables (4 path + 3 allocatable); tree-shaped sparse pre-state (target path, one neighbour word per path table, garbage in allocatable frames); page-table indices (511,510,1,0)"
+    //@ obligation C11 C11.set_flags_p3_entry_4kib.shape_p3_table.flush_all_token tier=thorough bounded="pool of 7 tables (4 path + 3 allocatable); tree-shaped sparse pre-state (target path, one neighbour word per path table, garbage in allocatable frames); page-table indices (511,510,1,0)"
+    //@ obligation C09 C09.set_flags_p3_entry_4kib.shape_p3_table.only_dictated_slots_change tier=thorough bounded="pool of 7 tables (4 path + 3 allocatable); tree-shaped sparse pre-state (target path, one neighbour word per path table, garbage in allocatable frames); page-table indices (511,510,1,0)"
+    //@ obligation C09 C09.set_flags_p3_entry_4kib.shape_p3_table.no_frames_requested_or_zeroed tier=thorough bounded="pool of 7 tables (4 path + 3 allocatable); tree-shaped sparse pre-state (target path, one neighbour word per path table, garbage in allocatable frames); page-table indices (511,510,1,0)"
+    //@ obligation C09 C09.set_flags_p3_entry_4kib.shape_p3_table.no_dangling_table_pointer tier=thorough bounded="pool of 7 tables (4 path + 3 allocatable); tree-shaped sparse pre-state (target path, one neighbour word per path table, garbage in allocatable frames); page-table indices (511,510,1,0)"
+    //@ obligation C09 C09.set_flags_p3_entry_4kib.shape_p3_table.no_access_outside_page_tables tier=thorough bounded="pool of 7 tables (4 path + 3 allocatable); tree-shaped sparse pre-state (target path, one neighbour word per path table, garbage in allocatable frames); page-table indices (511,510,1,0)"
     #[kani::proof]
     #[kani::stub(PageTable::zero, zero_stub)]
     fn c01_set_flags_p3_entry_4kib_p3_table_hi() {
@@ -605,13 +642,14 @@ mod verif_c01_step_flags {
         kani::cover!(true, "c01_set_flags_p3_entry_4kib_p3_table_hi: reachable");
     }
 
-    //@ obligation C02 C02.set_flags_p3_entry_4kib.shape_p3_table.documented_outcome bounded="pool of 7 tables (4 path + 3 allocatable); tree-shaped sparse pre-state (target path, one neighbour word per path table, garbage in allocatable frames); page-table indices (255,511,0,1)"
-    //@ obligation C01 C01.set_flags_p3_entry_4kib.shape_p3_table.no_leaf_changes bounded="pool of 7 tables (4 path + 3 allocatable); tree-shaped sparse pre-state (target path, one neighbour word per path table, garbage in allocatable frames); page-table indices (255,511,0,1)"
-    //@ obligation C01 C01.set_flags_p3_entry_4kib.shape_p3_table.entry_flags_replaced_address_kept bounded="pool of 7 tables (4 path + 3 allocatable); tree-shaped sparse pre-state (target path, one neighbour word per path table, garbage in allocatable frames); page-table indices (255,511,0,1)"
-    //@ obligation C11 C11.set_flags_p3_entry_4kib.shape_p3_table.flush_all_token bounded="pool of 7 tables (4 path + 3 allocatable); tree-shaped sparse pre-state (target path, one neighbour word per path table, garbage in allocatable frames); page-table indices (255,511,0,1)"
-    //@ obligation C09 C09.set_flags_p3_entry_4kib.shape_p3_table.only_dictated_slots_change bounded="pool of 7 tables (4 path + 3 allocatable); tree-shaped sparse pre-state (target path, one neighbour word per path table, garbage in allocatable frames); page-table indices (255,511,0,1)"
-    //@ obligation C09 C09.set_flags_p3_entry_4kib.shape_p3_table.no_frames_requested_or_zeroed bounded="pool of 7 tables (4 path + 3 allocatable); tree-shaped sparse pre-state (target path, one neighbour word per path table, garbage in allocatable frames); page-table indices (255,511,0,1)"
-    //@ obligation C09 C09.set_flags_p3_entry_4kib.shape_p3_table.no_dangling_table_pointer bounded="pool of 7 tables (4 path + 3 allocatable); tree-shaped sparse pre-state (target path, one neighbour word per path table, garbage in allocatable frames); page-table indices (255,511,0,1)"
+    //@ obligation C02 C02.set_flags_p3_entry_4kib.shape_p3_table.documented_outcome bounded="pool of 7 tables (4 path + 3 allocatable); tree-shaped sparse pre-state (target path, one neighbour word per path table, garbage in allocatable frames); page-table indices (255,511,0,256)"
+    //@ obligation C01 C01.set_flags_p3_entry_4kib.shape_p3_table.no_leaf_changes bounded="pool of 7 tables (4 path + 3 allocatable); tree-shaped sparse pre-state (target path, one neighbour word per path table, garbage in allocatable frames); page-table indices (255,511,0,256)"
+    //@ obligation C01 C01.set_flags_p3_entry_4kib.shape_p3_table.entry_flags_replaced_address_kept bounded="pool of 7 tables (4 path + 3 allocatable); tree-shaped sparse pre-state (target path, one neighbour word per path table, garbage in allocatable frames); page-table indices (255,511,0,256)"
+    //@ obligation C11 C11.set_flags_p3_entry_4kib.shape_p3_table.flush_all_token bounded="pool of 7 tables (4 path + 3 allocatable); tree-shaped sparse pre-state (target path, one neighbour word per path table, garbage in allocatable frames); page-table indices (255,511,0,256)"
+    //@ obligation C09 C09.set_flags_p3_entry_4kib.shape_p3_table.only_dictated_slots_change bounded="pool of 7 tables (4 path + 3 allocatable); tree-shaped sparse pre-state (target path, one neighbour word per path table, garbage in allocatable frames); page-table indices (255,511,0,256)"
+    //@ obligation C09 C09.set_flags_p3_entry_4kib.shape_p3_table.no_frames_requested_or_zeroed bounded="pool of 7 tables (4 path + 3 allocatable); tree-shaped sparse pre-state (target path, one neighbour word per path table, garbage in allocatable frames); page-table indices (255,511,0,256)"
+    //@ obligation C09 C09.set_flags_p3_entry_4kib.shape_p3_table.no_dangling_table_pointer bounded="pool of 7 tables (4 path + 3 allocatable); tree-shaped sparse pre-state (target path, one neighbour word per path table, garbage in allocatable frames); page-table indices (255,511,0,256)"
+    //@ obligation C09 C09.set_flags_p3_entry_4kib.shape_p3_table.no_access_outside_page_tables bounded="pool of 7 tables (4 path + 3 allocatable); tree-shaped sparse pre-state (target path, one neighbour word per path table, garbage in allocatable frames); page-table indices (255,511,0,256)"
     #[kani::proof]
     #[kani::stub(PageTable::zero, zero_stub)]
     fn c01_set_flags_p3_entry_4kib_p3_table_mid() {
@@ -619,13 +657,14 @@ mod verif_c01_step_flags {
         kani::cover!(true, "c01_set_flags_p3_entry_4kib_p3_table_mid: reachable");
     }
 
-    //@ obligation C02 C02.set_flags_p3_entry_4kib.shape_p3_table.documented_outcome tier=thorough bounded="pool of 7 tables (4 path + 3 allocatable); tree-shaped sparse pre-state (target path, one neighbour word per path table, garbage in allocatable frames); page-table indices (256,1,510,255)"
-    //@ obligation C01 C01.set_flags_p3_entry_4kib.shape_p3_table.no_leaf_changes tier=thorough bounded="pool of 7 tables (4 path + 3 allocatable); tree-shaped sparse pre-state (target path, one neighbour word per path table, garbage in allocatable frames); page-table indices (256,1,510,255)"
-    //@ obligation C01 C01.set_flags_p3_entry_4kib.shape_p3_table.entry_flags_replaced_address_kept tier=thorough bounded="pool of 7 tables (4 path + 3 allocatable); tree-shaped sparse pre-state (target path, one neighbour word per path table, garbage in allocatable frames); page-table indices (256,1,510,255)"
-    //@ obligation C11 C11.set_flags_p3_entry_4kib.shape_p3_table.flush_all_token tier=thorough bounded="pool of 7 tables (4 path + 3 allocatable); tree-shaped sparse pre-state (target path, one neighbour word per path table, garbage in allocatable frames); page-table indices (256,1,510,255)"
-    //@ obligation C09 C09.set_flags_p3_entry_4kib.shape_p3_table.only_dictated_slots_change tier=thorough bounded="pool of 7 tables (4 path + 3 allocatable); tree-shaped sparse pre-state (target path, one neighbour word per path table, garbage in allocatable frames); page-table indices (256,1,510,255)"
-    //@ obligation C09 C09.set_flags_p3_entry_4kib.shape_p3_table.no_frames_requested_or_zeroed tier=thorough bounded="pool of 7 tables (4 path + 3 allocatable); tree-shaped sparse pre-state (target path, one neighbour word per path table, garbage in allocatable frames); page-table indices (256,1,510,255)"
-    //@ obligation C09 C09.set_flags_p3_entry_4kib.shape_p3_table.no_dangling_table_pointer tier=thorough bounded="pool of 7 tables (4 path + 3 allocatable); tree-shaped sparse pre-state (target path, one neighbour word per path table, garbage in allocatable frames); page-table indices (256,1,510,255)"
+    //@ obligation C02 C02.set_flags_p3_entry_4kib.shape_p3_table.documented_outcome tier=thorough bounded="pool of 7 tables (4 path + 3 allocatable); tree-shaped sparse pre-state (target path, one neighbour word per path table, garbage in allocatable frames); page-table indices (256,0,510,511)"
+    //@ obligation C01 C01.set_flags_p3_entry_4kib.shape_p3_table.no_leaf_changes tier=thorough bounded="pool of 7 tables (4 path + 3 allocatable); tree-shaped sparse pre-state (target path, one neighbour word per path table, garbage in allocatable frames); page-table indices (256,0,510,511)"
+    //@ obligation C01 C01.set_flags_p3_entry_4kib.shape_p3_table.entry_flags_replaced_address_kept tier=thorough bounded="pool of 7 tables (4 path + 3 allocatable); tree-shaped sparse pre-state (target path, one neighbour word per path table, garbage in allocatable frames); page-table indices (256,0,510,511)"
+    //@ obligation C11 C11.set_flags_p3_entry_4kib.shape_p3_table.flush_all_token tier=thorough bounded="pool of 7 tables (4 path + 3 allocatable); tree-shaped sparse pre-state (target path, one neighbour word per path table, garbage in allocatable frames); page-table indices (256,0,510,511)"
+    //@ obligation C09 C09.set_flags_p3_entry_4kib.shape_p3_table.only_dictated_slots_change tier=thorough bounded="pool of 7 tables (4 path + 3 allocatable); tree-shaped sparse pre-state (target path, one neighbour word per path table, garbage in allocatable frames); page-table indices (256,0,510,511)"
+    //@ obligation C09 C09.set_flags_p3_entry_4kib.shape_p3_table.no_frames_requested_or_zeroed tier=thorough bounded="pool of 7 tables (4 path + 3 allocatable); tree-shaped sparse pre-state (target path, one neighbour word per path table, garbage in allocatable frames); page-table indices (256,0,510,511)"
+    //@ obligation C09 C09.set_flags_p3_entry_4kib.shape_p3_table.no_dangling_table_pointer tier=thorough bounded="pool of 7 tables (4 path + 3 allocatable); tree-shaped sparse pre-state (target path, one neighbour word per path table, garbage in allocatable frames); page-table indices (256,0,510,511)"
+    //@ obligation C09 C09.set_flags_p3_entry_4kib.shape_p3_table.no_access_outside_page_tables tier=thorough bounded="pool of 7 tables (4 path + 3 allocatable); tree-shaped sparse pre-state (target path, one neighbour word per path table, garbage in allocatable frames); page-table indices (256,0,510,511)"
     #[kani::proof]
     #[kani::stub(PageTable::zero, zero_stub)]
     fn c01_set_flags_p3_entry_4kib_p3_table_up() {
@@ -633,11 +672,12 @@ mod verif_c01_step_flags {
         kani::cover!(true, "c01_set_flags_p3_entry_4kib_p3_table_up: reachable");
     }
 
-    //@ obligation C02 C02.set_flags_p3_entry_2mib.shape_p4_absent.documented_outcome tier=thorough bounded="pool of 7 tables (4 path + 3 allocatable); tree-shaped sparse pre-state (target path, one neighbour word per path table, garbage in allocatable frames); page-table indices (0,0,0,0)"
-    //@ obligation C02 C02.set_flags_p3_entry_2mib.shape_p4_absent.error_leaves_every_mapping tier=thorough bounded="pool of 7 tables (4 path + 3 allocatable); tree-shaped sparse pre-state (target path, one neighbour word per path table, garbage in allocatable frames); page-table indices (0,0,0,0)"
-    //@ obligation C09 C09.set_flags_p3_entry_2mib.shape_p4_absent.only_dictated_slots_change tier=thorough bounded="pool of 7 tables (4 path + 3 allocatable); tree-shaped sparse pre-state (target path, one neighbour word per path table, garbage in allocatable frames); page-table indices (0,0,0,0)"
-    //@ obligation C09 C09.set_flags_p3_entry_2mib.shape_p4_absent.no_frames_requested_or_zeroed tier=thorough bounded="pool of 7 tables (4 path + 3 allocatable); tree-shaped sparse pre-state (target path, one neighbour word per path table, garbage in allocatable frames); page-table indices (0,0,0,0)"
-    //@ obligation C09 C09.set_flags_p3_entry_2mib.shape_p4_absent.no_dangling_table_pointer tier=thorough bounded="pool of 7 tables (4 path + 3 allocatable); tree-shaped sparse pre-state (target path, one neighbour word per path table, garbage in allocatable frames); page-table indices (0,0,0,0)"
+    //@ obligation C02 C02.set_flags_p3_entry_2mib.shape_p4_absent.documented_outcome tier=thorough bounded="pool of 7 tables (4 path + 3 allocatable); tree-shaped sparse pre-state (target path, one neighbour word per path table, garbage in allocatable frames); page-table indices (0,1,511,2)"
+    //@ obligation C02 C02.set_flags_p3_entry_2mib.shape_p4_absent.error_leaves_every_mapping tier=thorough bounded="pool of 7 tables (4 path + 3 allocatable); tree-shaped sparse pre-state (target path, one neighbour word per path table, garbage in allocatable frames); page-table indices (0,1,511,2)"
+    //@ obligation C09 C09.set_flags_p3_entry_2mib.shape_p4_absent.only_dictated_slots_change tier=thorough bounded="pool of 7 tables (4 path + 3 allocatable); tree-shaped sparse pre-state (target path, one neighbour word per path table, garbage in allocatable frames); page-table indices (0,1,511,2)"
+    //@ obligation C09 C09.set_flags_p3_entry_2mib.shape_p4_absent.no_frames_requested_or_zeroed tier=thorough bounded="pool of 7 tables (4 path + 3 allocatable); tree-shaped sparse pre-state (target path, one neighbour word per path table, garbage in allocatable frames); page-table indices (0,1,511,2)"
+    //@ obligation C09 C09.set_flags_p3_entry_2mib.shape_p4_absent.no_dangling_table_pointer tier=thorough bounded="pool of 7 tables (4 path + 3 allocatable); tree-shaped sparse pre-state (target path, one neighbour word per path table, garbage in allocatable frames); page-table indices (0,1,511,2)"
+    //@ obligation C09 C09.set_flags_p3_entry_2mib.shape_p4_absent.no_access_outside_page_tables tier=thorough bounded="pool of 7 tables (4 path + 3 allocatable); tree-shaped sparse pre-state (target path, one neighbour word per path table, garbage in allocatable frames); page-table indices (0,1,511,2)"
     #[kani::proof]
     #[kani::stub(PageTable::zero, zero_stub)]
     fn c02_set_flags_p3_entry_2mib_p4_absent_lo() {
@@ -645,11 +685,12 @@ mod verif_c01_step_flags {
         kani::cover!(true, "c02_set_flags_p3_entry_2mib_p4_absent_lo: reachable");
     }
 
-    //@ obligation C02 C02.set_flags_p3_entry_2mib.shape_p4_absent.documented_outcome tier=thorough bounded="pool of 7 tables (4 path + 3 allocatable); tree-shaped sparse pre-state (target path, one neighbour word per path table, garbage in allocatable frames); page-table indices (511,511,511,511)"
-    //@ obligation C02 C02.set_flags_p3_entry_2mib.shape_p4_absent.error_leaves_every_mapping tier=thorough bounded="pool of 7 tables (4 path + 3 allocatable); tree-shaped sparse pre-state (target path, one neighbour word per path table, garbage in allocatable frames); page-table indices (511,511,511,511)"
-    //@ obligation C09 C09.set_flags_p3_entry_2mib.shape_p4_absent.only_dictated_slots_change tier=thorough bounded="pool of 7 tables (4 path + 3 allocatable); tree-shaped sparse pre-state (target path, one neighbour word per path table, garbage in allocatable frames); page-table indices (511,511,511,511)"
-    //@ obligation C09 C09.set_flags_p3_entry_2mib.shape_p4_absent.no_frames_requested_or_zeroed tier=thorough bounded="pool of 7 tables (4 path + 3 allocatable); tree-shaped sparse pre-state (target path, one neighbour word per path table, garbage in allocatable frames); page-table indices (511,511,511,511)"
-    //@ obligation C09 C09.set_flags_p3_entry_2mib.shape_p4_absent.no_dangling_table_pointer tier=thorough bounded="pool of 7 tables (4 path + 3 allocatable); tree-shaped sparse pre-state (target path, one neighbour word per path table, garbage in allocatable frames); page-table indices (511,511,511,511)"
+    //@ obligation C02 C02.set_flags_p3_entry_2mib.shape_p4_absent.documented_outcome tier=thorough bounded="pool of 7 tables (4 path + 3 allocatable); tree-shaped sparse pre-state (target path, one neighbour word per path table, garbage in allocatable frames); page-table indices (511,510,1,0)"
+    //@ obligation C02 C02.set_flags_p3_entry_2mib.shape_p4_absent.error_leaves_every_mapping tier=thorough bounded="pool of 7 tables (4 path + 3 allocatable); tree-shaped sparse pre-state (target path, one neighbour word per path table, garbage in allocatable frames); page-table indices (511,510,1,0)"
+    //@ obligation C09 C09.set_flags_p3_entry_2mib.shape_p4_absent.only_dictated_slots_change tier=thorough bounded="pool of 7 tables (4 path + 3 allocatable); tree-shaped sparse pre-state (target path, one neighbour word per path table, garbage in allocatable frames); page-table indices (511,510,1,0)"
+    //@ obligation C09 C09.set_flags_p3_entry_2mib.shape_p4_absent.no_frames_requested_or_zeroed tier=thorough bounded="pool of 7 tables (4 path + 3 allocatable); tree-shaped sparse pre-state (target path, one neighbour word per path table, garbage in allocatable frames); page-table indices (511,510,1,0)"
+    //@ obligation C09 C09.set_flags_p3_entry_2mib.shape_p4_absent.no_dangling_table_pointer tier=thorough bounded="pool of 7 tables (4 path + 3 allocatable); tree-shaped sparse pre-state (target path, one neighbour word per path table, garbage in allocatable frames); page-table indices (511,510,1,0)"
+    //@ obligation C09 C09.set_flags_p3_entry_2mib.shape_p4_absent.no_access_outside_page_tables tier=thorough bounded="pool of 7 tables (4 path + 3 allocatable); tree-shaped sparse pre-state (target path, one neighbour word per path table, garbage in allocatable frames); page-table indices (511,510,1,0)"
     #[kani::proof]
     #[kani::stub(PageTable::zero, zero_stub)]
     fn c02_set_flags_p3_entry_2mib_p4_absent_hi() {
@@ -657,11 +698,12 @@ mod verif_c01_step_flags {
         kani::cover!(true, "c02_set_flags_p3_entry_2mib_p4_absent_hi: reachable");
     }
 
-    //@ obligation C02 C02.set_flags_p3_entry_2mib.shape_p4_absent.documented_outcome tier=thorough bounded="pool of 7 tables (4 path + 3 allocatable); tree-shaped sparse pre-state (target path, one neighbour word per path table, garbage in allocatable frames); page-table indices (255,511,0,1)"
-    //@ obligation C02 C02.set_flags_p3_entry_2mib.shape_p4_absent.error_leaves_every_mapping tier=thorough bounded="pool of 7 tables (4 path + 3 allocatable); tree-shaped sparse pre-state (target path, one neighbour word per path table, garbage in allocatable frames); page-table indices (255,511,0,1)"
-    //@ obligation C09 C09.set_flags_p3_entry_2mib.shape_p4_absent.only_dictated_slots_change tier=thorough bounded="pool of 7 tables (4 path + 3 allocatable); tree-shaped sparse pre-state (target path, one neighbour word per path table, garbage in allocatable frames); page-table indices (255,511,0,1)"
-    //@ obligation C09 C09.set_flags_p3_entry_2mib.shape_p4_absent.no_frames_requested_or_zeroed tier=thorough bounded="pool of 7 tables (4 path + 3 allocatable); tree-shaped sparse pre-state (target path, one neighbour word per path table, garbage in allocatable frames); page-table indices (255,511,0,1)"
-    //@ obligation C09 C09.set_flags_p3_entry_2mib.shape_p4_absent.no_dangling_table_pointer tier=thorough bounded="pool of 7 tables (4 path + 3 allocatable); tree-shaped sparse pre-state (target path, one neighbour word per path table, garbage in allocatable frames); page-table indices (255,511,0,1)"
+    //@ obligation C02 C02.set_flags_p3_entry_2mib.shape_p4_absent.documented_outcome tier=thorough bounded="pool of 7 tables (4 path + 3 allocatable); tree-shaped sparse pre-state (target path, one neighbour word per path table, garbage in allocatable frames); page-table indices (255,511,0,256)"
+    //@ obligation C02 C02.set_flags_p3_entry_2mib.shape_p4_absent.error_leaves_every_mapping tier=thorough bounded="pool of 7 tables (4 path + 3 allocatable); tree-shaped sparse pre-state (target path, one neighbour word per path table, garbage in allocatable frames); page-table indices (255,511,0,256)"
+    //@ obligation C09 C09.set_flags_p3_entry_2mib.shape_p4_absent.only_dictated_slots_change tier=thorough bounded="pool of 7 tables (4 path + 3 allocatable); tree-shaped sparse pre-state (target path, one neighbour word per path table, garbage in allocatable frames); page-table indices (255,511,0,256)"
+    //@ obligation C09 C09.set_flags_p3_entry_2mib.shape_p4_absent.no_frames_requested_or_zeroed tier=thorough bounded="pool of 7 tables (4 path + 3 allocatable); tree-shaped sparse pre-state (target path, one neighbour word per path table, garbage in allocatable frames); page-table indices (255,511,0,256)"
+    //@ obligation C09 C09.set_flags_p3_entry_2mib.shape_p4_absent.no_dangling_table_pointer tier=thorough bounded="pool of 7 tables (4 path + 3 allocatable); tree-shaped sparse pre-state (target path, one neighbour word per path table, garbage in allocatable frames); page-table indices (255,511,0,256)"
+    //@ obligation C09 C09.set_flags_p3_entry_2mib.shape_p4_absent.no_access_outside_page_tables tier=thorough bounded="pool of 7 tables (4 path + 3 allocatable); tree-shaped sparse pre-state (target path, one neighbour word per path table, garbage in allocatable frames); page-table indices (255,511,0,256)"
     #[kani::proof]
     #[kani::stub(PageTable::zero, zero_stub)]
     fn c02_set_flags_p3_entry_2mib_p4_absent_mid() {
@@ -669,11 +711,12 @@ mod verif_c01_step_flags {
         kani::cover!(true, "c02_set_flags_p3_entry_2mib_p4_absent_mid: reachable");
     }
 
-    //@ obligation C02 C02.set_flags_p3_entry_2mib.shape_p4_absent.documented_outcome tier=thorough bounded="pool of 7 tables (4 path + 3 allocatable); tree-shaped sparse pre-state (target path, one neighbour word per path table, garbage in allocatable frames); page-table indices (256,1,510,255)"
-    //@ obligation C02 C02.set_flags_p3_entry_2mib.shape_p4_absent.error_leaves_every_mapping tier=thorough bounded="pool of 7 tables (4 path + 3 allocatable); tree-shaped sparse pre-state (target path, one neighbour word per path table, garbage in allocatable frames); page-table indices (256,1,510,255)"
-    //@ obligation C09 C09.set_flags_p3_entry_2mib.shape_p4_absent.only_dictated_slots_change tier=thorough bounded="pool of 7 tables (4 path + 3 allocatable); tree-shaped sparse pre-state (target path, one neighbour word per path table, garbage in allocatable frames); page-table indices (256,1,510,255)"
-    //@ obligation C09 C09.set_flags_p3_entry_2mib.shape_p4_absent.no_frames_requested_or_zeroed tier=thorough bounded="pool of 7 tables (4 path + 3 allocatable); tree-shaped sparse pre-state (target path, one neighbour word per path table, garbage in allocatable frames); page-table indices (256,1,510,255)"
-    //@ obligation C09 C09.set_flags_p3_entry_2mib.shape_p4_absent.no_dangling_table_pointer tier=thorough bounded="pool of 7 tables (4 path + 3 allocatable); tree-shaped sparse pre-state (target path, one neighbour word per path table, garbage in allocatable frames); page-table indices (256,1,510,255)"
+    //@ obligation C02 C02.set_flags_p3_entry_2mib.shape_p4_absent.documented_outcome tier=thorough bounded="pool of 7 tables (4 path + 3 allocatable); tree-shaped sparse pre-state (target path, one neighbour word per path table, garbage in allocatable frames); page-table indices (256,0,510,511)"
+    //@ obligation C02 C02.set_flags_p3_entry_2mib.shape_p4_absent.error_leaves_every_mapping tier=thorough bounded="pool of 7 tables (4 path + 3 allocatable); tree-shaped sparse pre-state (target path, one neighbour word per path table, garbage in allocatable frames); page-table indices (256,0,510,511)"
+    //@ obligation C09 C09.set_flags_p3_entry_2mib.shape_p4_absent.only_dictated_slots_change tier=thorough bounded="pool of 7 tables (4 path + 3 allocatable); tree-shaped sparse pre-state (target path, one neighbour word per path table, garbage in allocatable frames); page-table indices (256,0,510,511)"
+    //@ obligation C09 C09.set_flags_p3_entry_2mib.shape_p4_absent.no_frames_requested_or_zeroed tier=thorough bounded="pool of 7 tables (4 path + 3 allocatable); tree-shaped sparse pre-state (target path, one neighbour word per path table, garbage in allocatable frames); page-table indices (256,0,510,511)"
+    //@ obligation C09 C09.set_flags_p3_entry_2mib.shape_p4_absent.no_dangling_table_pointer tier=thorough bounded="pool of 7 tables (4 path + 3 allocatable); tree-shaped sparse pre-state (target path, one neighbour word per path table, garbage in allocatable frames); page-table indices (256,0,510,511)"
+    //@ obligation C09 C09.set_flags_p3_entry_2mib.shape_p4_absent.no_access_outside_page_tables tier=thorough bounded="pool of 7 tables (4 path + 3 allocatable); tree-shaped sparse pre-state (target path, one neighbour word per path table, garbage in allocatable frames); page-table indices (256,0,510,511)"
     #[kani::proof]
     #[kani::stub(PageTable::zero, zero_stub)]
     fn c02_set_flags_p3_entry_2mib_p4_absent_up() {
@@ -681,11 +724,12 @@ mod verif_c01_step_flags {
         kani::cover!(true, "c02_set_flags_p3_entry_2mib_p4_absent_up: reachable");
     }
 
-    //@ obligation C02 C02.set_flags_p3_entry_2mib.shape_p3_absent.documented_outcome tier=thorough bounded="pool of 7 tables (4 path + 3 allocatable); tree-shaped sparse pre-state (target path, one neighbour word per path table, garbage in allocatable frames); page-table indices (0,0,0,0)"
-    //@ obligation C02 C02.set_flags_p3_entry_2mib.shape_p3_absent.error_leaves_every_mapping tier=thorough bounded="pool of 7 tables (4 path + 3 allocatable); tree-shaped sparse pre-state (target path, one neighbour word per path table, garbage in allocatable frames); page-table indices (0,0,0,0)"
-    //@ obligation C09 C09.set_flags_p3_entry_2mib.shape_p3_absent.only_dictated_slots_change tier=thorough bounded="pool of 7 tables (4 path + 3 allocatable); tree-shaped sparse pre-state (target path, one neighbour word per path table, garbage in allocatable frames); page-table indices (0,0,0,0)"
-    //@ obligation C09 C09.set_flags_p3_entry_2mib.shape_p3_absent.no_frames_requested_or_zeroed tier=thorough bounded="pool of 7 tables (4 path + 3 allocatable); tree-shaped sparse pre-state (target path, one neighbour word per path table, garbage in allocatable frames); page-table indices (0,0,0,0)"
-    //@ obligation C09 C09.set_flags_p3_entry_2mib.shape_p3_absent.no_dangling_table_pointer tier=thorough bounded="pool of 7 tables (4 path + 3 allocatable); tree-shaped sparse pre-state (target path, one neighbour word per path table, garbage in allocatable frames); page-table indices (0,0,0,0)"
+    //@ obligation C02 C02.set_flags_p3_entry_2mib.shape_p3_absent.documented_outcome tier=thorough bounded="pool of 7 tables (4 path + 3 allocatable); tree-shaped sparse pre-state (target path, one neighbour word per path table, garbage in allocatable frames); page-table indices (0,1,511,2)"
+    //@ obligation C02 C02.set_flags_p3_entry_2mib.shape_p3_absent.error_leaves_every_mapping tier=thorough bounded="pool of 7 tables (4 path + 3 allocatable); tree-shaped sparse pre-state (target path, one neighbour word per path table, garbage in allocatable frames); page-table indices (0,1,511,2)"
+    //@ obligation C09 C09.set_flags_p3_entry_2mib.shape_p3_absent.only_dictated_slots_change tier=thorough bounded="pool of 7 tables (4 path + 3 allocatable); tree-shaped sparse pre-state (target path, one neighbour word per path table, garbage in allocatable frames); page-table indices (0,1,511,2)"
+    //@ obligation C09 C09.set_flags_p3_entry_2mib.shape_p3_absent.no_frames_requested_or_zeroed tier=thorough bounded="pool of 7 tables (4 path + 3 allocatable); tree-shaped sparse pre-state (target path, one neighbour word per path table, garbage in allocatable frames); page-table indices (0,1,511,2)"
+    //@ obligation C09 C09.set_flags_p3_entry_2mib.shape_p3_absent.no_dangling_table_pointer tier=thorough bounded="pool of 7 tables (4 path + 3 allocatable); tree-shaped sparse pre-state (target path, one neighbour word per path table, garbage in allocatable frames); page-table indices (0,1,511,2)"
+    //@ obligation C09 C09.set_flags_p3_entry_2mib.shape_p3_absent.no_access_outside_page_tables tier=thorough bounded="pool of 7 tables (4 path + 3 allocatable); tree-shaped sparse pre-state (target path, one neighbour word per path table, garbage in allocatable frames); page-table indices (0,1,511,2)"
     #[kani::proof]
     #[kani::stub(PageTable::zero, zero_stub)]
     fn c02_set_flags_p3_entry_2mib_p3_absent_lo() {
@@ -693,11 +737,12 @@ mod verif_c01_step_flags {
         kani::cover!(true, "c02_set_flags_p3_entry_2mib_p3_absent_lo: reachable");
     }
 
-    //@ obligation C02 C02.set_flags_p3_entry_2mib.shape_p3_absent.documented_outcome tier=thorough bounded="pool of 7 tables (4 path + 3 allocatable); tree-shaped sparse pre-state (target path, one neighbour word per path table, garbage in allocatable frames); page-table indices (511,511,511,511)"
-    //@ obligation C02 C02.set_flags_p3_entry_2mib.shape_p3_absent.error_leaves_every_mapping tier=thorough bounded="pool of 7 tables (4 path + 3 allocatable); tree-shaped sparse pre-state (target path, one neighbour word per path table, garbage in allocatable frames); page-table indices (511,511,511,511)"
-    //@ obligation C09 C09.set_flags_p3_entry_2mib.shape_p3_absent.only_dictated_slots_change tier=thorough bounded="pool of 7 tables (4 path + 3 allocatable); tree-shaped sparse pre-state (target path, one neighbour word per path table, garbage in allocatable frames); page-table indices (511,511,511,511)"
-    //@ obligation C09 C09.set_flags_p3_entry_2mib.shape_p3_absent.no_frames_requested_or_zeroed tier=thorough bounded="pool of 7 tables (4 path + 3 allocatable); tree-shaped sparse pre-state (target path, one neighbour word per path table, garbage in allocatable frames); page-table indices (511,511,511,511)"
-    //@ obligation C09 C09.set_flags_p3_entry_2mib.shape_p3_absent.no_dangling_table_pointer tier=thorough bounded="pool of 7 tables (4 path + 3 allocatable); tree-shaped sparse pre-state (target path, one neighbour word per path table, garbage in allocatable frames); page-table indices (511,511,511,511)"
+    //@ obligation C02 C02.set_flags_p3_entry_2mib.shape_p3_absent.documented_outcome tier=thorough bounded="pool of 7 tables (4 path + 3 allocatable); tree-shaped sparse pre-state (target path, one neighbour word per path table, garbage in allocatable frames); page-table indices (511,510,1,0)"
+    //@ obligation C02 C02.set_flags_p3_entry_2mib.shape_p3_absent.error_leaves_every_mapping tier=thorough bounded="pool of 7 tables (4 path + 3 allocatable); tree-shaped sparse pre-state (target path, one neighbour word per path table, garbage in allocatable frames); page-table indices (511,510,1,0)"
+    //@ obligation C09 C09.set_flags_p3_entry_2mib.shape_p3_absent.only_dictated_slots_change tier=thorough bounded="pool of 7 tables (4 path + 3 allocatable); tree-shaped sparse pre-state (target path, one neighbour word per path table, garbage in allocatable frames); page-table indices (511,510,1,0)"
+    //@ obligation C09 C09.set_flags_p3_entry_2mib.shape_p3_absent.no_frames_requested_or_zeroed tier=thorough bounded="pool of 7 tables (4 path + 3 allocatable); tree-shaped sparse pre-state (target path, one neighbour word per path table, garbage in allocatable frames); page-table indices (511,510,1,0)"
+    //@ obligation C09 C09.set_flags_p3_entry_2mib.shape_p3_absent.no_dangling_table_pointer tier=thorough bounded="pool of 7 tables (4 path + 3 allocatable); tree-shaped sparse pre-state (target path, one neighbour word per path table, garbage in allocatable frames); page-table indices (511,510,1,0)"
+    //@ obligation C09 C09.set_flags_p3_entry_2mib.shape_p3_absent.no_access_outside_page_tables tier=thorough bounded="pool of 7 tables (4 path + 3 allocatable); tree-shaped sparse pre-state (target path, one neighbour word per path table, garbage in allocatable frames); page-table indices (511,510,1,0)"
     #[kani::proof]
     #[kani::stub(PageTable::zero, zero_stub)]
     fn c02_set_flags_p3_entry_2mib_p3_absent_hi() {
@@ -705,11 +750,12 @@ mod verif_c01_step_flags {
         kani::cover!(true, "c02_set_flags_p3_entry_2mib_p3_absent_hi: reachable");
     }
 
-    //@ obligation C02 C02.set_flags_p3_entry_2mib.shape_p3_absent.documented_outcome tier=thorough bounded="pool of 7 tables (4 path + 3 allocatable); tree-shaped sparse pre-state (target path, one neighbour word per path table, garbage in allocatable frames); page-table indices (255,511,0,1)"
-    //@ obligation C02 C02.set_flags_p3_entry_2mib.shape_p3_absent.error_leaves_every_mapping tier=thorough bounded="pool of 7 tables (4 path + 3 allocatable); tree-shaped sparse pre-state (target path, one neighbour word per path table, garbage in allocatable frames); page-table indices (255,511,0,1)"
-    //@ obligation C09 C09.set_flags_p3_entry_2mib.shape_p3_absent.only_dictated_slots_change tier=thorough bounded="pool of 7 tables (4 path + 3 allocatable); tree-shaped sparse pre-state (target path, one neighbour word per path table, garbage in allocatable frames); page-table indices (255,511,0,1)"
-    //@ obligation C09 C09.set_flags_p3_entry_2mib.shape_p3_absent.no_frames_requested_or_zeroed tier=thorough bounded="pool of 7 tables (4 path + 3 allocatable); tree-shaped sparse pre-state (target path, one neighbour word per path table, garbage in allocatable frames); page-table indices (255,511,0,1)"
-    //@ obligation C09 C09.set_flags_p3_entry_2mib.shape_p3_absent.no_dangling_table_pointer tier=thorough bounded="pool of 7 tables (4 path + 3 allocatable); tree-shaped sparse pre-state (target path, one neighbour word per path table, garbage in allocatable frames); page-table indices (255,511,0,1)"
+    //@ obligation C02 C02.set_flags_p3_entry_2mib.shape_p3_absent.documented_outcome tier=thorough bounded="pool of 7 tables (4 path + 3 allocatable); tree-shaped sparse pre-state (target path, one neighbour word per path table, garbage in allocatable frames); page-table indices (255,511,0,256)"
+    //@ obligation C02 C02.set_flags_p3_entry_2mib.shape_p3_absent.error_leaves_every_mapping tier=thorough bounded="pool of 7 tables (4 path + 3 allocatable); tree-shaped sparse pre-state (target path, one neighbour word per path table, garbage in allocatable frames); page-table indices (255,511,0,256)"
+    //@ obligation C09 C09.set_flags_p3_entry_2mib.shape_p3_absent.only_dictated_slots_change tier=thorough bounded="pool of 7 tables (4 path + 3 allocatable); tree-shaped sparse pre-state (target path, one neighbour word per path table, garbage in allocatable frames); page-table indices (255,511,0,256)"
+    //@ obligation C09 C09.set_flags_p3_entry_2mib.shape_p3_absent.no_frames_requested_or_zeroed tier=thorough bounded="pool of 7 tables (4 path + 3 allocatable); tree-shaped sparse pre-state (target path, one neighbour word per path table, garbage in allocatable frames); page-table indices (255,511,0,256)"
+    //@ obligation C09 C09.set_flags_p3_entry_2mib.shape_p3_absent.no_dangling_table_pointer tier=thorough bounded="pool of 7 tables (4 path + 3 allocatable); tree-shaped sparse pre-state (target path, one neighbour word per path table, garbage in allocatable frames); page-table indices (255,511,0,256)"
+    //@ obligation C09 C09.set_flags_p3_entry_2mib.shape_p3_absent.no_access_outside_page_tables tier=thorough bounded="pool of 7 tables (4 path + 3 allocatable); tree-shaped sparse pre-state (target path, one neighbour word per path table, garbage in allocatable frames); page-table indices (255,511,0,256)"
     #[kani::proof]
     #[kani::stub(PageTable::zero, zero_stub)]
     fn c02_set_flags_p3_entry_2mib_p3_absent_mid() {
@@ -717,11 +763,12 @@ mod verif_c01_step_flags {
         kani::cover!(true, "c02_set_flags_p3_entry_2mib_p3_absent_mid: reachable");
     }
 
-    //@ obligation C02 C02.set_flags_p3_entry_2mib.shape_p3_absent.documented_outcome tier=thorough bounded="pool of 7 tables (4 path + 3 allocatable); tree-shaped sparse pre-state (target path, one neighbour word per path table, garbage in allocatable frames); page-table indices (256,1,510,255)"
-    //@ obligation C02 C02.set_flags_p3_entry_2mib.shape_p3_absent.error_leaves_every_mapping tier=thorough bounded="pool of 7 tables (4 path + 3 allocatable); tree-shaped sparse pre-state (target path, one neighbour word per path table, garbage in allocatable frames); page-table indices (256,1,510,255)"
-    //@ obligation C09 C09.set_flags_p3_entry_2mib.shape_p3_absent.only_dictated_slots_change tier=thorough bounded="pool of 7 tables (4 path + 3 allocatable); tree-shaped sparse pre-state (target path, one neighbour word per path table, garbage in allocatable frames); page-table indices (256,1,510,255)"
-    //@ obligation C09 C09.set_flags_p3_entry_2mib.shape_p3_absent.no_frames_requested_or_zeroed tier=thorough bounded="pool of 7 tables (4 path + 3 allocatable); tree-shaped sparse pre-state (target path, one neighbour word per path table, garbage in allocatable frames); page-table indices (256,1,510,255)"
-    //@ obligation C09 C09.set_flags_p3_entry_2mib.shape_p3_absent.no_dangling_table_pointer tier=thorough bounded="pool of 7 tables (4 path + 3 allocatable); tree-shaped sparse pre-state (target path, one neighbour word per path table, garbage in allocatable frames); page-table indices (256,1,510,255)"
+    //@ obligation C02 C02.set_flags_p3_entry_2mib.shape_p3_absent.documented_outcome tier=thorough bounded="pool of 7 tables (4 path + 3 allocatable); tree-shaped sparse pre-state (target path, one neighbour word per path table, garbage in allocatable frames); page-table indices (256,0,510,511)"
+    //@ obligation C02 C02.set_flags_p3_entry_2mib.shape_p3_absent.error_leaves_every_mapping tier=thorough bounded="pool of 7 tables (4 path + 3 allocatable); tree-shaped sparse pre-state (target path, one neighbour word per path table, garbage in allocatable frames); page-table indices (256,0,510,511)"
+    //@ obligation C09 C09.set_flags_p3_entry_2mib.shape_p3_absent.only_dictated_slots_change tier=thorough bounded="pool of 7 tables (4 path + 3 allocatable); tree-shaped sparse pre-state (target path, one neighbour word per path table, garbage in allocatable frames); page-table indices (256,0,510,511)"
+    //@ obligation C09 C09.set_flags_p3_entry_2mib.shape_p3_absent.no_frames_requested_or_zeroed tier=thorough bounded="pool of 7 tables (4 path + 3 allocatable); tree-shaped sparse pre-state (target path, one neighbour word per path table, garbage in allocatable frames); page-table indices (256,0,510,511)"
+    //@ obligation C09 C09.set_flags_p3_entry_2mib.shape_p3_absent.no_dangling_table_pointer tier=thorough bounded="pool of 7 tables (4 path + 3 allocatable); tree-shaped sparse pre-state (target path, one neighbour word per path table, garbage in allocatable frames); page-table indices (256,0,510,511)"
+    //@ obligation C09 C09.set_flags_p3_entry_2mib.shape_p3_absent.no_access_outside_page_tables tier=thorough bounded="pool of 7 tables (4 path + 3 allocatable); tree-shaped sparse pre-state (target path, one neighbour word per path table, garbage in allocatable frames); page-table indices (256,0,510,511)"
     #[kani::proof]
     #[kani::stub(PageTable::zero, zero_stub)]
     fn c02_set_flags_p3_entry_2mib_p3_absent_up() {
@@ -729,11 +776,12 @@ mod verif_c01_step_flags {
         kani::cover!(true, "c02_set_flags_p3_entry_2mib_p3_absent_up: reachable");
     }
 
-    //@ obligation C02 C02.set_flags_p3_entry_2mib.shape_huge_leaf.reports_parent_entry_huge_page_and_unchanged tier=thorough bounded="pool of 7 tables (4 path + 3 allocatable); tree-shaped sparse pre-state (target path, one neighbour word per path table, garbage in allocatable frames); page-table indices (0,0,0,0)"
-    //@ obligation C02 C02.set_flags_p3_entry_2mib.shape_huge_leaf.error_leaves_every_mapping tier=thorough bounded="pool of 7 tables (4 path + 3 allocatable); tree-shaped sparse pre-state (target path, one neighbour word per path table, garbage in allocatable frames); page-table indices (0,0,0,0)"
-    //@ obligation C09 C09.set_flags_p3_entry_2mib.shape_huge_leaf.only_dictated_slots_change tier=thorough bounded="pool of 7 tables (4 path + 3 allocatable); tree-shaped sparse pre-state (target path, one neighbour word per path table, garbage in allocatable frames); page-table indices (0,0,0,0)"
-    //@ obligation C09 C09.set_flags_p3_entry_2mib.shape_huge_leaf.no_frames_requested_or_zeroed tier=thorough bounded="pool of 7 tables (4 path + 3 allocatable); tree-shaped sparse pre-state (target path, one neighbour word per path table, garbage in allocatable frames); page-table indices (0,0,0,0)"
-    //@ obligation C09 C09.set_flags_p3_entry_2mib.shape_huge_leaf.no_dangling_table_pointer tier=thorough bounded="pool of 7 tables (4 path + 3 allocatable); tree-shaped sparse pre-state (target path, one neighbour word per path table, garbage in allocatable frames); page-table indices (0,0,0,0)"
+    //@ obligation C02 C02.set_flags_p3_entry_2mib.shape_huge_leaf.reports_parent_entry_huge_page_and_unchanged tier=thorough bounded="pool of 7 tables (4 path + 3 allocatable); tree-shaped sparse pre-state (target path, one neighbour word per path table, garbage in allocatable frames); page-table indices (0,1,511,2)"
+    //@ obligation C02 C02.set_flags_p3_entry_2mib.shape_huge_leaf.error_leaves_every_mapping tier=thorough bounded="pool of 7 tables (4 path + 3 allocatable); tree-shaped sparse pre-state (target path, one neighbour word per path table, garbage in allocatable frames); page-table indices (0,1,511,2)"
+    //@ obligation C09 C09.set_flags_p3_entry_2mib.shape_huge_leaf.only_dictated_slots_change tier=thorough bounded="pool of 7 tables (4 path + 3 allocatable); tree-shaped sparse pre-state (target path, one neighbour word per path table, garbage in allocatable frames); page-table indices (0,1,511,2)"
+    //@ obligation C09 C09.set_flags_p3_entry_2mib.shape_huge_leaf.no_frames_requested_or_zeroed tier=thorough bounded="pool of 7 tables (4 path + 3 allocatable); tree-shaped sparse pre-state (target path, one neighbour word per path table, garbage in allocatable frames); page-table indices (0,1,511,2)"
+    //@ obligation C09 C09.set_flags_p3_entry_2mib.shape_huge_leaf.no_dangling_table_pointer tier=thorough bounded="pool of 7 tables (4 path + 3 allocatable); tree-shaped sparse pre-state (target path, one neighbour word per path table, garbage in allocatable frames); page-table indices (0,1,511,2)"
+    //@ obligation C09 C09.set_flags_p3_entry_2mib.shape_huge_leaf.no_access_outside_page_tables tier=thorough bounded="pool of 7 tables (4 path + 3 allocatable); tree-shaped sparse pre-state (target path, one neighbour word per path table, garbage in allocatable frames); page-table indices (0,1,511,2)"
     #[kani::proof]
     #[kani::stub(PageTable::zero, zero_stub)]
     fn c02_set_flags_p3_entry_2mib_huge_leaf_lo() {
@@ -741,11 +789,12 @@ mod verif_c01_step_flags {
         kani::cover!(true, "c02_set_flags_p3_entry_2mib_huge_leaf_lo: reachable");
     }
 
-    //@ obligation C02 C02.set_flags_p3_entry_2mib.shape_huge_leaf.reports_parent_entry_huge_page_and_unchanged tier=thorough bounded="pool of 7 tables (4 path + 3 allocatable); tree-shaped sparse pre-state (target path, one neighbour word per path table, garbage in allocatable frames); page-table indices (511,511,511,511)"
-    //@ obligation C02 C02.set_flags_p3_entry_2mib.shape_huge_leaf.error_leaves_every_mapping tier=thorough bounded="pool of 7 tables (4 path + 3 allocatable); tree-shaped sparse pre-state (target path, one neighbour word per path table, garbage in allocatable frames); page-table indices (511,511,511,511)"
-    //@ obligation C09 C09.set_flags_p3_entry_2mib.shape_huge_leaf.only_dictated_slots_change tier=thorough bounded="pool of 7 tables (4 path + 3 allocatable); tree-shaped sparse pre-state (target path, one neighbour word per path table, garbage in allocatable frames); page-table indices (511,511,511,511)"
-    //@ obligation C09 C09.set_flags_p3_entry_2mib.shape_huge_leaf.no_frames_requested_or_zeroed tier=thorough bounded="pool of 7 tables (4 path + 3 allocatable); tree-shaped sparse pre-state (target path, one neighbour word per path table, garbage in allocatable frames); page-table indices (511,511,511,511)"
-    //@ obligation C09 C09.set_flags_p3_entry_2mib.shape_huge_leaf.no_dangling_table_pointer tier=thorough bounded="pool of 7 tables (4 path + 3 allocatable); tree-shaped sparse pre-state (target path, one neighbour word per path table, garbage in allocatable frames); page-table indices (511,511,511,511)"
+    //@ obligation C02 C02.set_flags_p3_entry_2mib.shape_huge_leaf.reports_parent_entry_huge_page_and_unchanged tier=thorough bounded="pool of 7 tables (4 path + 3 allocatable); tree-shaped sparse pre-state (target path, one neighbour word per path table, garbage in allocatable frames); page-table indices (511,510,1,0)"
+    //@ obligation C02 C02.set_flags_p3_entry_2mib.shape_huge_leaf.error_leaves_every_mapping tier=thorough bounded="pool of 7 tables (4 path + 3 allocatable); tree-shaped sparse pre-state (target path, one neighbour word per path table, garbage in allocatable frames); page-table indices (511,510,1,0)"
+    //@ obligation C09 C09.set_flags_p3_entry_2mib.shape_huge_leaf.only_dictated_slots_change tier=thorough bounded="pool of 7 tables (4 path + 3 allocatable); tree-shaped sparse pre-state (target path, one neighbour word per path table, garbage in allocatable frames); page-table indices (511,510,1,0)"
+    //@ obligation C09 C09.set_flags_p3_entry_2mib.shape_huge_leaf.no_frames_requested_or_zeroed tier=thorough bounded="pool of 7 tables (4 path + 3 allocatable); tree-shaped sparse pre-state (target path, one neighbour word per path table, garbage in allocatable frames); page-table indices (511,510,1,0)"
+    //@ obligation C09 C09.set_flags_p3_entry_2mib.shape_huge_leaf.no_dangling_table_pointer tier=thorough bounded="pool of 7 tables (4 path + 3 allocatable); tree-shaped sparse pre-state (target path, one neighbour word per path table, garbage in allocatable frames); page-table indices (511,510,1,0)"
+    //@ obligation C09 C09.set_flags_p3_entry_2mib.shape_huge_leaf.no_access_outside_page_tables tier=thorough bounded="pool of 7 tables (4 path + 3 allocatable); tree-shaped sparse pre-state (target path, one neighbour word per path table, garbage in allocatable frames); page-table indices (511,510,1,0)"
     #[kani::proof]
     #[kani::stub(PageTable::zero, zero_stub)]
     fn c02_set_flags_p3_entry_2mib_huge_leaf_hi() {
@@ -753,11 +802,12 @@ mod verif_c01_step_flags {
         kani::cover!(true, "c02_set_flags_p3_entry_2mib_huge_leaf_hi: reachable");
     }
 
-    //@ obligation C02 C02.set_flags_p3_entry_2mib.shape_huge_leaf.reports_parent_entry_huge_page_and_unchanged bounded="pool of 7 tables (4 path + 3 allocatable); tree-shaped sparse pre-state (target path, one neighbour word per path table, garbage in allocatable frames); page-table indices (255,511,0,1)"
-    //@ obligation C02 C02.set_flags_p3_entry_2mib.shape_huge_leaf.error_leaves_every_mapping bounded="pool of 7 tables (4 path + 3 allocatable); tree-shaped sparse pre-state (target path, one neighbour word per path table, garbage in allocatable frames); page-table indices (255,511,0,1)"
-    //@ obligation C09 C09.set_flags_p3_entry_2mib.shape_huge_leaf.only_dictated_slots_change bounded="pool of 7 tables (4 path + 3 allocatable); tree-shaped sparse pre-state (target path, one neighbour word per path table, garbage in allocatable frames); page-table indices (255,511,0,1)"
-    //@ obligation C09 C09.set_flags_p3_entry_2mib.shape_huge_leaf.no_frames_requested_or_zeroed bounded="pool of 7 tables (4 path + 3 allocatable); tree-shaped sparse pre-state (target path, one neighbour word per path table, garbage in allocatable frames); page-table indices (255,511,0,1)"
-    //@ obligation C09 C09.set_flags_p3_entry_2mib.shape_huge_leaf.no_dangling_table_pointer bounded="pool of 7 tables (4 path + 3 allocatable); tree-shaped sparse pre-state (target path, one neighbour word per path table, garbage in allocatable frames); page-table indices (255,511,0,1)"
+    //@ obligation C02 C02.set_flags_p3_entry_2mib.shape_huge_leaf.reports_parent_entry_huge_page_and_unchanged bounded="pool of 7 tables (4 path + 3 allocatable); tree-shaped sparse pre-state (target path, one neighbour word per path table, garbage in allocatable frames); page-table indices (255,511,0,256)"
+    //@ obligation C02 C02.set_flags_p3_entry_2mib.shape_huge_leaf.error_leaves_every_mapping bounded="pool of 7 tables (4 path + 3 allocatable); tree-shaped sparse pre-state (target path, one neighbour word per path table, garbage in allocatable frames); page-table indices (255,511,0,256)"
+    //@ obligation C09 C09.set_flags_p3_entry_2mib.shape_huge_leaf.only_dictated_slots_change bounded="pool of 7 tables (4 path + 3 allocatable); tree-shaped sparse pre-state (target path, one neighbour word per path table, garbage in allocatable frames); page-table indices (255,511,0,256)"
+    //@ obligation C09 C09.set_flags_p3_entry_2mib.shape_huge_leaf.no_frames_requested_or_zeroed bounded="pool of 7 tables (4 path + 3 allocatable); tree-shaped sparse pre-state (target path, one neighbour word per path table, garbage in allocatable frames); page-table indices (255,511,0,256)"
+    //@ obligation C09 C09.set_flags_p3_entry_2mib.shape_huge_leaf.no_dangling_table_pointer bounded="pool of 7 tables (4 path + 3 allocatable); tree-shaped sparse pre-state (target path, one neighbour word per path table, garbage in allocatable frames); page-table indices (255,511,0,256)"
+    //@ obligation C09 C09.set_flags_p3_entry_2mib.shape_huge_leaf.no_access_outside_page_tables bounded="pool of 7 tables (4 path + 3 allocatable); tree-shaped sparse pre-state (target path, one neighbour word per path table, garbage in allocatable frames); page-table indices (255,511,0,256)"
     #[kani::proof]
     #[kani::stub(PageTable::zero, zero_stub)]
     fn c02_set_flags_p3_entry_2mib_huge_leaf_mid() {
@@ -765,11 +815,12 @@ mod verif_c01_step_flags {
         kani::cover!(true, "c02_set_flags_p3_entry_2mib_huge_leaf_mid: reachable");
     }
 
-    //@ obligation C02 C02.set_flags_p3_entry_2mib.shape_huge_leaf.reports_parent_entry_huge_page_and_unchanged tier=thorough bounded="pool of 7 tables (4 path + 3 allocatable); tree-shaped sparse pre-state (target path, one neighbour word per path table, garbage in allocatable frames); page-table indices (256,1,510,255)"
-    //@ obligation C02 C02.set_flags_p3_entry_2mib.shape_huge_leaf.error_leaves_every_mapping tier=thorough bounded="pool of 7 tables (4 path + 3 allocatable); tree-shaped sparse pre-state (target path, one neighbour word per path table, garbage in allocatable frames); page-table indices (256,1,510,255)"
-    //@ obligation C09 C09.set_flags_p3_entry_2mib.shape_huge_leaf.only_dictated_slots_change tier=thorough bounded="pool of 7 tables (4 path + 3 allocatable); tree-shaped sparse pre-state (target path, one neighbour word per path table, garbage in allocatable frames); page-table indices (256,1,510,255)"
-    //@ obligation C09 C09.set_flags_p3_entry_2mib.shape_huge_leaf.no_frames_requested_or_zeroed tier=thorough bounded="pool of 7 tables (4 path + 3 allocatable); tree-shaped sparse pre-state (target path, one neighbour word per path table, garbage in allocatable frames); page-table indices (256,1,510,255)"
-    //@ obligation C09 C09.set_flags_p3_entry_2mib.shape_huge_leaf.no_dangling_table_pointer tier=thorough bounded="pool of 7 tables (4 path + 3 allocatable); tree-shaped sparse pre-state (target path, one neighbour word per path table, garbage in allocatable frames); page-table indices (256,1,510,255)"
+    //@ obligation C02 C02.set_flags_p3_entry_2mib.shape_huge_leaf.reports_parent_entry_huge_page_and_unchanged tier=thorough bounded="pool of 7 tables (4 path + 3 allocatable); tree-shaped sparse pre-state (target path, one neighbour word per path table, garbage in allocatable frames); page-table indices (256,0,510,511)"
+    //@ obligation C02 C02.set_flags_p3_entry_2mib.shape_huge_leaf.error_leaves_every_mapping tier=thorough bounded="pool of 7 tables (4 path + 3 allocatable); tree-shaped sparse pre-state (target path, one neighbour word per path table, garbage in allocatable frames); page-table indices (256,0,510,511)"
+    //@ obligation C09 C09.set_flags_p3_entry_2mib.shape_huge_leaf.only_dictated_slots_change tier=thorough bounded="pool of 7 tables (4 path + 3 allocatable); tree-shaped sparse pre-state (target path, one neighbour word per path table, garbage in allocatable frames); page-table indices (256,0,510,511)"
+    //@ obligation C09 C09.set_flags_p3_entry_2mib.shape_huge_leaf.no_frames_requested_or_zeroed tier=thorough bounded="pool of 7 tables (4 path + 3 allocatable); tree-shaped sparse pre-state (target path, one neighbour word per path table, garbage in allocatable frames); page-table indices (256,0,510,511)"
+    //@ obligation C09 C09.set_flags_p3_entry_2mib.shape_huge_leaf.no_dangling_table_pointer tier=thorough bounded="pool of 7 tables (4 path + 3 allocatable); tree-shaped sparse pre-state (target path, one neighbour word per path table, garbage in allocatable frames); page-table indices (256,0,510,511)"
+    //@ obligation C09 C09.set_flags_p3_entry_2mib.shape_huge_leaf.no_access_outside_page_tables tier=thorough bounded="pool of 7 tables (4 path + 3 allocatable); tree-shaped sparse pre-state (target path, one neighbour word per path table, garbage in allocatable frames); page-table indices (256,0,510,511)"
     #[kani::proof]
     #[kani::stub(PageTable::zero, zero_stub)]
     fn c02_set_flags_p3_entry_2mib_huge_leaf_up() {
@@ -777,13 +828,14 @@ mod verif_c01_step_flags {
         kani::cover!(true, "c02_set_flags_p3_entry_2mib_huge_leaf_up: reachable");
     }
 
-    //@ obligation C02 C02.set_flags_p3_entry_2mib.shape_p3_table.documented_outcome tier=thorough bounded="pool of 7 tables (4 path + 3 allocatable); tree-shaped sparse pre-state (target path, one neighbour word per path table, garbage in allocatable frames); page-table indices (0,0,0,0)"
-    //@ obligation C01 C01.set_flags_p3_entry_2mib.shape_p3_table.no_leaf_changes tier=thorough bounded="pool of 7 tables (4 path + 3 allocatable); tree-shaped sparse pre-state (target path, one neighbour word per path table, garbage in allocatable frames); page-table indices (0,0,0,0)"
-    //@ obligation C01 C01.set_flags_p3_entry_2mib.shape_p3_table.entry_flags_replaced_address_kept tier=thorough bounded="pool of 7 tables (4 path + 3 allocatable); tree-shaped sparse pre-state (target path, one neighbour word per path table, garbage in allocatable frames); page-table indices (0,0,0,0)"
-    //@ obligation C11 C11.set_flags_p3_entry_2mib.shape_p3_table.flush_all_token tier=thorough bounded="pool of 7 tables (4 path + 3 allocatable); tree-shaped sparse pre-state (target path, one neighbour word per path table, garbage in allocatable frames); page-table indices (0,0,0,0)"
-    //@ obligation C09 C09.set_flags_p3_entry_2mib.shape_p3_table.only_dictated_slots_change tier=thorough bounded="pool of 7 tables (4 path + 3 allocatable); tree-shaped sparse pre-state (target path, one neighbour word per path table, garbage in allocatable frames); page-table indices (0,0,0,0)"
-    //@ obligation C09 C09.set_flags_p3_entry_2mib.shape_p3_table.no_frames_requested_or_zeroed tier=thorough bounded="pool of 7 tables (4 path + 3 allocatable); tree-shaped sparse pre-state (target path, one neighbour word per path table, garbage in allocatable frames); page-table indices (0,0,0,0)"
-    //@ obligation C09 C09.set_flags_p3_entry_2mib.shape_p3_table.no_dangling_table_pointer tier=thorough bounded="pool of 7 tables (4 path + 3 allocatable); tree-shaped sparse pre-state (target path, one neighbour word per path table, garbage in allocatable frames); page-table indices (0,0,0,0)"
+    //@ obligation C02 C02.set_flags_p3_entry_2mib.shape_p3_table.documented_outcome tier=thorough bounded="pool of 7 tables (4 path + 3 allocatable); tree-shaped sparse pre-state (target path, one neighbour word per path table, garbage in allocatable frames); page-table indices (0,1,511,2)"
+    //@ obligation C01 C01.set_flags_p3_entry_2mib.shape_p3_table.no_leaf_changes tier=thorough bounded="pool of 7 tables (4 path + 3 allocatable); tree-shaped sparse pre-state (target path, one neighbour word per path table, garbage in allocatable frames); page-table indices (0,1,511,2)"
+    //@ obligation C01 C01.set_flags_p3_entry_2mib.shape_p3_table.entry_flags_replaced_address_kept tier=thorough bounded="pool of 7 tables (4 path + 3 allocatable); tree-shaped sparse pre-state (target path, one neighbour word per path table, garbage in allocatable frames); page-table indices (0,1,511,2)"
+    //@ obligation C11 C11.set_flags_p3_entry_2mib.shape_p3_table.flush_all_token tier=thorough bounded="pool of 7 tables (4 path + 3 allocatable); tree-shaped sparse pre-state (target path, one neighbour word per path table, garbage in allocatable frames); page-table indices (0,1,511,2)"
+    //@ obligation C09 C09.set_flags_p3_entry_2mib.shape_p3_table.only_dictated_slots_change tier=thorough bounded="pool of 7 tables (4 path + 3 allocatable); tree-shaped sparse pre-state (target path, one neighbour word per path table, garbage in allocatable frames); page-table indices (0,1,511,2)"
+    //@ obligation C09 C09.set_flags_p3_entry_2mib.shape_p3_table.no_frames_requested_or_zeroed tier=thorough bounded="pool of 7 tables (4 path + 3 allocatable); tree-shaped sparse pre-state (target path, one neighbour word per path table, garbage in allocatable frames); page-table indices (0,1,511,2)"
+    //@ obligation C09 C09.set_flags_p3_entry_2mib.shape_p3_table.no_dangling_table_pointer tier=thorough bounded="pool of 7 tables (4 path + 3 allocatable); tree-shaped sparse pre-state (target path, one neighbour word per path table, garbage in allocatable frames); page-table indices (0,1,511,2)"
+    //@ obligation C09 C09.set_flags_p3_entry_2mib.shape_p3_table.no_access_outside_page_tables tier=thorough bounded="pool of 7 tables (4 path + 3 allocatable); tree-shaped sparse pre-state (target path, one neighbour word per path table, garbage in allocatable frames); page-table indices (0,1,511,2)"
     #[kani::proof]
     #[kani::stub(PageTable::zero, zero_stub)]
     fn c01_set_flags_p3_entry_2mib_p3_table_lo() {
@@ -791,13 +843,14 @@ mod verif_c01_step_flags {
         kani::cover!(true, "c01_set_flags_p3_entry_2mib_p3_table_lo: reachable");
     }
 
-    //@ obligation C02 C02.set_flags_p3_entry_2mib.shape_p3_table.documented_outcome tier=thorough bounded="pool of 7 tables (4 path + 3 allocatable); tree-shaped sparse pre-state (target path, one neighbour word per path table, garbage in allocatable frames); page-table indices (511,511,511,511)"
-    //@ obligation C01 C01.set_flags_p3_entry_2mib.shape_p3_table.no_leaf_changes tier=thorough bounded="pool of 7 tables (4 path + 3 allocatable); tree-shaped sparse pre-state (target path, one neighbour word per path table, garbage in allocatable frames); page-table indices (511,511,511,511)"
-    //@ obligation C01 C01.set_flags_p3_entry_2mib.shape_p3_table.entry_flags_replaced_address_kept tier=thorough bounded="pool of 7 tables (4 path + 3 allocatable); tree-shaped sparse pre-state (target path, one neighbour word per path table, garbage in allocatable frames); page-table indices (511,511,511,511)"
-    //@ obligation C11 C11.set_flags_p3_entry_2mib.shape_p3_table.flush_all_token tier=thorough bounded="pool of 7 tables (4 path + 3 allocatable); tree-shaped sparse pre-state (target path, one neighbour word per path table, garbage in allocatable frames); page-table indices (511,511,511,511)"
-    //@ obligation C09 C09.set_flags_p3_entry_2mib.shape_p3_table.only_dictated_slots_change tier=thorough bounded="pool of 7 tables (4 path + 3 allocatable); tree-shaped sparse pre-state (target path, one neighbour word per path table, garbage in allocatable frames); page-table indices (511,511,511,511)"
-    //@ obligation C09 C09.set_flags_p3_entry_2mib.shape_p3_table.no_frames_requested_or_zeroed tier=thorough bounded="pool of 7 tables (4 path + 3 allocatable); tree-shaped sparse pre-state (target path, one neighbour word per path table, garbage in allocatable frames); page-table indices (511,511,511,511)"
-    //@ obligation C09 C09.set_flags_p3_entry_2mib.shape_p3_table.no_dangling_table_pointer tier=thorough bounded="pool of 7 tables (4 path + 3 allocatable); tree-shaped sparse pre-state (target path, one neighbour word per path table, garbage in allocatable frames); page-table indices (511,511,511,511)"
+    //@ obligation C02 C02.set_flags_p3_entry_2mib.shape_p3_table.documented_outcome tier=thorough bounded="pool of 7 tables (4 path + 3 allocatable); tree-shaped sparse pre-state (target path, one neighbour word per path table, garbage in allocatable frames); page-table indices (511,510,1,0)"
+    //@ obligation C01 C01.set_flags_p3_entry_2mib.shape_p3_table.no_leaf_changes tier=thorough bounded="pool of 7 tables (4 path + 3 allocatable); tree-shaped sparse pre-state (target path, one neighbour word per path table, garbage in allocatable frames); page-table indices (511,510,1,0)"
+    //@ obligation C01 C01.set_flags_p3_entry_2mib.shape_p3_table.entry_flags_replaced_address_kept tier=thorough bounded="pool of 7 tables (4 path + 3 allocatable); tree-shaped sparse pre-state (target path, one neighbour word per path table, garbage in allocatable frames); page-table indices (511,510,1,0)"
+    //@ obligation C11 C11.set_flags_p3_entry_2mib.shape_p3_table.flush_all_token tier=thorough bounded="pool of 7 tables (4 path + 3 allocatable); tree-shaped sparse pre-state (target path, one neighbour word per path table, garbage in allocatable frames); page-table indices (511,510,1,0)"
+    //@ obligation C09 C09.set_flags_p3_entry_2mib.shape_p3_table.only_dictated_slots_change tier=thorough bounded="pool of 7 tables (4 path + 3 allocatable); tree-shaped sparse pre-state (target path, one neighbour word per path table, garbage in allocatable frames); page-table indices (511,510,1,0)"
+    //@ obligation C09 C09.set_flags_p3_entry_2mib.shape_p3_table.no_frames_requested_or_zeroed tier=thorough bounded="pool of 7 tables (4 path + 3 allocatable); tree-shaped sparse pre-state (target path, one neighbour word per path table, garbage in allocatable frames); page-table indices (511,510,1,0)"
+    //@ obligation C09 C09.set_flags_p3_entry_2mib.shape_p3_table.no_dangling_table_pointer tier=thorough bounded="pool of 7 tables (4 path + 3 allocatable); tree-shaped sparse pre-state (target path, one neighbour word per path table, garbage in allocatable frames); page-table indices (511,510,1,0)"
+    //@ obligation C09 C09.set_flags_p3_entry_2mib.shape_p3_table.no_access_outside_page_tables tier=thorough bounded="pool of 7 tables (4 path + 3 allocatable); tree-shaped sparse pre-state (target path, one neighbour word per path table, garbage in allocatable frames); page-table indices (511,510,1,0)"
     #[kani::proof]
     #[kani::stub(PageTable::zero, zero_stub)]
     fn c01_set_flags_p3_entry_2mib_p3_table_hi() {
@@ -805,13 +858,14 @@ mod verif_c01_step_flags {
         kani::cover!(true, "c01_set_flags_p3_entry_2mib_p3_table_hi: reachable");
     }
 
-    //@ obligation C02 C02.set_flags_p3_entry_2mib.shape_p3_table.documented_outcome tier=thorough bounded="pool of 7 tables (4 path + 3 allocatable); tree-shaped sparse pre-state (target path, one neighbour word per path table, garbage in allocatable frames); page-table indices (255,511,0,1)"
-    //@ obligation C01 C01.set_flags_p3_entry_2mib.shape_p3_table.no_leaf_changes tier=thorough bounded="pool of 7 tables (4 path + 3 allocatable); tree-shaped sparse pre-state (target path, one neighbour word per path table, garbage in allocatable frames); page-table indices (255,511,0,1)"
-    //@ obligation C01 C01.set_flags_p3_entry_2mib.shape_p3_table.entry_flags_replaced_address_kept tier=thorough bounded="pool of 7 tables (4 path + 3 allocatable); tree-shaped sparse pre-state (target path, one neighbour word per path table, garbage in allocatable frames); page-table indices (255,511,0,1)"
-    //@ obligation C11 C11.set_flags_p3_entry_2mib.shape_p3_table.flush_all_token tier=thorough bounded="pool of 7 tables (4 path + 3 allocatable); tree-shaped sparse pre-state (target path, one neighbour word per path table, garbage in allocatable frames); page-table indices (255,511,0,1)"
-    //@ obligation C09 C09.set_flags_p3_entry_2mib.shape_p3_table.only_dictated_slots_change tier=thorough bounded="pool of 7 tables (4 path + 3 allocatable); tree-shaped sparse pre-state (target path, one neighbour word per path table, garbage in allocatable frames); page-table indices (255,511,0,1)"
-    //@ obligation C09 C09.set_flags_p3_entry_2mib.shape_p3_table.no_frames_requested_or_zeroed tier=thorough bounded="pool of 7 tables (4 path + 3 allocatable); tree-shaped sparse pre-state (target path, one neighbour word per path table, garbage in allocatable frames); page-table indices (255,511,0,1)"
-    //@ obligation C09 C09.set_flags_p3_entry_2mib.shape_p3_table.no_dangling_table_pointer tier=thorough bounded="pool of 7 tables (4 path + 3 allocatable); tree-shaped sparse pre-state (target path, one neighbour word per path table, garbage in allocatable frames); page-table indices (255,511,0,1)"
+    //@ obligation C02 C02.set_flags_p3_entry_2mib.shape_p3_table.documented_outcome tier=thorough bounded="pool of 7 tables (4 path + 3 allocatable); tree-shaped sparse pre-state (target path, one neighbour word per path table, garbage in allocatable frames); page-table indices (255,511,0,256)"
+    //@ obligation C01 C01.set_flags_p3_entry_2mib.shape_p3_table.no_leaf_changes tier=thorough bounded="pool of 7 tables (4 path + 3 allocatable); tree-shaped sparse pre-state (target path, one neighbour word per path table, garbage in allocatable frames); page-table indices (255,511,0,256)"
+    //@ obligation C01 C01.set_flags_p3_entry_2mib.shape_p3_table.entry_flags_replaced_address_kept tier=thorough bounded="pool of 7 tables (4 path + 3 allocatable); tree-shaped sparse pre-state (target path, one neighbour word per path table, garbage in allocatable frames); page-table indices (255,511,0,256)"
+    //@ obligation C11 C11.set_flags_p3_entry_2mib.shape_p3_table.flush_all_token tier=thorough bounded="pool of 7 tables (4 path + 3 allocatable); tree-shaped sparse pre-state (target path, one neighbour word per path table, garbage in allocatable frames); page-table indices (255,511,0,256)"
+    //@ obligation C09 C09.set_flags_p3_entry_2mib.shape_p3_table.only_dictated_slots_change tier=thorough bounded="pool of 7 tables (4 path + 3 allocatable); tree-shaped sparse pre-state (target path, one neighbour word per path table, garbage in allocatable frames); page-table indices (255,511,0,256)"
+    //@ obligation C09 C09.set_flags_p3_entry_2mib.shape_p3_table.no_frames_requested_or_zeroed tier=thorough bounded="pool of 7 tables (4 path + 3 allocatable); tree-shaped sparse pre-state (target path, one neighbour word per path table, garbage in allocatable frames); page-table indices (255,511,0,256)"
+    //@ obligation C09 C09.set_flags_p3_entry_2mib.shape_p3_table.no_dangling_table_pointer tier=thorough bounded="pool of 7 tables (4 path + 3 allocatable); tree-shaped sparse pre-state (target path, one neighbour word per path table, garbage in allocatable frames); page-table indices (255,511,0,256)"
+    //@ obligation C09 C09.set_flags_p3_entry_2mib.shape_p3_table.no_access_outside_page_tables tier=thorough bounded="pool of 7 tables (4 path + 3 allocatable); tree-shaped sparse pre-state (target path, one neighbour word per path table, garbage in allocatable frames); page-table indices (255,511,0,256)"
     #[kani::proof]
     #[kani::stub(PageTable::zero, zero_stub)]
     fn c01_set_flags_p3_entry_2mib_p3_table_mid() {
@@ -819,13 +873,14 @@ mod verif_c01_step_flags {
         kani::cover!(true, "c01_set_flags_p3_entry_2mib_p3_table_mid: reachable");
     }
 
-    //@ obligation C02 C02.set_flags_p3_entry_2mib.shape_p3_table.documented_outcome bounded="pool of 7 tables (4 path + 3 allocatable); tree-shaped sparse pre-state (target path, one neighbour word per path table, garbage in allocatable frames); page-table indices (256,1,510,255)"
-    //@ obligation C01 C01.set_flags_p3_entry_2mib.shape_p3_table.no_leaf_changes bounded="pool of 7 tables (4 path + 3 allocatable); tree-shaped sparse pre-state (target path, one neighbour word per path table, garbage in allocatable frames); page-table indices (256,1,510,255)"
-    //@ obligation C01 C01.set_flags_p3_entry_2mib.shape_p3_table.entry_flags_replaced_address_kept bounded="pool of 7 tables (4 path + 3 allocatable); tree-shaped sparse pre-state (target path, one neighbour word per path table, garbage in allocatable frames); page-table indices (256,1,510,255)"
-    //@ obligation C11 C11.set_flags_p3_entry_2mib.shape_p3_table.flush_all_token bounded="pool of 7 tables (4 path + 3 allocatable); tree-shaped sparse pre-state (target path, one neighbour word per path table, garbage in allocatable frames); page-table indices (256,1,510,255)"
-    //@ obligation C09 C09.set_flags_p3_entry_2mib.shape_p3_table.only_dictated_slots_change bounded="pool of 7 tables (4 path + 3 allocatable); tree-shaped sparse pre-state (target path, one neighbour word per path table, garbage in allocatable frames); page-table indices (256,1,510,255)"
-    //@ obligation C09 C09.set_flags_p3_entry_2mib.shape_p3_table.no_frames_requested_or_zeroed bounded="pool of 7 tables (4 path + 3 allocatable); tree-shaped sparse pre-state (target path, one neighbour word per path table, garbage in allocatable frames); page-table indices (256,1,510,255)"
-    //@ obligation C09 C09.set_flags_p3_entry_2mib.shape_p3_table.no_dangling_table_pointer bounded="pool of 7 tables (4 path + 3 allocatable); tree-shaped sparse pre-state (target path, one neighbour word per path table, garbage in allocatable frames); page-table indices (256,1,510,255)"
+    //@ obligation C02 C02.set_flags_p3_entry_2mib.shape_p3_table.documented_outcome bounded="pool of 7 tables (4 path + 3 allocatable); tree-shaped sparse pre-state (target path, one neighbour word per path table, garbage in allocatable frames); page-table indices (256,0,510,511)"
+    //@ obligation C01 C01.set_flags_p3_entry_2mib.shape_p3_table.no_leaf_changes bounded="pool of 7 tables (4 path + 3 allocatable); tree-shaped sparse pre-state (target path, one neighbour word per path table, garbage in allocatable frames); page-table indices (256,0,510,511)"
+    //@ obligation C01 C01.set_flags_p3_entry_2mib.shape_p3_table.entry_flags_replaced_address_kept bounded="pool of 7 tables (4 path + 3 allocatable); tree-shaped sparse pre-state (target path, one neighbour word per path table, garbage in allocatable frames); page-table indices (256,0,510,511)"
+    //@ obligation C11 C11.set_flags_p3_entry_2mib.shape_p3_table.flush_all_token bounded="pool of 7 tables (4 path + 3 allocatable); tree-shaped sparse pre-state (target path, one neighbour word per path table, garbage in allocatable frames); page-table indices (256,0,510,511)"
+    //@ obligation C09 C09.set_flags_p3_entry_2mib.shape_p3_table.only_dictated_slots_change bounded="pool of 7 tables (4 path + 3 allocatable); tree-shaped sparse pre-state (target path, one neighbour word per path table, garbage in allocatable frames); page-table indices (256,0,510,511)"
+    //@ obligation C09 C09.set_flags_p3_entry_2mib.shape_p3_table.no_frames_requested_or_zeroed bounded="pool of 7 tables (4 path + 3 allocatable); tree-shaped sparse pre-state (target path, one neighbour word per path table, garbage in allocatable frames); page-table indices (256,0,510,511)"
+    //@ obligation C09 C09.set_flags_p3_entry_2mib.shape_p3_table.no_dangling_table_pointer bounded="pool of 7 tables (4 path + 3 allocatable); tree-shaped sparse pre-state (target path, one neighbour word per path table, garbage in allocatable frames); page-table indices (256,0,510,511)"
+    //@ obligation C09 C09.set_flags_p3_entry_2mib.shape_p3_table.no_access_outside_page_tables bounded="pool of 7 tables (4 path + 3 allocatable); tree-shaped sparse pre-state (target path, one neighbour word per path table, garbage in allocatable frames); page-table indices (256,0,510,511)"
     #[kani::proof]
     #[kani::stub(PageTable::zero, zero_stub)]
     fn c01_set_flags_p3_entry_2mib_p3_table_up() {
@@ -833,11 +888,12 @@ mod verif_c01_step_flags {
         kani::cover!(true, "c01_set_flags_p3_entry_2mib_p3_table_up: reachable");
     }
 
-    //@ obligation C02 C02.set_flags_p3_entry_1gib.shape_any.level_above_leaf_does_not_exist_is_error tier=thorough bounded="pool of 7 tables (4 path + 3 allocatable); tree-shaped sparse pre-state (target path, one neighbour word per path table, garbage in allocatable frames); page-table indices (0,0,0,0)"
-    //@ obligation C02 C02.set_flags_p3_entry_1gib.shape_any.error_leaves_every_mapping tier=thorough bounded="pool of 7 tables (4 path + 3 allocatable); tree-shaped sparse pre-state (target path, one neighbour word per path table, garbage in allocatable frames); page-table indices (0,0,0,0)"
-    //@ obligation C09 C09.set_flags_p3_entry_1gib.shape_any.only_dictated_slots_change tier=thorough bounded="pool of 7 tables (4 path + 3 allocatable); tree-shaped sparse pre-state (target path, one neighbour word per path table, garbage in allocatable frames); page-table indices (0,0,0,0)"
-    //@ obligation C09 C09.set_flags_p3_entry_1gib.shape_any.no_frames_requested_or_zeroed tier=thorough bounded="pool of 7 tables (4 path + 3 allocatable); tree-shaped sparse pre-state (target path, one neighbour word per path table, garbage in allocatable frames); page-table indices (0,0,0,0)"
-    //@ obligation C09 C09.set_flags_p3_entry_1gib.shape_any.no_dangling_table_pointer tier=thorough bounded="pool of 7 tables (4 path + 3 allocatable); tree-shaped sparse pre-state (target path, one neighbour word per path table, garbage in allocatable frames); page-table indices (0,0,0,0)"
+    //@ obligation C02 C02.set_flags_p3_entry_1gib.shape_any.level_above_leaf_does_not_exist_is_error tier=thorough bounded="pool of 7 tables (4 path + 3 allocatable); tree-shaped sparse pre-state (target path, one neighbour word per path table, garbage in allocatable frames); page-table indices (0,1,511,2)"
+    //@ obligation C02 C02.set_flags_p3_entry_1gib.shape_any.error_leaves_every_mapping tier=thorough bounded="pool of 7 tables (4 path + 3 allocatable); tree-shaped sparse pre-state (target path, one neighbour word per path table, garbage in allocatable frames); page-table indices (0,1,511,2)"
+    //@ obligation C09 C09.set_flags_p3_entry_1gib.shape_any.only_dictated_slots_change tier=thorough bounded="pool of 7 tables (4 path + 3 allocatable); tree-shaped sparse pre-state (target path, one neighbour word per path table, garbage in allocatable frames); page-table indices (0,1,511,2)"
+    //@ obligation C09 C09.set_flags_p3_entry_1gib.shape_any.no_frames_requested_or_zeroed tier=thorough bounded="pool of 7 tables (4 path + 3 allocatable); tree-shaped sparse pre-state (target path, one neighbour word per path table, garbage in allocatable frames); page-table indices (0,1,511,2)"
+    //@ obligation C09 C09.set_flags_p3_entry_1gib.shape_any.no_dangling_table_pointer tier=thorough bounded="pool of 7 tables (4 path + 3 allocatable); tree-shaped sparse pre-state (target path, one neighbour word per path table, garbage in allocatable frames); page-table indices (0,1,511,2)"
+    //@ obligation C09 C09.set_flags_p3_entry_1gib.shape_any.no_access_outside_page_tables tier=thorough bounded="pool of 7 tables (4 path + 3 allocatable); tree-shaped sparse pre-state (target path, one neighbour word per path table, garbage in allocatable frames); page-table indices (0,1,511,2)"
     #[kani::proof]
     #[kani::stub(PageTable::zero, zero_stub)]
     fn c02_set_flags_p3_entry_1gib_any_lo() {
@@ -845,11 +901,12 @@ mod verif_c01_step_flags {
         kani::cover!(true, "c02_set_flags_p3_entry_1gib_any_lo: reachable");
     }
 
-    //@ obligation C02 C02.set_flags_p3_entry_1gib.shape_any.level_above_leaf_does_not_exist_is_error tier=thorough bounded="pool of 7 tables (4 path + 3 allocatable); tree-shaped sparse pre-state (target path, one neighbour word per path table, garbage in allocatable frames); page-table indices (511,511,511,511)"
-    //@ obligation C02 C02.set_flags_p3_entry_1gib.shape_any.error_leaves_every_mapping tier=thorough bounded="pool of 7 tables (4 path + 3 allocatable); tree-shaped sparse pre-state (target path, one neighbour word per path table, garbage in allocatable frames); page-table indices (511,511,511,511)"
-    //@ obligation C09 C09.set_flags_p3_entry_1gib.shape_any.only_dictated_slots_change tier=thorough bounded="pool of 7 tables (4 path + 3 allocatable); tree-shaped sparse pre-state (target path, one neighbour word per path table, garbage in allocatable frames); page-table indices (511,511,511,511)"
-    //@ obligation C09 C09.set_flags_p3_entry_1gib.shape_any.no_frames_requested_or_zeroed tier=thorough bounded="pool of 7 tables (4 path + 3 allocatable); tree-shaped sparse pre-state (target path, one neighbour word per path table, garbage in allocatable frames); page-table indices (511,511,511,511)"
-    //@ obligation C09 C09.set_flags_p3_entry_1gib.shape_any.no_dangling_table_pointer tier=thorough bounded="pool of 7 tables (4 path + 3 allocatable); tree-shaped sparse pre-state (target path, one neighbour word per path table, garbage in allocatable frames); page-table indices (511,511,511,511)"
+    //@ obligation C02 C02.set_flags_p3_entry_1gib.shape_any.level_above_leaf_does_not_exist_is_error tier=thorough bounded="pool of 7 tables (4 path + 3 allocatable); tree-shaped sparse pre-state (target path, one neighbour word per path table, garbage in allocatable frames); page-table indices (511,510,1,0)"
+    //@ obligation C02 C02.set_flags_p3_entry_1gib.shape_any.error_leaves_every_mapping tier=thorough bounded="pool of 7 tables (4 path + 3 allocatable); tree-shaped sparse pre-state (target path, one neighbour word per path table, garbage in allocatable frames); page-table indices (511,510,1,0)"
+    //@ obligation C09 C09.set_flags_p3_entry_1gib.shape_any.only_dictated_slots_change tier=thorough bounded="pool of 7 tables (4 path + 3 allocatable); tree-shaped sparse pre-state (target path, one neighbour word per path table, garbage in allocatable frames); page-table indices (511,510,1,0)"
+    //@ obligation C09 C09.set_flags_p3_entry_1gib.shape_any.no_frames_requested_or_zeroed tier=thorough bounded="pool of 7 tables (4 path + 3 allocatable); tree-shaped sparse pre-state (target path, one neighbour word per path table, garbage in allocatable frames); page-table indices (511,510,1,0)"
+    //@ obligation C09 C09.set_flags_p3_entry_1gib.shape_any.no_dangling_table_pointer tier=thorough bounded="pool of 7 tables (4 path + 3 allocatable); tree-shaped sparse pre-state (target path, one neighbour word per path table, garbage in allocatable frames); page-table indices (511,510,1,0)"
+    //@ obligation C09 C09.set_flags_p3_entry_1gib.shape_any.no_access_outside_page_tables tier=thorough bounded="pool of 7 tables (4 path + 3 allocatable); tree-shaped sparse pre-state (target path, one neighbour word per path table, garbage in allocatable frames); page-table indices (511,510,1,0)"
     #[kani::proof]
     #[kani::stub(PageTable::zero, zero_stub)]
     fn c02_set_flags_p3_entry_1gib_any_hi() {
@@ -857,11 +914,12 @@ mod verif_c01_step_flags {
         kani::cover!(true, "c02_set_flags_p3_entry_1gib_any_hi: reachable");
     }
 
-    //@ obligation C02 C02.set_flags_p3_entry_1gib.shape_any.level_above_leaf_does_not_exist_is_error bounded="pool of 7 tables (4 path + 3 allocatable); tree-shaped sparse pre-state (target path, one neighbour word per path table, garbage in allocatable frames); page-table indices (255,511,0,1)"
-    //@ obligation C02 C02.set_flags_p3_entry_1gib.shape_any.error_leaves_every_mapping bounded="pool of 7 tables (4 path + 3 allocatable); tree-shaped sparse pre-state (target path, one neighbour word per path table, garbage in allocatable frames); page-table indices (255,511,0,1)"
-    //@ obligation C09 C09.set_flags_p3_entry_1gib.shape_any.only_dictated_slots_change bounded="pool of 7 tables (4 path + 3 allocatable); tree-shaped sparse pre-state (target path, one neighbour word per path table, garbage in allocatable frames); page-table indices (255,511,0,1)"
-    //@ obligation C09 C09.set_flags_p3_entry_1gib.shape_any.no_frames_requested_or_zeroed bounded="pool of 7 tables (4 path + 3 allocatable); tree-shaped sparse pre-state (target path, one neighbour word per path table, garbage in allocatable frames); page-table indices (255,511,0,1)"
-    //@ obligation C09 C09.set_flags_p3_entry_1gib.shape_any.no_dangling_table_pointer bounded="pool of 7 tables (4 path + 3 allocatable); tree-shaped sparse pre-state (target path, one neighbour word per path table, garbage in allocatable frames); page-table indices (255,511,0,1)"
+    //@ obligation C02 C02.set_flags_p3_entry_1gib.shape_any.level_above_leaf_does_not_exist_is_error bounded="pool of 7 tables (4 path + 3 allocatable); tree-shaped sparse pre-state (target path, one neighbour word per path table, garbage in allocatable frames); page-table indices (255,511,0,256)"
+    //@ obligation C02 C02.set_flags_p3_entry_1gib.shape_any.error_leaves_every_mapping bounded="pool of 7 tables (4 path + 3 allocatable); tree-shaped sparse pre-state (target path, one neighbour word per path table, garbage in allocatable frames); page-table indices (255,511,0,256)"
+    //@ obligation C09 C09.set_flags_p3_entry_1gib.shape_any.only_dictated_slots_change bounded="pool of 7 tables (4 path + 3 allocatable); tree-shaped sparse pre-state (target path, one neighbour word per path table, garbage in allocatable frames); page-table indices (255,511,0,256)"
+    //@ obligation C09 C09.set_flags_p3_entry_1gib.shape_any.no_frames_requested_or_zeroed bounded="pool of 7 tables (4 path + 3 allocatable); tree-shaped sparse pre-state (target path, one neighbour word per path table, garbage in allocatable frames); page-table indices (255,511,0,256)"
+    //@ obligation C09 C09.set_flags_p3_entry_1gib.shape_any.no_dangling_table_pointer bounded="pool of 7 tables (4 path + 3 allocatable); tree-shaped sparse pre-state (target path, one neighbour word per path table, garbage in allocatable frames); page-table indices (255,511,0,256)"
+    //@ obligation C09 C09.set_flags_p3_entry_1gib.shape_any.no_access_outside_page_tables bounded="pool of 7 tables (4 path + 3 allocatable); tree-shaped sparse pre-state (target path, one neighbour word per path table, garbage in allocatable frames); page-table indices (255,511,0,256)"
     #[kani::proof]
     #[kani::stub(PageTable::zero, zero_stub)]
     fn c02_set_flags_p3_entry_1gib_any_mid() {
@@ -869,11 +927,12 @@ mod verif_c01_step_flags {
         kani::cover!(true, "c02_set_flags_p3_entry_1gib_any_mid: reachable");
     }
 
-    //@ obligation C02 C02.set_flags_p3_entry_1gib.shape_any.level_above_leaf_does_not_exist_is_error tier=thorough bounded="pool of 7 tables (4 path + 3 allocatable); tree-shaped sparse pre-state (target path, one neighbour word per path table, garbage in allocatable frames); page-table indices (256,1,510,255)"
-    //@ obligation C02 C02.set_flags_p3_entry_1gib.shape_any.error_leaves_every_mapping tier=thorough bounded="pool of 7 tables (4 path + 3 allocatable); tree-shaped sparse pre-state (target path, one neighbour word per path table, garbage in allocatable frames); page-table indices (256,1,510,255)"
-    //@ obligation C09 C09.set_flags_p3_entry_1gib.shape_any.only_dictated_slots_change tier=thorough bounded="pool of 7 tables (4 path + 3 allocatable); tree-shaped sparse pre-state (target path, one neighbour word per path table, garbage in allocatable frames); page-table indices (256,1,510,255)"
-    //@ obligation C09 C09.set_flags_p3_entry_1gib.shape_any.no_frames_requested_or_zeroed tier=thorough bounded="pool of 7 tables (4 path + 3 allocatable); tree-shaped sparse pre-state (target path, one neighbour word per path table, garbage in allocatable frames); page-table indices (256,1,510,255)"
-    //@ obligation C09 C09.set_flags_p3_entry_1gib.shape_any.no_dangling_table_pointer tier=thorough bounded="pool of 7 tables (4 path + 3 allocatable); tree-shaped sparse pre-state (target path, one neighbour word per path table, garbage in allocatable frames); page-table indices (256,1,510,255)"
+    //@ obligation C02 C02.set_flags_p3_entry_1gib.shape_any.level_above_leaf_does_not_exist_is_error tier=thorough bounded="pool of 7 tables (4 path + 3 allocatable); tree-shaped sparse pre-state (target path, one neighbour word per path table, garbage in allocatable frames); page-table indices (256,0,510,511)"
+    //@ obligation C02 C02.set_flags_p3_entry_1gib.shape_any.error_leaves_every_mapping tier=thorough bounded="pool of 7 tables (4 path + 3 allocatable); tree-shaped sparse pre-state (target path, one neighbour word per path table, garbage in allocatable frames); page-table indices (256,0,510,511)"
+    //@ obligation C09 C09.set_flags_p3_entry_1gib.shape_any.only_dictated_slots_change tier=thorough bounded="pool of 7 tables (4 path + 3 allocatable); tree-shaped sparse pre-state (target path, one neighbour word per path table, garbage in allocatable frames); page-table indices (256,0,510,511)"
+    //@ obligation C09 C09.set_flags_p3_entry_1gib.shape_any.no_frames_requested_or_zeroed tier=thorough bounded="pool of 7 tables (4 path + 3 allocatable); tree-shaped sparse pre-state (target path, one neighbour word per path table, garbage in allocatable frames); page-table indices (256,0,510,511)"
+    //@ obligation C09 C09.set_flags_p3_entry_1gib.shape_any.no_dangling_table_pointer tier=thorough bounded="pool of 7 tables (4 path + 3 allocatable); tree-shaped sparse pre-state (target path, one neighbour word per path table, garbage in allocatable frames); page-table indices (256,0,510,511)"
+    //@ obligation C09 C09.set_flags_p3_entry_1gib.shape_any.no_access_outside_page_tables tier=thorough bounded="pool of 7 tables (4 path + 3 allocatable); tree-shaped sparse pre-state (target path, one neighbour word per path table, garbage in allocatable frames); page-table indices (256,0,510,511)"
     #[kani::proof]
     #[kani::stub(PageTable::zero, zero_stub)]
     fn c02_set_flags_p3_entry_1gib_any_up() {
@@ -881,11 +940,12 @@ mod verif_c01_step_flags {
         kani::cover!(true, "c02_set_flags_p3_entry_1gib_any_up: reachable");
     }
 
-    //@ obligation C02 C02.set_flags_p2_entry_4kib.shape_p4_absent.documented_outcome tier=thorough bounded="pool of 7 tables (4 path + 3 allocatable); tree-shaped sparse pre-state (target path, one neighbour word per path table, garbage in allocatable frames); page-table indices (0,0,0,0)"
-    //@ obligation C02 C02.set_flags_p2_entry_4kib.shape_p4_absent.error_leaves_every_mapping tier=thorough bounded="pool of 7 tables (4 path + 3 allocatable); tree-shaped sparse pre-state (target path, one neighbour word per path table, garbage in allocatable frames); page-table indices (0,0,0,0)"
-    //@ obligation C09 C09.set_flags_p2_entry_4kib.shape_p4_absent.only_dictated_slots_change tier=thorough bounded="pool of 7 tables (4 path + 3 allocatable); tree-shaped sparse pre-state (target path, one neighbour word per path table, garbage in allocatable frames); page-table indices (0,0,0,0)"
-    //@ obligation C09 C09.set_flags_p2_entry_4kib.shape_p4_absent.no_frames_requested_or_zeroed tier=thorough bounded="pool of 7 tables (4 path + 3 allocatable); tree-shaped sparse pre-state (target path, one neighbour word per path table, garbage in allocatable frames); page-table indices (0,0,0,0)"
-    //@ obligation C09 C09.set_flags_p2_entry_4kib.shape_p4_absent.no_dangling_table_pointer tier=thorough bounded="pool of 7 tables (4 path + 3 allocatable); tree-shaped sparse pre-state (target path, one neighbour word per path table, garbage in allocatable frames); page-table indices (0,0,0,0)"
+    //@ obligation C02 C02.set_flags_p2_entry_4kib.shape_p4_absent.documented_outcome tier=thorough bounded="pool of 7 tables (4 path + 3 allocatable); tree-shaped sparse pre-state (target path, one neighbour word per path table, garbage in allocatable frames); page-table indices (0,1,511,2)"
+    //@ obligation C02 C02.set_flags_p2_entry_4kib.shape_p4_absent.error_leaves_every_mapping tier=thorough bounded="pool of 7 tables (4 path + 3 allocatable); tree-shaped sparse pre-state (target path, one neighbour word per path table, garbage in allocatable frames); page-table indices (0,1,511,2)"
+    //@ obligation C09 C09.set_flags_p2_entry_4kib.shape_p4_absent.only_dictated_slots_change tier=thorough bounded="pool of 7 tables (4 path + 3 allocatable); tree-shaped sparse pre-state (target path, one neighbour word per path table, garbage in allocatable frames); page-table indices (0,1,511,2)"
+    //@ obligation C09 C09.set_flags_p2_entry_4kib.shape_p4_absent.no_frames_requested_or_zeroed tier=thorough bounded="pool of 7 tables (4 path + 3 allocatable); tree-shaped sparse pre-state (target path, one neighbour word per path table, garbage in allocatable frames); page-table indices (0,1,511,2)"
+    //@ obligation C09 C09.set_flags_p2_entry_4kib.shape_p4_absent.no_dangling_table_pointer tier=thorough bounded="pool of 7 tables (4 path + 3 allocatable); tree-shaped sparse pre-state (target path, one neighbour word per path table, garbage in allocatable frames); page-table indices (0,1,511,2)"
+    //@ obligation C09 C09.set_flags_p2_entry_4kib.shape_p4_absent.no_access_outside_page_tables tier=thorough bounded="pool of 7 tables (4 path + 3 allocatable); tree-shaped sparse pre-state (target path, one neighbour word per path table, garbage in allocatable frames); page-table indices (0,1,511,2)"
     #[kani::proof]
     #[kani::stub(PageTable::zero, zero_stub)]
     fn c02_set_flags_p2_entry_4kib_p4_absent_lo() {
@@ -893,11 +953,12 @@ mod verif_c01_step_flags {
         kani::cover!(true, "c02_set_flags_p2_entry_4kib_p4_absent_lo: reachable");
     }
 
-    //@ obligation C02 C02.set_flags_p2_entry_4kib.shape_p4_absent.documented_outcome tier=thorough bounded="pool of 7 tables (4 path + 3 allocatable); tree-shaped sparse pre-state (target path, one neighbour word per path table, garbage in allocatable frames); page-table indices (511,511,511,511)"
-    //@ obligation C02 C02.set_flags_p2_entry_4kib.shape_p4_absent.error_leaves_every_mapping tier=thorough bounded="pool of 7 tables (4 path + 3 allocatable); tree-shaped sparse pre-state (target path, one neighbour word per path table, garbage in allocatable frames); page-table indices (511,511,511,511)"
-    //@ obligation C09 C09.set_flags_p2_entry_4kib.shape_p4_absent.only_dictated_slots_change tier=thorough bounded="pool of 7 tables (4 path + 3 allocatable); tree-shaped sparse pre-state (target path, one neighbour word per path table, garbage in allocatable frames); page-table indices (511,511,511,511)"
-    //@ obligation C09 C09.set_flags_p2_entry_4kib.shape_p4_absent.no_frames_requested_or_zeroed tier=thorough bounded="pool of 7 tables (4 path + 3 allocatable); tree-shaped sparse pre-state (target path, one neighbour word per path table, garbage in allocatable frames); page-table indices (511,511,511,511)"
-    //@ obligation C09 C09.set_flags_p2_entry_4kib.shape_p4_absent.no_dangling_table_pointer tier=thorough bounded="pool of 7 tables (4 path + 3 allocatable); tree-shaped sparse pre-state (target path, one neighbour word per path table, garbage in allocatable frames); page-table indices (511,511,511,511)"
+    //@ obligation C02 C02.set_flags_p2_entry_4kib.shape_p4_absent.documented_outcome tier=thorough bounded="pool of 7 tables (4 path + 3 allocatable); tree-shaped sparse pre-state (target path, one neighbour word per path table, garbage in allocatable frames); page-table indices (511,510,1,0)"
+    //@ obligation C02 C02.set_flags_p2_entry_4kib.shape_p4_absent.error_leaves_every_mapping tier=thorough bounded="pool of 7 tables (4 path + 3 allocatable); tree-shaped sparse pre-state (target path, one neighbour word per path table, garbage in allocatable frames); page-table indices (511,510,1,0)"
+    //@ obligation C09 C09.set_flags_p2_entry_4kib.shape_p4_absent.only_dictated_slots_change tier=thorough bounded="pool of 7 tables (4 path + 3 allocatable); tree-shaped sparse pre-state (target path, one neighbour word per path table, garbage in allocatable frames); page-table indices (511,510,1,0)"
+    //@ obligation C09 C09.set_flags_p2_entry_4kib.shape_p4_absent.no_frames_requested_or_zeroed tier=thorough bounded="pool of 7 tables (4 path + 3 allocatable); tree-shaped sparse pre-state (target path, one neighbour word per path table, garbage in allocatable frames); page-table indices (511,510,1,0)"
+    //@ obligation C09 C09.set_flags_p2_entry_4kib.shape_p4_absent.no_dangling_table_pointer tier=thorough bounded="pool of 7 tables (4 path + 3 allocatable); tree-shaped sparse pre-state (target path, one neighbour word per path table, garbage in allocatable frames); page-table indices (511,510,1,0)"
+    //@ obligation C09 C09.set_flags_p2_entry_4kib.shape_p4_absent.no_access_outside_page_tables tier=thorough bounded="pool of 7 tables (4 path + 3 allocatable); tree-shaped sparse pre-state (target path, one neighbour word per path table, garbage in allocatable frames); page-table indices (511,510,1,0)"
     #[kani::proof]
     #[kani::stub(PageTable::zero, zero_stub)]
     fn c02_set_flags_p2_entry_4kib_p4_absent_hi() {
@@ -905,11 +966,12 @@ mod verif_c01_step_flags {
         kani::cover!(true, "c02_set_flags_p2_entry_4kib_p4_absent_hi: reachable");
     }
 
-    //@ obligation C02 C02.set_flags_p2_entry_4kib.shape_p4_absent.documented_outcome tier=thorough bounded="pool of 7 tables (4 path + 3 allocatable); tree-shaped sparse pre-state (target path, one neighbour word per path table, garbage in allocatable frames); page-table indices (255,511,0,1)"
-    //@ obligation C02 C02.set_flags_p2_entry_4kib.shape_p4_absent.error_leaves_every_mapping tier=thorough bounded="pool of 7 tables (4 path + 3 allocatable); tree-shaped sparse pre-state (target path, one neighbour word per path table, garbage in allocatable frames); page-table indices (255,511,0,1)"
-    //@ obligation C09 C09.set_flags_p2_entry_4kib.shape_p4_absent.only_dictated_slots_change tier=thorough bounded="pool of 7 tables (4 path + 3 allocatable); tree-shaped sparse pre-state (target path, one neighbour word per path table, garbage in allocatable frames); page-table indices (255,511,0,1)"
-    //@ obligation C09 C09.set_flags_p2_entry_4kib.shape_p4_absent.no_frames_requested_or_zeroed tier=thorough bounded="pool of 7 tables (4 path + 3 allocatable); tree-shaped sparse pre-state (target path, one neighbour word per path table, garbage in allocatable frames); page-table indices (255,511,0,1)"
-    //@ obligation C09 C09.set_flags_p2_entry_4kib.shape_p4_absent.no_dangling_table_pointer tier=thorough bounded="pool of 7 tables (4 path + 3 allocatable); tree-shaped sparse pre-state (target path, one neighbour word per path table, garbage in allocatable frames); page-table indices (255,511,0,1)"
+    //@ obligation C02 C02.set_flags_p2_entry_4kib.shape_p4_absent.documented_outcome tier=thorough bounded="pool of 7 tables (4 path + 3 allocatable); tree-shaped sparse pre-state (target path, one neighbour word per path table, garbage in allocatable frames); page-table indices (255,511,0,256)"
+    //@ obligation C02 C02.set_flags_p2_entry_4kib.shape_p4_absent.error_leaves_every_mapping tier=thorough bounded="pool of 7 tables (4 path + 3 allocatable); tree-shaped sparse pre-state (target path, one neighbour word per path table, garbage in allocatable frames); page-table indices (255,511,0,256)"
+    //@ obligation C09 C09.set_flags_p2_entry_4kib.shape_p4_absent.only_dictated_slots_change tier=thorough bounded="pool of 7 tables (4 path + 3 allocatable); tree-shaped sparse pre-state (target path, one neighbour word per path table, garbage in allocatable frames); page-table indices (255,511,0,256)"
+    //@ obligation C09 C09.set_flags_p2_entry_4kib.shape_p4_absent.no_frames_requested_or_zeroed tier=thorough bounded="pool of 7 tables (4 path + 3 allocatable); tree-shaped sparse pre-state (target path, one neighbour word per path table, garbage in allocatable frames); page-table indices (255,511,0,256)"
+    //@ obligation C09 C09.set_flags_p2_entry_4kib.shape_p4_absent.no_dangling_table_pointer tier=thorough bounded="pool of 7 tables (4 path + 3 allocatable); tree-shaped sparse pre-state (target path, one neighbour word per path table, garbage in allocatable frames); page-table indices (255,511,0,256)"
+    //@ obligation C09 C09.set_flags_p2_entry_4kib.shape_p4_absent.no_access_outside_page_tables tier=thorough bounded="pool of 7 tables (4 path + 3 allocatable); tree-shaped sparse pre-state (target path, one neighbour word per path table, garbage in allocatable frames); page-table indices (255,511,0,256)"
     #[kani::proof]
     #[kani::stub(PageTable::zero, zero_stub)]
     fn c02_set_flags_p2_entry_4kib_p4_absent_mid() {
@@ -917,11 +979,12 @@ mod verif_c01_step_flags {
         kani::cover!(true, "c02_set_flags_p2_entry_4kib_p4_absent_mid: reachable");
     }
 
-    //@ obligation C02 C02.set_flags_p2_entry_4kib.shape_p4_absent.documented_outcome tier=thorough bounded="pool of 7 tables (4 path + 3 allocatable); tree-shaped sparse pre-state (target path, one neighbour word per path table, garbage in allocatable frames); page-table indices (256,1,510,255)"
-    //@ obligation C02 C02.set_flags_p2_entry_4kib.shape_p4_absent.error_leaves_every_mapping tier=thorough bounded="pool of 7 tables (4 path + 3 allocatable); tree-shaped sparse pre-state (target path, one neighbour word per path table, garbage in allocatable frames); page-table indices (256,1,510,255)"
-    //@ obligation C09 C09.set_flags_p2_entry_4kib.shape_p4_absent.only_dictated_slots_change tier=thorough bounded="pool of 7 tables (4 path + 3 allocatable); tree-shaped sparse pre-state (target path, one neighbour word per path table, garbage in allocatable frames); page-table indices (256,1,510,255)"
-    //@ obligation C09 C09.set_flags_p2_entry_4kib.shape_p4_absent.no_frames_requested_or_zeroed tier=thorough bounded="pool of 7 tables (4 path + 3 allocatable); tree-shaped sparse pre-state (target path, one neighbour word per path table, garbage in allocatable frames); page-table indices (256,1,510,255)"
-    //@ obligation C09 C09.set_flags_p2_entry_4kib.shape_p4_absent.no_dangling_table_pointer tier=thorough bounded="pool of 7 tables (4 path + 3 allocatable); tree-shaped sparse pre-state (target path, one neighbour word per path table, garbage in allocatable frames); page-table indices (256,1,510,255)"
+    //@ obligation C02 C02.set_flags_p2_entry_4kib.shape_p4_absent.documented_outcome tier=thorough bounded="pool of 7 tables (4 path + 3 allocatable); tree-shaped sparse pre-state (target path, one neighbour word per path table, garbage in allocatable frames); page-table indices (256,0,510,511)"
+    //@ obligation C02 C02.set_flags_p2_entry_4kib.shape_p4_absent.error_leaves_every_mapping tier=thorough bounded="pool of 7 tables (4 path + 3 allocatable); tree-shaped sparse pre-state (target path, one neighbour word per path table, garbage in allocatable frames); page-table indices (256,0,510,511)"
+    //@ obligation C09 C09.set_flags_p2_entry_4kib.shape_p4_absent.only_dictated_slots_change tier=thorough bounded="pool of 7 tables (4 path + 3 allocatable); tree-shaped sparse pre-state (target path, one neighbour word per path table, garbage in allocatable frames); page-table indices (256,0,510,511)"
+    //@ obligation C09 C09.set_flags_p2_entry_4kib.shape_p4_absent.no_frames_requested_or_zeroed tier=thorough bounded="pool of 7 tables (4 path + 3 allocatable); tree-shaped sparse pre-state (target path, one neighbour word per path table, garbage in allocatable frames); page-table indices (256,0,510,511)"
+    //@ obligation C09 C09.set_flags_p2_entry_4kib.shape_p4_absent.no_dangling_table_pointer tier=thorough bounded="pool of 7 tables (4 path + 3 allocatable); tree-shaped sparse pre-state (target path, one neighbour word per path table, garbage in allocatable frames); page-table indices (256,0,510,511)"
+    //@ obligation C09 C09.set_flags_p2_entry_4kib.shape_p4_absent.no_access_outside_page_tables tier=thorough bounded="pool of 7 tables (4 path + 3 allocatable); tree-shaped sparse pre-state (target path, one neighbour word per path table, garbage in allocatable frames); page-table indices (256,0,510,511)"
     #[kani::proof]
     #[kani::stub(PageTable::zero, zero_stub)]
     fn c02_set_flags_p2_entry_4kib_p4_absent_up() {
@@ -929,11 +992,12 @@ mod verif_c01_step_flags {
         kani::cover!(true, "c02_set_flags_p2_entry_4kib_p4_absent_up: reachable");
     }
 
-    //@ obligation C02 C02.set_flags_p2_entry_4kib.shape_p3_absent.documented_outcome tier=thorough bounded="pool of 7 tables (4 path + 3 allocatable); tree-shaped sparse pre-state (target path, one neighbour word per path table, garbage in allocatable frames); page-table indices (0,0,0,0)"
-    //@ obligation C02 C02.set_flags_p2_entry_4kib.shape_p3_absent.error_leaves_every_mapping tier=thorough bounded="pool of 7 tables (4 path + 3 allocatable); tree-shaped sparse pre-state (target path, one neighbour word per path table, garbage in allocatable frames); page-table indices (0,0,0,0)"
-    //@ obligation C09 C09.set_flags_p2_entry_4kib.shape_p3_absent.only_dictated_slots_change tier=thorough bounded="pool of 7 tables (4 path + 3 allocatable); tree-shaped sparse pre-state (target path, one neighbour word per path table, garbage in allocatable frames); page-table indices (0,0,0,0)"
-    //@ obligation C09 C09.set_flags_p2_entry_4kib.shape_p3_absent.no_frames_requested_or_zeroed tier=thorough bounded="pool of 7 tables (4 path + 3 allocatable); tree-shaped sparse pre-state (target path, one neighbour word per path table, garbage in allocatable frames); page-table indices (0,0,0,0)"
-    //@ obligation C09 C09.set_flags_p2_entry_4kib.shape_p3_absent.no_dangling_table_pointer tier=thorough bounded="pool of 7 tables (4 path + 3 allocatable); tree-shaped sparse pre-state (target path, one neighbour word per path table, garbage in allocatable frames); page-table indices (0,0,0,0)"
+    //@ obligation C02 C02.set_flags_p2_entry_4kib.shape_p3_absent.documented_outcome tier=thorough bounded="pool of 7 tables (4 path + 3 allocatable); tree-shaped sparse pre-state (target path, one neighbour word per path table, garbage in allocatable frames); page-table indices (0,1,511,2)"
+    //@ obligation C02 C02.set_flags_p2_entry_4kib.shape_p3_absent.error_leaves_every_mapping tier=thorough bounded="pool of 7 tables (4 path + 3 allocatable); tree-shaped sparse pre-state (target path, one neighbour word per path table, garbage in allocatable frames); page-table indices (0,1,511,2)"
+    //@ obligation C09 C09.set_flags_p2_entry_4kib.shape_p3_absent.only_dictated_slots_change tier=thorough bounded="pool of 7 tables (4 path + 3 allocatable); tree-shaped sparse pre-state (target path, one neighbour word per path table, garbage in allocatable frames); page-table indices (0,1,511,2)"
+    //@ obligation C09 C09.set_flags_p2_entry_4kib.shape_p3_absent.no_frames_requested_or_zeroed tier=thorough bounded="pool of 7 tables (4 path + 3 allocatable); tree-shaped sparse pre-state (target path, one neighbour word per path table, garbage in allocatable frames); page-table indices (0,1,511,2)"
+    //@ obligation C09 C09.set_flags_p2_entry_4kib.shape_p3_absent.no_dangling_table_pointer tier=thorough bounded="pool of 7 tables (4 path + 3 allocatable); tree-shaped sparse pre-state (target path, one neighbour word per path table, garbage in allocatable frames); page-table indices (0,1,511,2)"
+    //@ obligation C09 C09.set_flags_p2_entry_4kib.shape_p3_absent.no_access_outside_page_tables tier=thorough bounded="pool of 7 tables (4 path + 3 allocatable); tree-shaped sparse pre-state (target path, one neighbour word per path table, garbage in allocatable frames); page-table indices (0,1,511,2)"
     #[kani::proof]
     #[kani::stub(PageTable::zero, zero_stub)]
     fn c02_set_flags_p2_entry_4kib_p3_absent_lo() {
@@ -941,11 +1005,12 @@ mod verif_c01_step_flags {
         kani::cover!(true, "c02_set_flags_p2_entry_4kib_p3_absent_lo: reachable");
     }
 
-    //@ obligation C02 C02.set_flags_p2_entry_4kib.shape_p3_absent.documented_outcome tier=thorough bounded="pool of 7 tables (4 path + 3 allocatable); tree-shaped sparse pre-state (target path, one neighbour word per path table, garbage in allocatable frames); page-table indices (511,511,511,511)"
-    //@ obligation C02 C02.set_flags_p2_entry_4kib.shape_p3_absent.error_leaves_every_mapping tier=thorough bounded="pool of 7 tables (4 path + 3 allocatable); tree-shaped sparse pre-state (target path, one neighbour word per path table, garbage in allocatable frames); page-table indices (511,511,511,511)"
-    //@ obligation C09 C09.set_flags_p2_entry_4kib.shape_p3_absent.only_dictated_slots_change tier=thorough bounded="pool of 7 tables (4 path + 3 allocatable); tree-shaped sparse pre-state (target path, one neighbour word per path table, garbage in allocatable frames); page-table indices (511,511,511,511)"
-    //@ obligation C09 C09.set_flags_p2_entry_4kib.shape_p3_absent.no_frames_requested_or_zeroed tier=thorough bounded="pool of 7 tables (4 path + 3 allocatable); tree-shaped sparse pre-state (target path, one neighbour word per path table, garbage in allocatable frames); page-table indices (511,511,511,511)"
-    //@ obligation C09 C09.set_flags_p2_entry_4kib.shape_p3_absent.no_dangling_table_pointer tier=thorough bounded="pool of 7 tables (4 path + 3 allocatable); tree-shaped sparse pre-state (target path, one neighbour word per path table, garbage in allocatable frames); page-table indices (511,511,511,511)"
+    //@ obligation C02 C02.set_flags_p2_entry_4kib.shape_p3_absent.documented_outcome tier=thorough bounded="pool of 7 tables (4 path + 3 allocatable); tree-shaped sparse pre-state (target path, one neighbour word per path table, garbage in allocatable frames); page-table indices (511,510,1,0)"
+    //@ obligation C02 C02.set_flags_p2_entry_4kib.shape_p3_absent.error_leaves_every_mapping tier=thorough bounded="pool of 7 tables (4 path + 3 allocatable); tree-shaped sparse pre-state (target path, one neighbour word per path table, garbage in allocatable frames); page-table indices (511,510,1,0)"
+    //@ obligation C09 C09.set_flags_p2_entry_4kib.shape_p3_absent.only_dictated_slots_change tier=thorough bounded="pool of 7 tables (4 path + 3 allocatable); tree-shaped sparse pre-state (target path, one neighbour word per path table, garbage in allocatable frames); page-table indices (511,510,1,0)"
+    //@ obligation C09 C09.set_flags_p2_entry_4kib.shape_p3_absent.no_frames_requested_or_zeroed tier=thorough bounded="pool of 7 tables (4 path + 3 allocatable); tree-shaped sparse pre-state (target path, one neighbour word per path table, garbage in allocatable frames); page-table indices (511,510,1,0)"
+    //@ obligation C09 C09.set_flags_p2_entry_4kib.shape_p3_absent.no_dangling_table_pointer tier=thorough bounded="pool of 7 tables (4 path + 3 allocatable); tree-shaped sparse pre-state (target path, one neighbour word per path table, garbage in allocatable frames); page-table indices (511,510,1,0)"
+    //@ obligation C09 C09.set_flags_p2_entry_4kib.shape_p3_absent.no_access_outside_page_tables tier=thorough bounded="pool of 7 tables (4 path + 3 allocatable); tree-shaped sparse pre-state (target path, one neighbour word per path table, garbage in allocatable frames); page-table indices (511,510,1,0)"
     #[kani::proof]
     #[kani::stub(PageTable::zero, zero_stub)]
     fn c02_set_flags_p2_entry_4kib_p3_absent_hi() {
@@ -953,11 +1018,12 @@ mod verif_c01_step_flags {
         kani::cover!(true, "c02_set_flags_p2_entry_4kib_p3_absent_hi: reachable");
     }
 
-    //@ obligation C02 C02.set_flags_p2_entry_4kib.shape_p3_absent.documented_outcome tier=thorough bounded="pool of 7 tables (4 path + 3 allocatable); tree-shaped sparse pre-state (target path, one neighbour word per path table, garbage in allocatable frames); page-table indices (255,511,0,1)"
-    //@ obligation C02 C02.set_flags_p2_entry_4kib.shape_p3_absent.error_leaves_every_mapping tier=thorough bounded="pool of 7 tables (4 path + 3 allocatable); tree-shaped sparse pre-state (target path, one neighbour word per path table, garbage in allocatable frames); page-table indices (255,511,0,1)"
-    //@ obligation C09 C09.set_flags_p2_entry_4kib.shape_p3_absent.only_dictated_slots_change tier=thorough bounded="pool of 7 tables (4 path + 3 allocatable); tree-shaped sparse pre-state (target path, one neighbour word per path table, garbage in allocatable frames); page-table indices (255,511,0,1)"
-    //@ obligation C09 C09.set_flags_p2_entry_4kib.shape_p3_absent.no_frames_requested_or_zeroed tier=thorough bounded="pool of 7 tables (4 path + 3 allocatable); tree-shaped sparse pre-state (target path, one neighbour word per path table, garbage in allocatable frames); page-table indices (255,511,0,1)"
-    //@ obligation C09 C09.set_flags_p2_entry_4kib.shape_p3_absent.no_dangling_table_pointer tier=thorough bounded="pool of 7 tables (4 path + 3 allocatable); tree-shaped sparse pre-state (target path, one neighbour word per path table, garbage in allocatable frames); page-table indices (255,511,0,1)"
+    //@ obligation C02 C02.set_flags_p2_entry_4kib.shape_p3_absent.documented_outcome tier=thorough bounded="pool of 7 tables (4 path + 3 allocatable); tree-shaped sparse pre-state (target path, one neighbour word per path table, garbage in allocatable frames); page-table indices (255,511,0,256)"
+    //@ obligation C02 C02.set_flags_p2_entry_4kib.shape_p3_absent.error_leaves_every_mapping tier=thorough bounded="pool of 7 tables (4 path + 3 allocatable); tree-shaped sparse pre-state (target path, one neighbour word per path table, garbage in allocatable frames); page-table indices (255,511,0,256)"
+    //@ obligation C09 C09.set_flags_p2_entry_4kib.shape_p3_absent.only_dictated_slots_change tier=thorough bounded="pool of 7 tables (4 path + 3 allocatable); tree-shaped sparse pre-state (target path, one neighbour word per path table, garbage in allocatable frames); page-table indices (255,511,0,256)"
+    //@ obligation C09 C09.set_flags_p2_entry_4kib.shape_p3_absent.no_frames_requested_or_zeroed tier=thorough bounded="pool of 7 tables (4 path + 3 allocatable); tree-shaped sparse pre-state (target path, one neighbour word per path table, garbage in allocatable frames); page-table indices (255,511,0,256)"
+    //@ obligation C09 C09.set_flags_p2_entry_4kib.shape_p3_absent.no_dangling_table_pointer tier=thorough bounded="pool of 7 tables (4 path + 3 allocatable); tree-shaped sparse pre-state (target path, one neighbour word per path table, garbage in allocatable frames); page-table indices (255,511,0,256)"
+    //@ obligation C09 C09.set_flags_p2_entry_4kib.shape_p3_absent.no_access_outside_page_tables tier=thorough bounded="pool of 7 tables (4 path + 3 allocatable); tree-shaped sparse pre-state (target path, one neighbour word per path table, garbage in allocatable frames); page-table indices (255,511,0,256)"
     #[kani::proof]
     #[kani::stub(PageTable::zero, zero_stub)]
     fn c02_set_flags_p2_entry_4kib_p3_absent_mid() {
@@ -965,11 +1031,12 @@ mod verif_c01_step_flags {
         kani::cover!(true, "c02_set_flags_p2_entry_4kib_p3_absent_mid: reachable");
     }
 
-    //@ obligation C02 C02.set_flags_p2_entry_4kib.shape_p3_absent.documented_outcome tier=thorough bounded="pool of 7 tables (4 path + 3 allocatable); tree-shaped sparse pre-state (target path, one neighbour word per path table, garbage in allocatable frames); page-table indices (256,1,510,255)"
-    //@ obligation C02 C02.set_flags_p2_entry_4kib.shape_p3_absent.error_leaves_every_mapping tier=thorough bounded="pool of 7 tables (4 path + 3 allocatable); tree-shaped sparse pre-state (target path, one neighbour word per path table, garbage in allocatable frames); page-table indices (256,1,510,255)"
-    //@ obligation C09 C09.set_flags_p2_entry_4kib.shape_p3_absent.only_dictated_slots_change tier=thorough bounded="pool of 7 tables (4 path + 3 allocatable); tree-shaped sparse pre-state (target path, one neighbour word per path table, garbage in allocatable frames); page-table indices (256,1,510,255)"
-    //@ obligation C09 C09.set_flags_p2_entry_4kib.shape_p3_absent.no_frames_requested_or_zeroed tier=thorough bounded="pool of 7 tables (4 path + 3 allocatable); tree-shaped sparse pre-state (target path, one neighbour word per path table, garbage in allocatable frames); page-table indices (256,1,510,255)"
-    //@ obligation C09 C09.set_flags_p2_entry_4kib.shape_p3_absent.no_dangling_table_pointer tier=thorough bounded="pool of 7 tables (4 path + 3 allocatable); tree-shaped sparse pre-state (target path, one neighbour word per path table, garbage in allocatable frames); page-table indices (256,1,510,255)"
+    //@ obligation C02 C02.set_flags_p2_entry_4kib.shape_p3_absent.documented_outcome tier=thorough bounded="pool of 7 tables (4 path + 3 allocatable); tree-shaped sparse pre-state (target path, one neighbour word per path table, garbage in allocatable frames); page-table indices (256,0,510,511)"
+    //@ obligation C02 C02.set_flags_p2_entry_4kib.shape_p3_absent.error_leaves_every_mapping tier=thorough bounded="pool of 7 tables (4 path + 3 allocatable); tree-shaped sparse pre-state (target path, one neighbour word per path table, garbage in allocatable frames); page-table indices (256,0,510,511)"
+    //@ obligation C09 C09.set_flags_p2_entry_4kib.shape_p3_absent.only_dictated_slots_change tier=thorough bounded="pool of 7 tables (4 path + 3 allocatable); tree-shaped sparse pre-state (target path, one neighbour word per path table, garbage in allocatable frames); page-table indices (256,0,510,511)"
+    //@ obligation C09 C09.set_flags_p2_entry_4kib.shape_p3_absent.no_frames_requested_or_zeroed tier=thorough bounded="pool of 7 tables (4 path + 3 allocatable); tree-shaped sparse pre-state (target path, one neighbour word per path table, garbage in allocatable frames); page-table indices (256,0,510,511)"
+    //@ obligation C09 C09.set_flags_p2_entry_4kib.shape_p3_absent.no_dangling_table_pointer tier=thorough bounded="pool of 7 tables (4 path + 3 allocatable); tree-shaped sparse pre-state (target path, one neighbour word per path table, garbage in allocatable frames); page-table indices (256,0,510,511)"
+    //@ obligation C09 C09.set_flags_p2_entry_4kib.shape_p3_absent.no_access_outside_page_tables tier=thorough bounded="pool of 7 tables (4 path + 3 allocatable); tree-shaped sparse pre-state (target path, one neighbour word per path table, garbage in allocatable frames); page-table indices (256,0,510,511)"
     #[kani::proof]
     #[kani::stub(PageTable::zero, zero_stub)]
     fn c02_set_flags_p2_entry_4kib_p3_absent_up() {
@@ -977,11 +1044,12 @@ mod verif_c01_step_flags {
         kani::cover!(true, "c02_set_flags_p2_entry_4kib_p3_absent_up: reachable");
     }
 
-    //@ obligation C02 C02.set_flags_p2_entry_4kib.shape_p3_huge.documented_outcome tier=thorough bounded="pool of 7 tables (4 path + 3 allocatable); tree-shaped sparse pre-state (target path, one neighbour word per path table, garbage in allocatable frames); page-table indices (0,0,0,0)"
-    //@ obligation C02 C02.set_flags_p2_entry_4kib.shape_p3_huge.error_leaves_every_mapping tier=thorough bounded="pool of 7 tables (4 path + 3 allocatable); tree-shaped sparse pre-state (target path, one neighbour word per path table, garbage in allocatable frames); page-table indices (0,0,0,0)"
-    //@ obligation C09 C09.set_flags_p2_entry_4kib.shape_p3_huge.only_dictated_slots_change tier=thorough bounded="pool of 7 tables (4 path + 3 allocatable); tree-shaped sparse pre-state (target path, one neighbour word per path table, garbage in allocatable frames); page-table indices (0,0,0,0)"
-    //@ obligation C09 C09.set_flags_p2_entry_4kib.shape_p3_huge.no_frames_requested_or_zeroed tier=thorough bounded="pool of 7 tables (4 path + 3 allocatable); tree-shaped sparse pre-state (target path, one neighbour word per path table, garbage in allocatable frames); page-table indices (0,0,0,0)"
-    //@ obligation C09 C09.set_flags_p2_entry_4kib.shape_p3_huge.no_dangling_table_pointer tier=thorough bounded="pool of 7 tables (4 path + 3 allocatable); tree-shaped sparse pre-state (target path, one neighbour word per path table, garbage in allocatable frames); page-table indices (0,0,0,0)"
+    //@ obligation C02 C02.set_flags_p2_entry_4kib.shape_p3_huge.documented_outcome tier=thorough bounded="pool of 7 tables (4 path + 3 allocatable); tree-shaped sparse pre-state (target path, one neighbour word per path table, garbage in allocatable frames); page-table indices (0,1,511,2)"
+    //@ obligation C02 C02.set_flags_p2_entry_4kib.shape_p3_huge.error_leaves_every_mapping tier=thorough bounded="pool of 7 tables (4 path + 3 allocatable); tree-shaped sparse pre-state (target path, one neighbour word per path table, garbage in allocatable frames); page-table indices (0,1,511,2)"
+    //@ obligation C09 C09.set_flags_p2_entry_4kib.shape_p3_huge.only_dictated_slots_change tier=thorough bounded="pool of 7 tables (4 path + 3 allocatable); tree-shaped sparse pre-state (target path, one neighbour word per path table, garbage in allocatable frames); page-table indices (0,1,511,2)"
+    //@ obligation C09 C09.set_flags_p2_entry_4kib.shape_p3_huge.no_frames_requested_or_zeroed tier=thorough bounded="pool of 7 tables (4 path + 3 allocatable); tree-shaped sparse pre-state (target path, one neighbour word per path table, garbage in allocatable frames); page-table indices (0,1,511,2)"
+    //@ obligation C09 C09.set_flags_p2_entry_4kib.shape_p3_huge.no_dangling_table_pointer tier=thorough bounded="pool of 7 tables (4 path + 3 allocatable); tree-shaped sparse pre-state (target path, one neighbour word per path table, garbage in allocatable frames); page-table indices (0,1,511,2)"
+    //@ obligation C09 C09.set_flags_p2_entry_4kib.shape_p3_huge.no_access_outside_page_tables tier=thorough bounded="pool of 7 tables (4 path + 3 allocatable); tree-shaped sparse pre-state (target path, one neighbour word per path table, garbage in allocatable frames); page-table indices (0,1,511,2)"
     #[kani::proof]
     #[kani::stub(PageTable::zero, zero_stub)]
     fn c02_set_flags_p2_entry_4kib_p3_huge_lo() {
@@ -989,11 +1057,12 @@ mod verif_c01_step_flags {
         kani::cover!(true, "c02_set_flags_p2_entry_4kib_p3_huge_lo: reachable");
     }
 
-    //@ obligation C02 C02.set_flags_p2_entry_4kib.shape_p3_huge.documented_outcome tier=thorough bounded="pool of 7 tables (4 path + 3 allocatable); tree-shaped sparse pre-state (target path, one neighbour word per path table, garbage in allocatable frames); page-table indices (511,511,511,511)"
-    //@ obligation C02 C02.set_flags_p2_entry_4kib.shape_p3_huge.error_leaves_every_mapping tier=thorough bounded="pool of 7 tables (4 path + 3 allocatable); tree-shaped sparse pre-state (target path, one neighbour word per path table, garbage in allocatable frames); page-table indices (511,511,511,511)"
-    //@ obligation C09 C09.set_flags_p2_entry_4kib.shape_p3_huge.only_dictated_slots_change tier=thorough bounded="pool of 7 tables (4 path + 3 allocatable); tree-shaped sparse pre-state (target path, one neighbour word per path table, garbage in allocatable frames); page-table indices (511,511,511,511)"
-    //@ obligation C09 C09.set_flags_p2_entry_4kib.shape_p3_huge.no_frames_requested_or_zeroed tier=thorough bounded="pool of 7 tables (4 path + 3 allocatable); tree-shaped sparse pre-state (target path, one neighbour word per path table, garbage in allocatable frames); page-table indices (511,511,511,511)"
-    //@ obligation C09 C09.set_flags_p2_entry_4kib.shape_p3_huge.no_dangling_table_pointer tier=thorough bounded="pool of 7 tables (4 path + 3 allocatable); tree-shaped sparse pre-state (target path, one neighbour word per path table, garbage in allocatable frames); page-table indices (511,511,511,511)"
+    //@ obligation C02 C02.set_flags_p2_entry_4kib.shape_p3_huge.documented_outcome tier=thorough bounded="pool of 7 tables (4 path + 3 allocatable); tree-shaped sparse pre-state (target path, one neighbour word per path table, garbage in allocatable frames); page-table indices (511,510,1,0)"
+    //@ obligation C02 C02.set_flags_p2_entry_4kib.shape_p3_huge.error_leaves_every_mapping tier=thorough bounded="pool of 7 tables (4 path + 3 allocatable); tree-shaped sparse pre-state (target path, one neighbour word per path table, garbage in allocatable frames); page-table indices (511,510,1,0)"
+    //@ obligation C09 C09.set_flags_p2_entry_4kib.shape_p3_huge.only_dictated_slots_change tier=thorough bounded="pool of 7 tables (4 path + 3 allocatable); tree-shaped sparse pre-state (target path, one neighbour word per path table, garbage in allocatable frames); page-table indices (511,510,1,0)"
+    //@ obligation C09 C09.set_flags_p2_entry_4kib.shape_p3_huge.no_frames_requested_or_zeroed tier=thorough bounded="pool of 7 tables (4 path + 3 allocatable); tree-shaped sparse pre-state (target path, one neighbour word per path table, garbage in allocatable frames); page-table indices (511,510,1,0)"
+    //@ obligation C09 C09.set_flags_p2_entry_4kib.shape_p3_huge.no_dangling_table_pointer tier=thorough bounded="pool of 7 tables (4 path + 3 allocatable); tree-shaped sparse pre-state (target path, one neighbour word per path table, garbage in allocatable frames); page-table indices (511,510,1,0)"
+    //@ obligation C09 C09.set_flags_p2_entry_4kib.shape_p3_huge.no_access_outside_page_tables tier=thorough bounded="pool of 7 tables (4 path + 3 allocatable); tree-shaped sparse pre-state (target path, one neighbour word per path table, garbage in allocatable frames); page-table indices (511,510,1,0)"
     #[kani::proof]
     #[kani::stub(PageTable::zero, zero_stub)]
     fn c02_set_flags_p2_entry_4kib_p3_huge_hi() {
@@ -1001,11 +1070,12 @@ mod verif_c01_step_flags {
         kani::cover!(true, "c02_set_flags_p2_entry_4kib_p3_huge_hi: reachable");
     }
 
-    //@ obligation C02 C02.set_flags_p2_entry_4kib.shape_p3_huge.documented_outcome bounded="pool of 7 tables (4 path + 3 allocatable); tree-shaped sparse pre-state (target path, one neighbour word per path table, garbage in allocatable frames); page-table indices (255,511,0,1)"
-    //@ obligation C02 C02.set_flags_p2_entry_4kib.shape_p3_huge.error_leaves_every_mapping bounded="pool of 7 tables (4 path + 3 allocatable); tree-shaped sparse pre-state (target path, one neighbour word per path table, garbage in allocatable frames); page-table indices (255,511,0,1)"
-    //@ obligation C09 C09.set_flags_p2_entry_4kib.shape_p3_huge.only_dictated_slots_change bounded="pool of 7 tables (4 path + 3 allocatable); tree-shaped sparse pre-state (target path, one neighbour word per path table, garbage in allocatable frames); page-table indices (255,511,0,1)"
-    //@ obligation C09 C09.set_flags_p2_entry_4kib.shape_p3_huge.no_frames_requested_or_zeroed bounded="pool of 7 tables (4 path + 3 allocatable); tree-shaped sparse pre-state (target path, one neighbour word per path table, garbage in allocatable frames); page-table indices (255,511,0,1)"
-    //@ obligation C09 C09.set_flags_p2_entry_4kib.shape_p3_huge.no_dangling_table_pointer bounded="pool of 7 tables (4 path + 3 allocatable); tree-shaped sparse pre-state (target path, one neighbour word per path table, garbage in allocatable frames); page-table indices (255,511,0,1)"
+    //@ obligation C02 C02.set_flags_p2_entry_4kib.shape_p3_huge.documented_outcome bounded="pool of 7 tables (4 path + 3 allocatable); tree-shaped sparse pre-state (target path, one neighbour word per path table, garbage in allocatable frames); page-table indices (255,511,0,256)"
+    //@ obligation C02 C02.set_flags_p2_entry_4kib.shape_p3_huge.error_leaves_every_mapping bounded="pool of 7 tables (4 path + 3 allocatable); tree-shaped sparse pre-state (target path, one neighbour word per path table, garbage in allocatable frames); page-table indices (255,511,0,256)"
+    //@ obligation C09 C09.set_flags_p2_entry_4kib.shape_p3_huge.only_dictated_slots_change bounded="pool of 7 tables (4 path + 3 allocatable); tree-shaped sparse pre-state (target path, one neighbour word per path table, garbage in allocatable frames); page-table indices (255,511,0,256)"
+    //@ obligation C09 C09.set_flags_p2_entry_4kib.shape_p3_huge.no_frames_requested_or_zeroed bounded="pool of 7 tables (4 path + 3 allocatable); tree-shaped sparse pre-state (target path, one neighbour word per path table, garbage in allocatable frames); page-table indices (255,511,0,256)"
+    //@ obligation C09 C09.set_flags_p2_entry_4kib.shape_p3_huge.no_dangling_table_pointer bounded="pool of 7 tables (4 path + 3 allocatable); tree-shaped sparse pre-state (target path, one neighbour word per path table, garbage in allocatable frames); page-table indices (255,511,0,256)"
+    //@ obligation C09 C09.set_flags_p2_entry_4kib.shape_p3_huge.no_access_outside_page_tables bounded="pool of 7 tables (4 path + 3 allocatable); tree-shaped sparse pre-state (target path, one neighbour word per path table, garbage in allocatable frames); page-table indices (255,511,0,256)"
     #[kani::proof]
     #[kani::stub(PageTable::zero, zero_stub)]
     fn c02_set_flags_p2_entry_4kib_p3_huge_mid() {
@@ -1013,11 +1083,12 @@ mod verif_c01_step_flags {
         kani::cover!(true, "c02_set_flags_p2_entry_4kib_p3_huge_mid: reachable");
     }
 
-    //@ obligation C02 C02.set_flags_p2_entry_4kib.shape_p3_huge.documented_outcome tier=thorough bounded="pool of 7 tables (4 path + 3 allocatable); tree-shaped sparse pre-state (target path, one neighbour word per path table, garbage in allocatable frames); page-table indices (256,1,510,255)"
-    //@ obligation C02 C02.set_flags_p2_entry_4kib.shape_p3_huge.error_leaves_every_mapping tier=thorough bounded="pool of 7 tables (4 path + 3 allocatable); tree-shaped sparse pre-state (target path, one neighbour word per path table, garbage in allocatable frames); page-table indices (256,1,510,255)"
-    //@ obligation C09 C09.set_flags_p2_entry_4kib.shape_p3_huge.only_dictated_slots_change tier=thorough bounded="pool of 7 tables (4 path + 3 allocatable); tree-shaped sparse pre-state (target path, one neighbour word per path table, garbage in allocatable frames); page-table indices (256,1,510,255)"
-    //@ obligation C09 C09.set_flags_p2_entry_4kib.shape_p3_huge.no_frames_requested_or_zeroed tier=thorough bounded="pool of 7 tables (4 path + 3 allocatable); tree-shaped sparse pre-state (target path, one neighbour word per path table, garbage in allocatable frames); page-table indices (256,1,510,255)"
-    //@ obligation C09 C09.set_flags_p2_entry_4kib.shape_p3_huge.no_dangling_table_pointer tier=thorough bounded="pool of 7 tables (4 path + 3 allocatable); tree-shaped sparse pre-state (target path, one neighbour word per path table, garbage in allocatable frames); page-table indices (256,1,510,255)"
+    //@ obligation C02 C02.set_flags_p2_entry_4kib.shape_p3_huge.documented_outcome tier=thorough bounded="pool of 7 tables (4 path + 3 allocatable); tree-shaped sparse pre-state (target path, one neighbour word per path table, garbage in allocatable frames); page-table indices (256,0,510,511)"
+    //@ obligation C02 C02.set_flags_p2_entry_4kib.shape_p3_huge.error_leaves_every_mapping tier=thorough bounded="pool of 7 tables (4 path + 3 allocatable); tree-shaped sparse pre-state (target path, one neighbour word per path table, garbage in allocatable frames); page-table indices (256,0,510,511)"
+    //@ obligation C09 C09.set_flags_p2_entry_4kib.shape_p3_huge.only_dictated_slots_change tier=thorough bounded="pool of 7 tables (4 path + 3 allocatable); tree-shaped sparse pre-state (target path, one neighbour word per path table, garbage in allocatable frames); page-table indices (256,0,510,511)"
+    //@ obligation C09 C09.set_flags_p2_entry_4kib.shape_p3_huge.no_frames_requested_or_zeroed tier=thorough bounded="pool of 7 tables (4 path + 3 allocatable); tree-shaped sparse pre-state (target path, one neighbour word per path table, garbage in allocatable frames); page-table indices (256,0,510,511)"
+    //@ obligation C09 C09.set_flags_p2_entry_4kib.shape_p3_huge.no_dangling_table_pointer tier=thorough bounded="pool of 7 tables (4 path + 3 allocatable); tree-shaped sparse pre-state (target path, one neighbour word per path table, garbage in allocatable frames); page-table indices (256,0,510,511)"
+    //@ obligation C09 C09.set_flags_p2_entry_4kib.shape_p3_huge.no_access_outside_page_tables tier=thorough bounded="pool of 7 tables (4 path + 3 allocatable); tree-shaped sparse pre-state (target path, one neighbour word per path table, garbage in allocatable frames); page-table indices (256,0,510,511)"
     #[kani::proof]
     #[kani::stub(PageTable::zero, zero_stub)]
     fn c02_set_flags_p2_entry_4kib_p3_huge_up() {
@@ -1025,11 +1096,12 @@ mod verif_c01_step_flags {
         kani::cover!(true, "c02_set_flags_p2_entry_4kib_p3_huge_up: reachable");
     }
 
-    //@ obligation C02 C02.set_flags_p2_entry_4kib.shape_p2_absent.documented_outcome tier=thorough bounded="pool of 7 tables (4 path + 3 allocatable); tree-shaped sparse pre-state (target path, one neighbour word per path table, garbage in allocatable frames); page-table indices (0,0,0,0)"
-    //@ obligation C02 C02.set_flags_p2_entry_4kib.shape_p2_absent.error_leaves_every_mapping tier=thorough bounded="pool of 7 tables (4 path + 3 allocatable); tree-shaped sparse pre-state (target path, one neighbour word per path table, garbage in allocatable frames); page-table indices (0,0,0,0)"
-    //@ obligation C09 C09.set_flags_p2_entry_4kib.shape_p2_absent.only_dictated_slots_change tier=thorough bounded="pool of 7 tables (4 path + 3 allocatable); tree-shaped sparse pre-state (target path, one neighbour word per path table, garbage in allocatable frames); page-table indices (0,0,0,0)"
-    //@ obligation C09 C09.set_flags_p2_entry_4kib.shape_p2_absent.no_frames_requested_or_zeroed tier=thorough bounded="pool of 7 tables (4 path + 3 allocatable); tree-shaped sparse pre-state (target path, one neighbour word per path table, garbage in allocatable frames); page-table indices (0,0,0,0)"
-    //@ obligation C09 C09.set_flags_p2_entry_4kib.shape_p2_absent.no_dangling_table_pointer tier=thorough bounded="pool of 7 tables (4 path + 3 allocatable); tree-shaped sparse pre-state (target path, one neighbour word per path table, garbage in allocatable frames); page-table indices (0,0,0,0)"
+    //@ obligation C02 C02.set_flags_p2_entry_4kib.shape_p2_absent.documented_outcome tier=thorough bounded="pool of 7 tables (4 path + 3 allocatable); tree-shaped sparse pre-state (target path, one neighbour word per path table, garbage in allocatable frames); page-table indices (0,1,511,2)"
+    //@ obligation C02 C02.set_flags_p2_entry_4kib.shape_p2_absent.error_leaves_every_mapping tier=thorough bounded="pool of 7 tables (4 path + 3 allocatable); tree-shaped sparse pre-state (target path, one neighbour word per path table, garbage in allocatable frames); page-table indices (0,1,511,2)"
+    //@ obligation C09 C09.set_flags_p2_entry_4kib.shape_p2_absent.only_dictated_slots_change tier=thorough bounded="pool of 7 tables (4 path + 3 allocatable); tree-shaped sparse pre-state (target path, one neighbour word per path table, garbage in allocatable frames); page-table indices (0,1,511,2)"
+    //@ obligation C09 C09.set_flags_p2_entry_4kib.shape_p2_absent.no_frames_requested_or_zeroed tier=thorough bounded="pool of 7 tables (4 path + 3 allocatable); tree-shaped sparse pre-state (target path, one neighbour word per path table, garbage in allocatable frames); page-table indices (0,1,511,2)"
+    //@ obligation C09 C09.set_flags_p2_entry_4kib.shape_p2_absent.no_dangling_table_pointer tier=thorough bounded="pool of 7 tables (4 path + 3 allocatable); tree-shaped sparse pre-state (target path, one neighbour word per path table, garbage in allocatable frames); page-table indices (0,1,511,2)"
+    //@ obligation C09 C09.set_flags_p2_entry_4kib.shape_p2_absent.no_access_outside_page_tables tier=thorough bounded="pool of 7 tables (4 path + 3 allocatable); tree-shaped sparse pre-state (target path, one neighbour word per path table, garbage in allocatable frames); page-table indices (0,1,511,2)"
     #[kani::proof]
     #[kani::stub(PageTable::zero, zero_stub)]
     fn c02_set_flags_p2_entry_4kib_p2_absent_lo() {
@@ -1037,11 +1109,12 @@ mod verif_c01_step_flags {
         kani::cover!(true, "c02_set_flags_p2_entry_4kib_p2_absent_lo: reachable");
     }
 
-    //@ obligation C02 C02.set_flags_p2_entry_4kib.shape_p2_absent.documented_outcome tier=thorough bounded="pool of 7 tables (4 path + 3 allocatable); tree-shaped sparse pre-state (target path, one neighbour word per path table, garbage in allocatable frames); page-table indices (511,511,511,511)"
-    //@ obligation C02 C02.set_flags_p2_entry_4kib.shape_p2_absent.error_leaves_every_mapping tier=thorough bounded="pool of 7 tables (4 path + 3 allocatable); tree-shaped sparse pre-state (target path, one neighbour word per path table, garbage in allocatable frames); page-table indices (511,511,511,511)"
-    //@ obligation C09 C09.set_flags_p2_entry_4kib.shape_p2_absent.only_dictated_slots_change tier=thorough bounded="pool of 7 tables (4 path + 3 allocatable); tree-shaped sparse pre-state (target path, one neighbour word per path table, garbage in allocatable frames); page-table indices (511,511,511,511)"
-    //@ obligation C09 C09.set_flags_p2_entry_4kib.shape_p2_absent.no_frames_requested_or_zeroed tier=thorough bounded="pool of 7 tables (4 path + 3 allocatable); tree-shaped sparse pre-state (target path, one neighbour word per path table, garbage in allocatable frames); page-table indices (511,511,511,511)"
-    //@ obligation C09 C09.set_flags_p2_entry_4kib.shape_p2_absent.no_dangling_table_pointer tier=thorough bounded="pool of 7 tables (4 path + 3 allocatable); tree-shaped sparse pre-state (target path, one neighbour word per path table, garbage in allocatable frames); page-table indices (511,511,511,511)"
+    //@ obligation C02 C02.set_flags_p2_entry_4kib.shape_p2_absent.documented_outcome tier=thorough bounded="pool of 7 tables (4 path + 3 allocatable); tree-shaped sparse pre-state (target path, one neighbour word per path table, garbage in allocatable frames); page-table indices (511,510,1,0)"
+    //@ obligation C02 C02.set_flags_p2_entry_4kib.shape_p2_absent.error_leaves_every_mapping tier=thorough bounded="pool of 7 tables (4 path + 3 allocatable); tree-shaped sparse pre-state (target path, one neighbour word per path table, garbage in allocatable frames); page-table indices (511,510,1,0)"
+    //@ obligation C09 C09.set_flags_p2_entry_4kib.shape_p2_absent.only_dictated_slots_change tier=thorough bounded="pool of 7 tables (4 path + 3 allocatable); tree-shaped sparse pre-state (target path, one neighbour word per path table, garbage in allocatable frames); page-table indices (511,510,1,0)"
+    //@ obligation C09 C09.set_flags_p2_entry_4kib.shape_p2_absent.no_frames_requested_or_zeroed tier=thorough bounded="pool of 7 tables (4 path + 3 allocatable); tree-shaped sparse pre-state (target path, one neighbour word per path table, garbage in allocatable frames); page-table indices (511,510,1,0)"
+    //@ obligation C09 C09.set_flags_p2_entry_4kib.shape_p2_absent.no_dangling_table_pointer tier=thorough bounded="pool of 7 tables (4 path + 3 allocatable); tree-shaped sparse pre-state (target path, one neighbour word per path table, garbage in allocatable frames); page-table indices (511,510,1,0)"
+    //@ obligation C09 C09.set_flags_p2_entry_4kib.shape_p2_absent.no_access_outside_page_tables tier=thorough bounded="pool of 7 tables (4 path + 3 allocatable); tree-shaped sparse pre-state (target path, one neighbour word per path table, garbage in allocatable frames); page-table indices (511,510,1,0)"
     #[kani::proof]
     #[kani::stub(PageTable::zero, zero_stub)]
     fn c02_set_flags_p2_entry_4kib_p2_absent_hi() {
@@ -1049,11 +1122,12 @@ mod verif_c01_step_flags {
         kani::cover!(true, "c02_set_flags_p2_entry_4kib_p2_absent_hi: reachable");
     }
 
-    //@ obligation C02 C02.set_flags_p2_entry_4kib.shape_p2_absent.documented_outcome tier=thorough bounded="pool of 7 tables (4 path + 3 allocatable); tree-shaped sparse pre-state (target path, one neighbour word per path table, garbage in allocatable frames); page-table indices (255,511,0,1)"
-    //@ obligation C02 C02.set_flags_p2_entry_4kib.shape_p2_absent.error_leaves_every_mapping tier=thorough bounded="pool of 7 tables (4 path + 3 allocatable); tree-shaped sparse pre-state (target path, one neighbour word per path table, garbage in allocatable frames); page-table indices (255,511,0,1)"
-    //@ obligation C09 C09.set_flags_p2_entry_4kib.shape_p2_absent.only_dictated_slots_change tier=thorough bounded="pool of 7 tables (4 path + 3 allocatable); tree-shaped sparse pre-state (target path, one neighbour word per path table, garbage in allocatable frames); page-table indices (255,511,0,1)"
-    //@ obligation C09 C09.set_flags_p2_entry_4kib.shape_p2_absent.no_frames_requested_or_zeroed tier=thorough bounded="pool of 7 tables (4 path + 3 allocatable); tree-shaped sparse pre-state (target path, one neighbour word per path table, garbage in allocatable frames); page-table indices (255,511,0,1)"
-    //@ obligation C09 C09.set_flags_p2_entry_4kib.shape_p2_absent.no_dangling_table_pointer tier=thorough bounded="pool of 7 tables (4 path + 3 allocatable); tree-shaped sparse pre-state (target path, one neighbour word per path table, garbage in allocatable frames); page-table indices (255,511,0,1)"
+    //@ obligation C02 C02.set_flags_p2_entry_4kib.shape_p2_absent.documented_outcome tier=thorough bounded="pool of 7 tables (4 path + 3 allocatable); tree-shaped sparse pre-state (target path, one neighbour word per path table, garbage in allocatable frames); page-table indices (255,511,0,256)"
+    //@ obligation C02 C02.set_flags_p2_entry_4kib.shape_p2_absent.error_leaves_every_mapping tier=thorough bounded="pool of 7 tables (4 path + 3 allocatable); tree-shaped sparse pre-state (target path, one neighbour word per path table, garbage in allocatable frames); page-table indices (255,511,0,256)"
+    //@ obligation C09 C09.set_flags_p2_entry_4kib.shape_p2_absent.only_dictated_slots_change tier=thorough bounded="pool of 7 tables (4 path + 3 allocatable); tree-shaped sparse pre-state (target path, one neighbour word per path table, garbage in allocatable frames); page-table indices (255,511,0,256)"
+    //@ obligation C09 C09.set_flags_p2_entry_4kib.shape_p2_absent.no_frames_requested_or_zeroed tier=thorough bounded="pool of 7 tables (4 path + 3 allocatable); tree-shaped sparse pre-state (target path, one neighbour word per path table, garbage in allocatable frames); page-table indices (255,511,0,256)"
+    //@ obligation C09 C09.set_flags_p2_entry_4kib.shape_p2_absent.no_dangling_table_pointer tier=thorough bounded="pool of 7 tables (4 path + 3 allocatable); tree-shaped sparse pre-state (target path, one neighbour word per path table, garbage in allocatable frames); page-table indices (255,511,0,256)"
+    //@ obligation C09 C09.set_flags_p2_entry_4kib.shape_p2_absent.no_access_outside_page_tables tier=thorough bounded="pool of 7 tables (4 path + 3 allocatable); tree-shaped sparse pre-state (target path, one neighbour word per path table, garbage in allocatable frames); page-table indices (255,511,0,256)"
     #[kani::proof]
     #[kani::stub(PageTable::zero, zero_stub)]
     fn c02_set_flags_p2_entry_4kib_p2_absent_mid() {
@@ -1061,11 +1135,12 @@ mod verif_c01_step_flags {
         kani::cover!(true, "c02_set_flags_p2_entry_4kib_p2_absent_mid: reachable");
     }
 
-    //@ obligation C02 C02.set_flags_p2_entry_4kib.shape_p2_absent.documented_outcome tier=thorough bounded="pool of 7 tables (4 path + 3 allocatable); tree-shaped sparse pre-state (target path, one neighbour word per path table, garbage in allocatable frames); page-table indices (256,1,510,255)"
-    //@ obligation C02 C02.set_flags_p2_entry_4kib.shape_p2_absent.error_leaves_every_mapping tier=thorough bounded="pool of 7 tables (4 path + 3 allocatable); tree-shaped sparse pre-state (target path, one neighbour word per path table, garbage in allocatable frames); page-table indices (256,1,510,255)"
-    //@ obligation C09 C09.set_flags_p2_entry_4kib.shape_p2_absent.only_dictated_slots_change tier=thorough bounded="pool of 7 tables (4 path + 3 allocatable); tree-shaped sparse pre-state (target path, one neighbour word per path table, garbage in allocatable frames); page-table indices (256,1,510,255)"
-    //@ obligation C09 C09.set_flags_p2_entry_4kib.shape_p2_absent.no_frames_requested_or_zeroed tier=thorough bounded="pool of 7 tables (4 path + 3 allocatable); tree-shaped sparse pre-state (target path, one neighbour word per path table, garbage in allocatable frames); page-table indices (256,1,510,255)"
-    //@ obligation C09 C09.set_flags_p2_entry_4kib.shape_p2_absent.no_dangling_table_pointer tier=thorough bounded="pool of 7 tables (4 path + 3 allocatable); tree-shaped sparse pre-state (target path, one neighbour word per path table, garbage in allocatable frames); page-table indices (256,1,510,255)"
+    //@ obligation C02 C02.set_flags_p2_entry_4kib.shape_p2_absent.documented_outcome tier=thorough bounded="pool of 7 tables (4 path + 3 allocatable); tree-shaped sparse pre-state (target path, one neighbour word per path table, garbage in allocatable frames); page-table indices (256,0,510,511)"
+    //@ obligation C02 C02.set_flags_p2_entry_4kib.shape_p2_absent.error_leaves_every_mapping tier=thorough bounded="pool of 7 tables (4 path + 3 allocatable); tree-shaped sparse pre-state (target path, one neighbour word per path table, garbage in allocatable frames); page-table indices (256,0,510,511)"
+    //@ obligation C09 C09.set_flags_p2_entry_4kib.shape_p2_absent.only_dictated_slots_change tier=thorough bounded="pool of 7 tables (4 path + 3 allocatable); tree-shaped sparse pre-state (target path, one neighbour word per path table, garbage in allocatable frames); page-table indices (256,0,510,511)"
+    //@ obligation C09 C09.set_flags_p2_entry_4kib.shape_p2_absent.no_frames_requested_or_zeroed tier=thorough bounded="pool of 7 tables (4 path + 3 allocatable); tree-shaped sparse pre-state (target path, one neighbour word per path table, garbage in allocatable frames); page-table indices (256,0,510,511)"
+    //@ obligation C09 C09.set_flags_p2_entry_4kib.shape_p2_absent.no_dangling_table_pointer tier=thorough bounded="pool of 7 tables (4 path + 3 allocatable); tree-shaped sparse pre-state (target path, one neighbour word per path table, garbage in allocatable frames); page-table indices (256,0,510,511)"
+    //@ obligation C09 C09.set_flags_p2_entry_4kib.shape_p2_absent.no_access_outside_page_tables tier=thorough bounded="pool of 7 tables (4 path + 3 allocatable); tree-shaped sparse pre-state (target path, one neighbour word per path table, garbage in allocatable frames); page-table indices (256,0,510,511)"
     #[kani::proof]
     #[kani::stub(PageTable::zero, zero_stub)]
     fn c02_set_flags_p2_entry_4kib_p2_absent_up() {
@@ -1073,11 +1148,12 @@ mod verif_c01_step_flags {
         kani::cover!(true, "c02_set_flags_p2_entry_4kib_p2_absent_up: reachable");
     }
 
-    //@ obligation C02 C02.set_flags_p2_entry_4kib.shape_huge_leaf.reports_parent_entry_huge_page_and_unchanged tier=thorough bounded="pool of 7 tables (4 path + 3 allocatable); tree-shaped sparse pre-state (target path, one neighbour word per path table, garbage in allocatable frames); page-table indices (0,0,0,0)"
-    //@ obligation C02 C02.set_flags_p2_entry_4kib.shape_huge_leaf.error_leaves_every_mapping tier=thorough bounded="pool of 7 tables (4 path + 3 allocatable); tree-shaped sparse pre-state (target path, one neighbour word per path table, garbage in allocatable frames); page-table indices (0,0,0,0)"
-    //@ obligation C09 C09.set_flags_p2_entry_4kib.shape_huge_leaf.only_dictated_slots_change tier=thorough bounded="pool of 7 tables (4 path + 3 allocatable); tree-shaped sparse pre-state (target path, one neighbour word per path table, garbage in allocatable frames); page-table indices (0,0,0,0)"
-    //@ obligation C09 C09.set_flags_p2_entry_4kib.shape_huge_leaf.no_frames_requested_or_zeroed tier=thorough bounded="pool of 7 tables (4 path + 3 allocatable); tree-shaped sparse pre-state (target path, one neighbour word per path table, garbage in allocatable frames); page-table indices (0,0,0,0)"
-    //@ obligation C09 C09.set_flags_p2_entry_4kib.shape_huge_leaf.no_dangling_table_pointer tier=thorough bounded="pool of 7 tables (4 path + 3 allocatable); tree-shaped sparse pre-state (target path, one neighbour word per path table, garbage in allocatable frames); page-table indices (0,0,0,0)"
+    //@ obligation C02 C02.set_flags_p2_entry_4kib.shape_huge_leaf.reports_parent_entry_huge_page_and_unchanged tier=thorough bounded="pool of 7 tables (4 path + 3 allocatable); tree-shaped sparse pre-state (target path, one neighbour word per path table, garbage in allocatable frames); page-table indices (0,1,511,2)"
+    //@ obligation C02 C02.set_flags_p2_entry_4kib.shape_huge_leaf.error_leaves_every_mapping tier=thorough bounded="pool of 7 tables (4 path + 3 allocatable); tree-shaped sparse pre-state (target path, one neighbour word per path table, garbage in allocatable frames); page-table indices (0,1,511,2)"
+    //@ obligation C09 C09.set_flags_p2_entry_4kib.shape_huge_leaf.only_dictated_slots_change tier=thorough bounded="pool of 7 tables (4 path + 3 allocatable); tree-shaped sparse pre-state (target path, one neighbour word per path table, garbage in allocatable frames); page-table indices (0,1,511,2)"
+    //@ obligation C09 C09.set_flags_p2_entry_4kib.shape_huge_leaf.no_frames_requested_or_zeroed tier=thorough bounded="pool of 7 tables (4 path + 3 allocatable); tree-shaped sparse pre-state (target path, one neighbour word per path table, garbage in allocatable frames); page-table indices (0,1,511,2)"
+    //@ obligation C09 C09.set_flags_p2_entry_4kib.shape_huge_leaf.no_dangling_table_pointer tier=thorough bounded="pool of 7 tables (4 path + 3 allocatable); tree-shaped sparse pre-state (target path, one neighbour word per path table, garbage in allocatable frames); page-table indices (0,1,511,2)"
+    //@ obligation C09 C09.set_flags_p2_entry_4kib.shape_huge_leaf.no_access_outside_page_tables tier=thorough bounded="pool of 7 tables (4 path + 3 allocatable); tree-shaped sparse pre-state (target path, one neighbour word per path table, garbage in allocatable frames); page-table indices (0,1,511,2)"
     #[kani::proof]
     #[kani::stub(PageTable::zero, zero_stub)]
     fn c02_set_flags_p2_entry_4kib_huge_leaf_lo() {
@@ -1085,11 +1161,12 @@ mod verif_c01_step_flags {
         kani::cover!(true, "c02_set_flags_p2_entry_4kib_huge_leaf_lo: reachable");
     }
 
-    //@ obligation C02 C02.set_flags_p2_entry_4kib.shape_huge_leaf.reports_parent_entry_huge_page_and_unchanged tier=thorough bounded="pool of 7 tables (4 path + 3 allocatable); tree-shaped sparse pre-state (target path, one neighbour word per path table, garbage in allocatable frames); page-table indices (511,511,511,511)"
-    //@ obligation C02 C02.set_flags_p2_entry_4kib.shape_huge_leaf.error_leaves_every_mapping tier=thorough bounded="pool of 7 tables (4 path + 3 allocatable); tree-shaped sparse pre-state (target path, one neighbour word per path table, garbage in allocatable frames); page-table indices (511,511,511,511)"
-    //@ obligation C09 C09.set_flags_p2_entry_4kib.shape_huge_leaf.only_dictated_slots_change tier=thorough bounded="pool of 7 tables (4 path + 3 allocatable); tree-shaped sparse pre-state (target path, one neighbour word per path table, garbage in allocatable frames); page-table indices (511,511,511,511)"
-    //@ obligation C09 C09.set_flags_p2_entry_4kib.shape_huge_leaf.no_frames_requested_or_zeroed tier=thorough bounded="pool of 7 tables (4 path + 3 allocatable); tree-shaped sparse pre-state (target path, one neighbour word per path table, garbage in allocatable frames); page-table indices (511,511,511,511)"
-    //@ obligation C09 C09.set_flags_p2_entry_4kib.shape_huge_leaf.no_dangling_table_pointer tier=thorough bounded="pool of 7 tables (4 path + 3 allocatable); tree-shaped sparse pre-state (target path, one neighbour word per path table, garbage in allocatable frames); page-table indices (511,511,511,511)"
+    //@ obligation C02 C02.set_flags_p2_entry_4kib.shape_huge_leaf.reports_parent_entry_huge_page_and_unchanged tier=thorough bounded="pool of 7 tables (4 path + 3 allocatable); tree-shaped sparse pre-state (target path, one neighbour word per path table, garbage in allocatable frames); page-table indices (511,510,1,0)"
+    //@ obligation C02 C02.set_flags_p2_entry_4kib.shape_huge_leaf.error_leaves_every_mapping tier=thorough bounded="pool of 7 tables (4 path + 3 allocatable); tree-shaped sparse pre-state (target path, one neighbour word per path table, garbage in allocatable frames); page-table indices (511,510,1,0)"
+    //@ obligation C09 C09.set_flags_p2_entry_4kib.shape_huge_leaf.only_dictated_slots_change tier=thorough bounded="pool of 7 tables (4 path + 3 allocatable); tree-shaped sparse pre-state (target path, one neighbour word per path table, garbage in allocatable frames); page-table indices (511,510,1,0)"
+    //@ obligation C09 C09.set_flags_p2_entry_4kib.shape_huge_leaf.no_frames_requested_or_zeroed tier=thorough bounded="pool of 7 tables (4 path + 3 allocatable); tree-shaped sparse pre-state (target path, one neighbour word per path table, garbage in allocatable frames); page-table indices (511,510,1,0)"
+    //@ obligation C09 C09.set_flags_p2_entry_4kib.shape_huge_leaf.no_dangling_table_pointer tier=thorough bounded="pool of 7 tables (4 path + 3 allocatable); tree-shaped sparse pre-state (target path, one neighbour word per path table, garbage in allocatable frames); page-table indices (511,510,1,0)"
+    //@ obligation C09 C09.set_flags_p2_entry_4kib.shape_huge_leaf.no_access_outside_page_tables tier=thorough bounded="pool of 7 tables (4 path + 3 allocatable); tree-shaped sparse pre-state (target path, one neighbour word per path table, garbage in allocatable frames); page-table indices (511,510,1,0)"
     #[kani::proof]
     #[kani::stub(PageTable::zero, zero_stub)]
     fn c02_set_flags_p2_entry_4kib_huge_leaf_hi() {
@@ -1097,11 +1174,12 @@ mod verif_c01_step_flags {
         kani::cover!(true, "c02_set_flags_p2_entry_4kib_huge_leaf_hi: reachable");
     }
 
-    //@ obligation C02 C02.set_flags_p2_entry_4kib.shape_huge_leaf.reports_parent_entry_huge_page_and_unchanged tier=thorough bounded="pool of 7 tables (4 path + 3 allocatable); tree-shaped sparse pre-state (target path, one neighbour word per path table, garbage in allocatable frames); page-table indices (255,511,0,1)"
-    //@ obligation C02 C02.set_flags_p2_entry_4kib.shape_huge_leaf.error_leaves_every_mapping tier=thorough bounded="pool of 7 tables (4 path + 3 allocatable); tree-shaped sparse pre-state (target path, one neighbour word per path table, garbage in allocatable frames); page-table indices (255,511,0,1)"
-    //@ obligation C09 C09.set_flags_p2_entry_4kib.shape_huge_leaf.only_dictated_slots_change tier=thorough bounded="pool of 7 tables (4 path + 3 allocatable); tree-shaped sparse pre-state (target path, one neighbour word per path table, garbage in allocatable frames); page-table indices (255,511,0,1)"
-    //@ obligation C09 C09.set_flags_p2_entry_4kib.shape_huge_leaf.no_frames_requested_or_zeroed tier=thorough bounded="pool of 7 tables (4 path + 3 allocatable); tree-shaped sparse pre-state (target path, one neighbour word per path table, garbage in allocatable frames); page-table indices (255,511,0,1)"
-    //@ obligation C09 C09.set_flags_p2_entry_4kib.shape_huge_leaf.no_dangling_table_pointer tier=thorough bounded="pool of 7 tables (4 path + 3 allocatable); tree-shaped sparse pre-state (target path, one neighbour word per path table, garbage in allocatable frames); page-table indices (255,511,0,1)"
+    //@ obligation C02 C02.set_flags_p2_entry_4kib.shape_huge_leaf.reports_parent_entry_huge_page_and_unchanged tier=thorough bounded="pool of 7 tables (4 path + 3 allocatable); tree-shaped sparse pre-state (target path, one neighbour word per path table, garbage in allocatable frames); page-table indices (255,511,0,256)"
+    //@ obligation C02 C02.set_flags_p2_entry_4kib.shape_huge_leaf.error_leaves_every_mapping tier=thorough bounded="pool of 7 tables (4 path + 3 allocatable); tree-shaped sparse pre-state (target path, one neighbour word per path table, garbage in allocatable frames); page-table indices (255,511,0,256)"
+    //@ obligation C09 C09.set_flags_p2_entry_4kib.shape_huge_leaf.only_dictated_slots_change tier=thorough bounded="pool of 7 tables (4 path + 3 allocatable); tree-shaped sparse pre-state (target path, one neighbour word per path table, garbage in allocatable frames); page-table indices (255,511,0,256)"
+    //@ obligation C09 C09.set_flags_p2_entry_4kib.shape_huge_leaf.no_frames_requested_or_zeroed tier=thorough bounded="pool of 7 tables (4 path + 3 allocatable); tree-shaped sparse pre-state (target path, one neighbour word per path table, garbage in allocatable frames); page-table indices (255,511,0,256)"
+    //@ obligation C09 C09.set_flags_p2_entry_4kib.shape_huge_leaf.no_dangling_table_pointer tier=thorough bounded="pool of 7 tables (4 path + 3 allocatable); tree-shaped sparse pre-state (target path, one neighbour word per path table, garbage in allocatable frames); page-table indices (255,511,0,256)"
+    //@ obligation C09 C09.set_flags_p2_entry_4kib.shape_huge_leaf.no_access_outside_page_tables tier=thorough bounded="pool of 7 tables (4 path + 3 allocatable); tree-shaped sparse pre-state (target path, one neighbour word per path table, garbage in allocatable frames); page-table indices (255,511,0,256)"
     #[kani::proof]
     #[kani::stub(PageTable::zero, zero_stub)]
     fn c02_set_flags_p2_entry_4kib_huge_leaf_mid() {
@@ -1109,11 +1187,12 @@ mod verif_c01_step_flags {
         kani::cover!(true, "c02_set_flags_p2_entry_4kib_huge_leaf_mid: reachable");
     }
 
-    //@ obligation C02 C02.set_flags_p2_entry_4kib.shape_huge_leaf.reports_parent_entry_huge_page_and_unchanged tier=thorough bounded="pool of 7 tables (4 path + 3 allocatable); tree-shaped sparse pre-state (target path, one neighbour word per path table, garbage in allocatable frames); page-table indices (256,1,510,255)"
-    //@ obligation C02 C02.set_flags_p2_entry_4kib.shape_huge_leaf.error_leaves_every_mapping tier=thorough bounded="pool of 7 tables (4 path + 3 allocatable); tree-shaped sparse pre-state (target path, one neighbour word per path table, garbage in allocatable frames); page-table indices (256,1,510,255)"
-    //@ obligation C09 C09.set_flags_p2_entry_4kib.shape_huge_leaf.only_dictated_slots_change tier=thorough bounded="pool of 7 tables (4 path + 3 allocatable); tree-shaped sparse pre-state (target path, one neighbour word per path table, garbage in allocatable frames); page-table indices (256,1,510,255)"
-    //@ obligation C09 C09.set_flags_p2_entry_4kib.shape_huge_leaf.no_frames_requested_or_zeroed tier=thorough bounded="pool of 7 tables (4 path + 3 allocatable); tree-shaped sparse pre-state (target path, one neighbour word per path table, garbage in allocatable frames); page-table indices (256,1,510,255)"
-    //@ obligation C09 C09.set_flags_p2_entry_4kib.shape_huge_leaf.no_dangling_table_pointer tier=thorough bounded="pool of 7 tables (4 path + 3 allocatable); tree-shaped sparse pre-state (target path, one neighbour word per path table, garbage in allocatable frames); page-table indices (256,1,510,255)"
+    //@ obligation C02 C02.set_flags_p2_entry_4kib.shape_huge_leaf.reports_parent_entry_huge_page_and_unchanged tier=thorough bounded="pool of 7 tables (4 path + 3 allocatable); tree-shaped sparse pre-state (target path, one neighbour word per path table, garbage in allocatable frames); page-table indices (256,0,510,511)"
+    //@ obligation C02 C02.set_flags_p2_entry_4kib.shape_huge_leaf.error_leaves_every_mapping tier=thorough bounded="pool of 7 tables (4 path + 3 allocatable); tree-shaped sparse pre-state (target path, one neighbour word per path table, garbage in allocatable frames); page-table indices (256,0,510,511)"
+    //@ obligation C09 C09.set_flags_p2_entry_4kib.shape_huge_leaf.only_dictated_slots_change tier=thorough bounded="pool of 7 tables (4 path + 3 allocatable); tree-shaped sparse pre-state (target path, one neighbour word per path table, garbage in allocatable frames); page-table indices (256,0,510,511)"
+    //@ obligation C09 C09.set_flags_p2_entry_4kib.shape_huge_leaf.no_frames_requested_or_zeroed tier=thorough bounded="pool of 7 tables (4 path + 3 allocatable); tree-shaped sparse pre-state (target path, one neighbour word per path table, garbage in allocatable frames); page-table indices (256,0,510,511)"
+    //@ obligation C09 C09.set_flags_p2_entry_4kib.shape_huge_leaf.no_dangling_table_pointer tier=thorough bounded="pool of 7 tables (4 path + 3 allocatable); tree-shaped sparse pre-state (target path, one neighbour word per path table, garbage in allocatable frames); page-table indices (256,0,510,511)"
+    //@ obligation C09 C09.set_flags_p2_entry_4kib.shape_huge_leaf.no_access_outside_page_tables tier=thorough bounded="pool of 7 tables (4 path + 3 allocatable); tree-shaped sparse pre-state (target path, one neighbour word per path table, garbage in allocatable frames); page-table indices (256,0,510,511)"
     #[kani::proof]
     #[kani::stub(PageTable::zero, zero_stub)]
     fn c02_set_flags_p2_entry_4kib_huge_leaf_up() {
@@ -1121,13 +1200,14 @@ mod verif_c01_step_flags {
         kani::cover!(true, "c02_set_flags_p2_entry_4kib_huge_leaf_up: reachable");
     }
 
-    //@ obligation C02 C02.set_flags_p2_entry_4kib.shape_p2_table.documented_outcome tier=thorough bounded="pool of 7 tables (4 path + 3 allocatable); tree-shaped sparse pre-state (target path, one neighbour word per path table, garbage in allocatable frames); page-table indices (0,0,0,0)"
-    //@ obligation C01 C01.set_flags_p2_entry_4kib.shape_p2_table.no_leaf_changes tier=thorough bounded="pool of 7 tables (4 path + 3 allocatable); tree-shaped sparse pre-state (target path, one neighbour word per path table, garbage in allocatable frames); page-table indices (0,0,0,0)"
-    //@ obligation C01 C01.set_flags_p2_entry_4kib.shape_p2_table.entry_flags_replaced_address_kept tier=thorough bounded="pool of 7 tables (4 path + 3 allocatable); tree-shaped sparse pre-state (target path, one neighbour word per path table, garbage in allocatable frames); page-table indices (0,0,0,0)"
-    //@ obligation C11 C11.set_flags_p2_entry_4kib.shape_p2_table.flush_all_token tier=thorough bounded="pool of 7 tables (4 path + 3 allocatable); tree-shaped sparse pre-state (target path, one neighbour word per path table, garbage in allocatable frames); page-table indices (0,0,0,0)"
-    //@ obligation C09 C09.set_flags_p2_entry_4kib.shape_p2_table.only_dictated_slots_change tier=thorough bounded="pool of 7 tables (4 path + 3 allocatable); tree-shaped sparse pre-state (target path, one neighbour word per path table, garbage in allocatable frames); page-table indices (0,0,0,0)"
-    //@ obligation C09 C09.set_flags_p2_entry_4kib.shape_p2_table.no_frames_requested_or_zeroed tier=thorough bounded="pool of 7 tables (4 path + 3 allocatable); tree-shaped sparse pre-state (target path, one neighbour word per path table, garbage in allocatable frames); page-table indices (0,0,0,0)"
-    //@ obligation C09 C09.set_flags_p2_entry_4kib.shape_p2_table.no_dangling_table_pointer tier=thorough bounded="pool of 7 tables (4 path + 3 allocatable); tree-shaped sparse pre-state (target path, one neighbour word per path table, garbage in allocatable frames); page-table indices (0,0,0,0)"
+    //@ obligation C02 C02.set_flags_p2_entry_4kib.shape_p2_table.documented_outcome tier=thorough bounded="pool of 7 tables (4 path + 3 allocatable); tree-shaped sparse pre-state (target path, one neighbour word per path table, garbage in allocatable frames); page-table indices (0,1,511,2)"
+    //@ obligation C01 C01.set_flags_p2_entry_4kib.shape_p2_table.no_leaf_changes tier=thorough bounded="pool of 7 tables (4 path + 3 allocatable); tree-shaped sparse pre-state (target path, one neighbour word per path table, garbage in allocatable frames); page-table indices (0,1,511,2)"
+    //@ obligation C01 C01.set_flags_p2_entry_4kib.shape_p2_table.entry_flags_replaced_address_kept tier=thorough bounded="pool of 7 tables (4 path + 3 allocatable); tree-shaped sparse pre-state (target path, one neighbour word per path table, garbage in allocatable frames); page-table indices (0,1,511,2)"
+    //@ obligation C11 C11.set_flags_p2_entry_4kib.shape_p2_table.flush_all_token tier=thorough bounded="pool of 7 tables (4 path + 3 allocatable); tree-shaped sparse pre-state (target path, one neighbour word per path table, garbage in allocatable frames); page-table indices (0,1,511,2)"
+    //@ obligation C09 C09.set_flags_p2_entry_4kib.shape_p2_table.only_dictated_slots_change tier=thorough bounded="pool of 7 tables (4 path + 3 allocatable); tree-shaped sparse pre-state (target path, one neighbour word per path table, garbage in allocatable frames); page-table indices (0,1,511,2)"
+    //@ obligation C09 C09.set_flags_p2_entry_4kib.shape_p2_table.no_frames_requested_or_zeroed tier=thorough bounded="pool of 7 tables (4 path + 3 allocatable); tree-shaped sparse pre-state (target path, one neighbour word per path table, garbage in allocatable frames); page-table indices (0,1,511,2)"
+    //@ obligation C09 C09.set_flags_p2_entry_4kib.shape_p2_table.no_dangling_table_pointer tier=thorough bounded="pool of 7 tables (4 path + 3 allocatable); tree-shaped sparse pre-state (target path, one neighbour word per path table, garbage in allocatable frames); page-table indices (0,1,511,2)"
+    //@ obligation C09 C09.set_flags_p2_entry_4kib.shape_p2_table.no_access_outside_page_tables tier=thorough bounded="pool of 7 tables (4 path + 3 allocatable); tree-shaped sparse pre-state (target path, one neighbour word per path table, garbage in allocatable frames); page-table indices (0,1,511,2)"
     #[kani::proof]
     #[kani::stub(PageTable::zero, zero_stub)]
     fn c01_set_flags_p2_entry_4kib_p2_table_lo() {
@@ -1135,13 +1215,14 @@ mod verif_c01_step_flags {
         kani::cover!(true, "c01_set_flags_p2_entry_4kib_p2_table_lo: reachable");
     }
 
-    //@ obligation C02 C02.set_flags_p2_entry_4kib.shape_p2_table.documented_outcome tier=thorough bounded="pool of 7 tables (4 path + 3 allocatable); tree-shaped sparse pre-state (target path, one neighbour word per path table, garbage in allocatable frames); page-table indices (511,511,511,511)"
-    //@ obligation C01 C01.set_flags_p2_entry_4kib.shape_p2_table.no_leaf_changes tier=thorough bounded="pool of 7 tables (4 path + 3 allocatable); tree-shaped sparse pre-state (target path, one neighbour word per path table, garbage in allocatable frames); page-table indices (511,511,511,511)"
-    //@ obligation C01 C01.set_flags_p2_entry_4kib.shape_p2_table.entry_flags_replaced_address_kept tier=thorough bounded="pool of 7 tables (4 path + 3 allocatable); tree-shaped sparse pre-state (target path, one neighbour word per path table, garbage in allocatable frames); page-table indices (511,511,511,511)"
-    //@ obligation C11 C11.set_flags_p2_entry_4kib.shape_p2_table.flush_all_token tier=thorough bounded="pool of 7 tables (4 path + 3 allocatable); tree-shaped sparse pre-state (target path, one neighbour word per path table, garbage in allocatable frames); page-table indices (511,511,511,511)"
-    //@ obligation C09 C09.set_flags_p2_entry_4kib.shape_p2_table.only_dictated_slots_change tier=thorough bounded="pool of 7 tables (4 path + 3 allocatable); tree-shaped sparse pre-state (target path, one neighbour word per path table, garbage in allocatable frames); page-table indices (511,511,511,511)"
-    //@ obligation C09 C09.set_flags_p2_entry_4kib.shape_p2_table.no_frames_requested_or_zeroed tier=thorough bounded="pool of 7 tables (4 path + 3 allocatable); tree-shaped sparse pre-state (target path, one neighbour word per path table, garbage in allocatable frames); page-table indices (511,511,511,511)"
-    //@ obligation C09 C09.set_flags_p2_entry_4kib.shape_p2_table.no_dangling_table_pointer tier=thorough bounded="pool of 7 tables (4 path + 3 allocatable); tree-shaped sparse pre-state (target path, one neighbour word per path table, garbage in allocatable frames); page-table indices (511,511,511,511)"
+    //@ obligation C02 C02.set_flags_p2_entry_4kib.shape_p2_table.documented_outcome tier=thorough bounded="pool of 7 tables (4 path + 3 allocatable); tree-shaped sparse pre-state (target path, one neighbour word per path table, garbage in allocatable frames); page-table indices (511,510,1,0)"
+    //@ obligation C01 C01.set_flags_p2_entry_4kib.shape_p2_table.no_leaf_changes tier=thorough bounded="pool of 7 tables (4 path + 3 allocatable); tree-shaped sparse pre-state (target path, one neighbour word per path table, garbage in allocatable frames); page-table indices (511,510,1,0)"
+    //@ obligation C01 C01.set_flags_p2_entry_4kib.shape_p2_table.entry_flags_replaced_address_kept tier=thorough bounded="pool of 7 tables (4 path + 3 allocatable); tree-shaped sparse pre-state (target path, one neighbour word per path table, garbage in allocatable frames); page-table indices (511,510,1,0)"
+    //@ obligation C11 C11.set_flags_p2_entry_4kib.shape_p2_table.flush_all_token tier=thorough bounded="pool of 7 tables (4 path + 3 allocatable); tree-shaped sparse pre-state (target path, one neighbour word per path table, garbage in allocatable frames); page-table indices (511,510,1,0)"
+    //@ obligation C09 C09.set_flags_p2_entry_4kib.shape_p2_table.only_dictated_slots_change tier=thorough bounded="pool of 7 tables (4 path + 3 allocatable); tree-shaped sparse pre-state (target path, one neighbour word per path table, garbage in allocatable frames); page-table indices (511,510,1,0)"
+    //@ obligation C09 C09.set_flags_p2_entry_4kib.shape_p2_table.no_frames_requested_or_zeroed tier=thorough bounded="pool of 7 tables (4 path + 3 allocatable); tree-shaped sparse pre-state (target path, one neighbour word per path table, garbage in allocatable frames); page-table indices (511,510,1,0)"
+    //@ obligation C09 C09.set_flags_p2_entry_4kib.shape_p2_table.no_dangling_table_pointer tier=thorough bounded="pool of 7 tables (4 path + 3 allocatable); tree-shaped sparse pre-state (target path, one neighbour word per path table, garbage in allocatable frames); page-table indices (511,510,1,0)"
+    //@ obligation C09 C09.set_flags_p2_entry_4kib.shape_p2_table.no_access_outside_page_tables tier=thorough bounded="pool of 7 tables (4 path + 3 allocatable); tree-shaped sparse pre-state (target path, one neighbour word per path table, garbage in allocatable frames); page-table indices (511,510,1,0)"
     #[kani::proof]
     #[kani::stub(PageTable::zero, zero_stub)]
     fn c01_set_flags_p2_entry_4kib_p2_table_hi() {
@@ -1149,13 +1230,14 @@ mod verif_c01_step_flags {
         kani::cover!(true, "c01_set_flags_p2_entry_4kib_p2_table_hi: reachable");
     }
 
-    //@ obligation C02 C02.set_flags_p2_entry_4kib.shape_p2_table.documented_outcome tier=thorough bounded="pool of 7 tables (4 path + 3 allocatable); tree-shaped sparse pre-state (target path, one neighbour word per path table, garbage in allocatable frames); page-table indices (255,511,0,1)"
-    //@ obligation C01 C01.set_flags_p2_entry_4kib.shape_p2_table.no_leaf_changes tier=thorough bounded="pool of 7 tables (4 path + 3 allocatable); tree-shaped sparse pre-state (target path, one neighbour word per path table, garbage in allocatable frames); page-table indices (255,511,0,1)"
-    //@ obligation C01 C01.set_flags_p2_entry_4kib.shape_p2_table.entry_flags_replaced_address_kept tier=thorough bounded="pool of 7 tables (4 path + 3 allocatable); tree-shaped sparse pre-state (target path, one neighbour word per path table, garbage in allocatable frames); page-table indices (255,511,0,1)"
-    //@ obligation C11 C11.set_flags_p2_entry_4kib.shape_p2_table.flush_all_token tier=thorough bounded="pool of 7 tables (4 path + 3 allocatable); tree-shaped sparse pre-state (target path, one neighbour word per path table, garbage in allocatable frames); page-table indices (255,511,0,1)"
-    //@ obligation C09 C09.set_flags_p2_entry_4kib.shape_p2_table.only_dictated_slots_change tier=thorough bounded="pool of 7 tables (4 path + 3 allocatable); tree-shaped sparse pre-state (target path, one neighbour word per path table, garbage in allocatable frames); page-table indices (255,511,0,1)"
-    //@ obligation C09 C09.set_flags_p2_entry_4kib.shape_p2_table.no_frames_requested_or_zeroed tier=thorough bounded="pool of 7 tables (4 path + 3 allocatable); tree-shaped sparse pre-state (target path, one neighbour word per path table, garbage in allocatable frames); page-table indices (255,511,0,1)"
-    //@ obligation C09 C09.set_flags_p2_entry_4kib.shape_p2_table.no_dangling_table_pointer tier=thorough bounded="pool of 7 tables (4 path + 3 allocatable); tree-shaped sparse pre-state (target path, one neighbour word per path table, garbage in allocatable frames); page-table indices (255,511,0,1)"
+    //@ obligation C02 C02.set_flags_p2_entry_4kib.shape_p2_table.documented_outcome tier=thorough bounded="pool of 7 tables (4 path + 3 allocatable); tree-shaped sparse pre-state (target path, one neighbour word per path table, garbage in allocatable frames); page-table indices (255,511,0,256)"
+    //@ obligation C01 C01.set_flags_p2_entry_4kib.shape_p2_table.no_leaf_changes tier=thorough bounded="pool of 7 tables (4 path + 3 allocatable); tree-shaped sparse pre-state (target path, one neighbour word per path table, garbage in allocatable frames); page-table indices (255,511,0,256)"
+    //@ obligation C01 C01.set_flags_p2_entry_4kib.shape_p2_table.entry_flags_replaced_address_kept tier=thorough bounded="pool of 7 tables (4 path + 3 allocatable); tree-shaped sparse pre-state (target path, one neighbour word per path table, garbage in allocatable frames); page-table indices (255,511,0,256)"
+    //@ obligation C11 C11.set_flags_p2_entry_4kib.shape_p2_table.flush_all_token tier=thorough bounded="pool of 7 tables (4 path + 3 allocatable); tree-shaped sparse pre-state (target path, one neighbour word per path table, garbage in allocatable frames); page-table indices (255,511,0,256)"
+    //@ obligation C09 C09.set_flags_p2_entry_4kib.shape_p2_table.only_dictated_slots_change tier=thorough bounded="pool of 7 tables (4 path + 3 allocatable); tree-shaped sparse pre-state (target path, one neighbour word per path table, garbage in allocatable frames); page-table indices (255,511,0,256)"
+    //@ obligation C09 C09.set_flags_p2_entry_4kib.shape_p2_table.no_frames_requested_or_zeroed tier=thorough bounded="pool of 7 tables (4 path + 3 allocatable); tree-shaped sparse pre-state (target path, one neighbour word per path table, garbage in allocatable frames); page-table indices (255,511,0,256)"
+    //@ obligation C09 C09.set_flags_p2_entry_4kib.shape_p2_table.no_dangling_table_pointer tier=thorough bounded="pool of 7 tables (4 path + 3 allocatable); tree-shaped sparse pre-state (target path, one neighbour word per path table, garbage in allocatable frames); page-table indices (255,511,0,256)"
+    //@ obligation C09 C09.set_flags_p2_entry_4kib.shape_p2_table.no_access_outside_page_tables tier=thorough bounded="pool of 7 tables (4 path + 3 allocatable); tree-shaped sparse pre-state (target path, one neighbour word per path table, garbage in allocatable frames); page-table indices (255,511,0,256)"
     #[kani::proof]
     #[kani::stub(PageTable::zero, zero_stub)]
     fn c01_set_flags_p2_entry_4kib_p2_table_mid() {
@@ -1163,13 +1245,14 @@ mod verif_c01_step_flags {
         kani::cover!(true, "c01_set_flags_p2_entry_4kib_p2_table_mid: reachable");
     }
 
-    //@ obligation C02 C02.set_flags_p2_entry_4kib.shape_p2_table.documented_outcome bounded="pool of 7 tables (4 path + 3 allocatable); tree-shaped sparse pre-state (target path, one neighbour word per path table, garbage in allocatable frames); page-table indices (256,1,510,255)"
-    //@ obligation C01 C01.set_flags_p2_entry_4kib.shape_p2_table.no_leaf_changes bounded="pool of 7 tables (4 path + 3 allocatable); tree-shaped sparse pre-state (target path, one neighbour word per path table, garbage in allocatable frames); page-table indices (256,1,510,255)"
-    //@ obligation C01 C01.set_flags_p2_entry_4kib.shape_p2_table.entry_flags_replaced_address_kept bounded="pool of 7 tables (4 path + 3 allocatable); tree-shaped sparse pre-state (target path, one neighbour word per path table, garbage in allocatable frames); page-table indices (256,1,510,255)"
-    //@ obligation C11 C11.set_flags_p2_entry_4kib.shape_p2_table.flush_all_token bounded="pool of 7 tables (4 path + 3 allocatable); tree-shaped sparse pre-state (target path, one neighbour word per path table, garbage in allocatable frames); page-table indices (256,1,510,255)"
-    //@ obligation C09 C09.set_flags_p2_entry_4kib.shape_p2_table.only_dictated_slots_change bounded="pool of 7 tables (4 path + 3 allocatable); tree-shaped sparse pre-state (target path, one neighbour word per path table, garbage in allocatable frames); page-table indices (256,1,510,255)"
-    //@ obligation C09 C09.set_flags_p2_entry_4kib.shape_p2_table.no_frames_requested_or_zeroed bounded="pool of 7 tables (4 path + 3 allocatable); tree-shaped sparse pre-state (target path, one neighbour word per path table, garbage in allocatable frames); page-table indices (256,1,510,255)"
-    //@ obligation C09 C09.set_flags_p2_entry_4kib.shape_p2_table.no_dangling_table_pointer bounded="pool of 7 tables (4 path + 3 allocatable); tree-shaped sparse pre-state (target path, one neighbour word per path table, garbage in allocatable frames); page-table indices (256,1,510,255)"
+    //@ obligation C02 C02.set_flags_p2_entry_4kib.shape_p2_table.documented_outcome bounded="pool of 7 tables (4 path + 3 allocatable); tree-shaped sparse pre-state (target path, one neighbour word per path table, garbage in allocatable frames); page-table indices (256,0,510,511)"
+    //@ obligation C01 C01.set_flags_p2_entry_4kib.shape_p2_table.no_leaf_changes bounded="pool of 7 tables (4 path + 3 allocatable); tree-shaped sparse pre-state (target path, one neighbour word per path table, garbage in allocatable frames); page-table indices (256,0,510,511)"
+    //@ obligation C01 C01.set_flags_p2_entry_4kib.shape_p2_table.entry_flags_replaced_address_kept bounded="pool of 7 tables (4 path + 3 allocatable); tree-shaped sparse pre-state (target path, one neighbour word per path table, garbage in allocatable frames); page-table indices (256,0,510,511)"
+    //@ obligation C11 C11.set_flags_p2_entry_4kib.shape_p2_table.flush_all_token bounded="pool of 7 tables (4 path + 3 allocatable); tree-shaped sparse pre-state (target path, one neighbour word per path table, garbage in allocatable frames); page-table indices (256,0,510,511)"
+    //@ obligation C09 C09.set_flags_p2_entry_4kib.shape_p2_table.only_dictated_slots_change bounded="pool of 7 tables (4 path + 3 allocatable); tree-shaped sparse pre-state (target path, one neighbour word per path table, garbage in allocatable frames); page-table indices (256,0,510,511)"
+    //@ obligation C09 C09.set_flags_p2_entry_4kib.shape_p2_table.no_frames_requested_or_zeroed bounded="pool of 7 tables (4 path + 3 allocatable); tree-shaped sparse pre-state (target path, one neighbour word per path table, garbage in allocatable frames); page-table indices (256,0,510,511)"
+    //@ obligation C09 C09.set_flags_p2_entry_4kib.shape_p2_table.no_dangling_table_pointer bounded="pool of 7 tables (4 path + 3 allocatable); tree-shaped sparse pre-state (target path, one neighbour word per path table, garbage in allocatable frames); page-table indices (256,0,510,511)"
+    //@ obligation C09 C09.set_flags_p2_entry_4kib.shape_p2_table.no_access_outside_page_tables bounded="pool of 7 tables (4 path + 3 allocatable); tree-shaped sparse pre-state (target path, one neighbour word per path table, garbage in allocatable frames); page-table indices (256,0,510,511)"
     #[kani::proof]
     #[kani::stub(PageTable::zero, zero_stub)]
     fn c01_set_flags_p2_entry_4kib_p2_table_up() {
@@ -1177,11 +1260,12 @@ mod verif_c01_step_flags {
         kani::cover!(true, "c01_set_flags_p2_entry_4kib_p2_table_up: reachable");
     }
 
-    //@ obligation C02 C02.set_flags_p2_entry_2mib.shape_any.level_above_leaf_does_not_exist_is_error tier=thorough bounded="pool of 7 tables (4 path + 3 allocatable); tree-shaped sparse pre-state (target path, one neighbour word per path table, garbage in allocatable frames); page-table indices (0,0,0,0)"
-    //@ obligation C02 C02.set_flags_p2_entry_2mib.shape_any.error_leaves_every_mapping tier=thorough bounded="pool of 7 tables (4 path + 3 allocatable); tree-shaped sparse pre-state (target path, one neighbour word per path table, garbage in allocatable frames); page-table indices (0,0,0,0)"
-    //@ obligation C09 C09.set_flags_p2_entry_2mib.shape_any.only_dictated_slots_change tier=thorough bounded="pool of 7 tables (4 path + 3 allocatable); tree-shaped sparse pre-state (target path, one neighbour word per path table, garbage in allocatable frames); page-table indices (0,0,0,0)"
-    //@ obligation C09 C09.set_flags_p2_entry_2mib.shape_any.no_frames_requested_or_zeroed tier=thorough bounded="pool of 7 tables (4 path + 3 allocatable); tree-shaped sparse pre-state (target path, one neighbour word per path table, garbage in allocatable frames); page-table indices (0,0,0,0)"
-    //@ obligation C09 C09.set_flags_p2_entry_2mib.shape_any.no_dangling_table_pointer tier=thorough bounded="pool of 7 tables (4 path + 3 allocatable); tree-shaped sparse pre-state (target path, one neighbour word per path table, garbage in allocatable frames); page-table indices (0,0,0,0)"
+    //@ obligation C02 C02.set_flags_p2_entry_2mib.shape_any.level_above_leaf_does_not_exist_is_error tier=thorough bounded="pool of 7 tables (4 path + 3 allocatable); tree-shaped sparse pre-state (target path, one neighbour word per path table, garbage in allocatable frames); page-table indices (0,1,511,2)"
+    //@ obligation C02 C02.set_flags_p2_entry_2mib.shape_any.error_leaves_every_mapping tier=thorough bounded="pool of 7 tables (4 path + 3 allocatable); tree-shaped sparse pre-state (target path, one neighbour word per path table, garbage in allocatable frames); page-table indices (0,1,511,2)"
+    //@ obligation C09 C09.set_flags_p2_entry_2mib.shape_any.only_dictated_slots_change tier=thorough bounded="pool of 7 tables (4 path + 3 allocatable); tree-shaped sparse pre-state (target path, one neighbour word per path table, garbage in allocatable frames); page-table indices (0,1,511,2)"
+    //@ obligation C09 C09.set_flags_p2_entry_2mib.shape_any.no_frames_requested_or_zeroed tier=thorough bounded="pool of 7 tables (4 path + 3 allocatable); tree-shaped sparse pre-state (target path, one neighbour word per path table, garbage in allocatable frames); page-table indices (0,1,511,2)"
+    //@ obligation C09 C09.set_flags_p2_entry_2mib.shape_any.no_dangling_table_pointer tier=thorough bounded="pool of 7 tables (4 path + 3 allocatable); tree-shaped sparse pre-state (target path, one neighbour word per path table, garbage in allocatable frames); page-table indices (0,1,511,2)"
+    //@ obligation C09 C09.set_flags_p2_entry_2mib.shape_any.no_access_outside_page_tables tier=thorough bounded="pool of 7 tables (4 path + 3 allocatable); tree-shaped sparse pre-state (target path, one neighbour word per path table, garbage in allocatable frames); page-table indices (0,1,511,2)"
     #[kani::proof]
     #[kani::stub(PageTable::zero, zero_stub)]
     fn c02_set_flags_p2_entry_2mib_any_lo() {
@@ -1189,11 +1273,12 @@ mod verif_c01_step_flags {
         kani::cover!(true, "c02_set_flags_p2_entry_2mib_any_lo: reachable");
     }
 
-    //@ obligation C02 C02.set_flags_p2_entry_2mib.shape_any.level_above_leaf_does_not_exist_is_error tier=thorough bounded="pool of 7 tables (4 path + 3 allocatable); tree-shaped sparse pre-state (target path, one neighbour word per path table, garbage in allocatable frames); page-table indices (511,511,511,511)"
-    //@ obligation C02 C02.set_flags_p2_entry_2mib.shape_any.error_leaves_every_mapping tier=thorough bounded="pool of 7 tables (4 path + 3 allocatable); tree-shaped sparse pre-state (target path, one neighbour word per path table, garbage in allocatable frames); page-table indices (511,511,511,511)"
-    //@ obligation C09 C09.set_flags_p2_entry_2mib.shape_any.only_dictated_slots_change tier=thorough bounded="pool of 7 tables (4 path + 3 allocatable); tree-shaped sparse pre-state (target path, one neighbour word per path table, garbage in allocatable frames); page-table indices (511,511,511,511)"
-    //@ obligation C09 C09.set_flags_p2_entry_2mib.shape_any.no_frames_requested_or_zeroed tier=thorough bounded="pool of 7 tables (4 path + 3 allocatable); tree-shaped sparse pre-state (target path, one neighbour word per path table, garbage in allocatable frames); page-table indices (511,511,511,511)"
-    //@ obligation C09 C09.set_flags_p2_entry_2mib.shape_any.no_dangling_table_pointer tier=thorough bounded="pool of 7 tables (4 path + 3 allocatable); tree-shaped sparse pre-state (target path, one neighbour word per path table, garbage in allocatable frames); page-table indices (511,511,511,511)"
+    //@ obligation C02 C02.set_flags_p2_entry_2mib.shape_any.level_above_leaf_does_not_exist_is_error tier=thorough bounded="pool of 7 tables (4 path + 3 allocatable); tree-shaped sparse pre-state (target path, one neighbour word per path table, garbage in allocatable frames); page-table indices (511,510,1,0)"
+    //@ obligation C02 C02.set_flags_p2_entry_2mib.shape_any.error_leaves_every_mapping tier=thorough bounded="pool of 7 tables (4 path + 3 allocatable); tree-shaped sparse pre-state (target path, one neighbour word per path table, garbage in allocatable frames); page-table indices (511,510,1,0)"
+    //@ obligation C09 C09.set_flags_p2_entry_2mib.shape_any.only_dictated_slots_change tier=thorough bounded="pool of 7 tables (4 path + 3 allocatable); tree-shaped sparse pre-state (target path, one neighbour word per path table, garbage in allocatable frames); page-table indices (511,510,1,0)"
+    //@ obligation C09 C09.set_flags_p2_entry_2mib.shape_any.no_frames_requested_or_zeroed tier=thorough bounded="pool of 7 tables (4 path + 3 allocatable); tree-shaped sparse pre-state (target path, one neighbour word per path table, garbage in allocatable frames); page-table indices (511,510,1,0)"
+    //@ obligation C09 C09.set_flags_p2_entry_2mib.shape_any.no_dangling_table_pointer tier=thorough bounded="pool of 7 tables (4 path + 3 allocatable); tree-shaped sparse pre-state (target path, one neighbour word per path table, garbage in allocatable frames); page-table indices (511,510,1,0)"
+    //@ obligation C09 C09.set_flags_p2_entry_2mib.shape_any.no_access_outside_page_tables tier=thorough bounded="pool of 7 tables (4 path + 3 allocatable); tree-shaped sparse pre-state (target path, one neighbour word per path table, garbage in allocatable frames); page-table indices (511,510,1,0)"
     #[kani::proof]
     #[kani::stub(PageTable::zero, zero_stub)]
     fn c02_set_flags_p2_entry_2mib_any_hi() {
@@ -1201,11 +1286,12 @@ mod verif_c01_step_flags {
         kani::cover!(true, "c02_set_flags_p2_entry_2mib_any_hi: reachable");
     }
 
-    //@ obligation C02 C02.set_flags_p2_entry_2mib.shape_any.level_above_leaf_does_not_exist_is_error tier=thorough bounded="pool of 7 tables (4 path + 3 allocatable); tree-shaped sparse pre-state (target path, one neighbour word per path table, garbage in allocatable frames); page-table indices (255,511,0,1)"
-    //@ obligation C02 C02.set_flags_p2_entry_2mib.shape_any.error_leaves_every_mapping tier=thorough bounded="pool of 7 tables (4 path + 3 allocatable); tree-shaped sparse pre-state (target path, one neighbour word per path table, garbage in allocatable frames); page-table indices (255,511,0,1)"
-    //@ obligation C09 C09.set_flags_p2_entry_2mib.shape_any.only_dictated_slots_change tier=thorough bounded="pool of 7 tables (4 path + 3 allocatable); tree-shaped sparse pre-state (target path, one neighbour word per path table, garbage in allocatable frames); page-table indices (255,511,0,1)"
-    //@ obligation C09 C09.set_flags_p2_entry_2mib.shape_any.no_frames_requested_or_zeroed tier=thorough bounded="pool of 7 tables (4 path + 3 allocatable); tree-shaped sparse pre-state (target path, one neighbour word per path table, garbage in allocatable frames); page-table indices (255,511,0,1)"
-    //@ obligation C09 C09.set_flags_p2_entry_2mib.shape_any.no_dangling_table_pointer tier=thorough bounded="pool of 7 tables (4 path + 3 allocatable); tree-shaped sparse pre-state (target path, one neighbour word per path table, garbage in allocatable frames); page-table indices (255,511,0,1)"
+    //@ obligation C02 C02.set_flags_p2_entry_2mib.shape_any.level_above_leaf_does_not_exist_is_error tier=thorough bounded="pool of 7 tables (4 path + 3 allocatable); tree-shaped sparse pre-state (target path, one neighbour word per path table, garbage in allocatable frames); page-table indices (255,511,0,256)"
+    //@ obligation C02 C02.set_flags_p2_entry_2mib.shape_any.error_leaves_every_mapping tier=thorough bounded="pool of 7 tables (4 path + 3 allocatable); tree-shaped sparse pre-state (target path, one neighbour word per path table, garbage in allocatable frames); page-table indices (255,511,0,256)"
+    //@ obligation C09 C09.set_flags_p2_entry_2mib.shape_any.only_dictated_slots_change tier=thorough bounded="pool of 7 tables (4 path + 3 allocatable); tree-shaped sparse pre-state (target path, one neighbour word per path table, garbage in allocatable frames); page-table indices (255,511,0,256)"
+    //@ obligation C09 C09.set_flags_p2_entry_2mib.shape_any.no_frames_requested_or_zeroed tier=thorough bounded="pool of 7 tables (4 path + 3 allocatable); tree-shaped sparse pre-state (target path, one neighbour word per path table, garbage in allocatable frames); page-table indices (255,511,0,256)"
+    //@ obligation C09 C09.set_flags_p2_entry_2mib.shape_any.no_dangling_table_pointer tier=thorough bounded="pool of 7 tables (4 path + 3 allocatable); tree-shaped sparse pre-state (target path, one neighbour word per path table, garbage in allocatable frames); page-table indices (255,511,0,256)"
+    //@ obligation C09 C09.set_flags_p2_entry_2mib.shape_any.no_access_outside_page_tables tier=thorough bounded="pool of 7 tables (4 path + 3 allocatable); tree-shaped sparse pre-state (target path, one neighbour word per path table, garbage in allocatable frames); page-table indices (255,511,0,256)"
     #[kani::proof]
     #[kani::stub(PageTable::zero, zero_stub)]
     fn c02_set_flags_p2_entry_2mib_any_mid() {
@@ -1213,11 +1299,12 @@ mod verif_c01_step_flags {
         kani::cover!(true, "c02_set_flags_p2_entry_2mib_any_mid: reachable");
     }
 
-    //@ obligation C02 C02.set_flags_p2_entry_2mib.shape_any.level_above_leaf_does_not_exist_is_error bounded="pool of 7 tables (4 path + 3 allocatable); tree-shaped sparse pre-state (target path, one neighbour word per path table, garbage in allocatable frames); page-table indices (256,1,510,255)"
-    //@ obligation C02 C02.set_flags_p2_entry_2mib.shape_any.error_leaves_every_mapping bounded="pool of 7 tables (4 path + 3 allocatable); tree-shaped sparse pre-state (target path, one neighbour word per path table, garbage in allocatable frames); page-table indices (256,1,510,255)"
-    //@ obligation C09 C09.set_flags_p2_entry_2mib.shape_any.only_dictated_slots_change bounded="pool of 7 tables (4 path + 3 allocatable); tree-shaped sparse pre-state (target path, one neighbour word per path table, garbage in allocatable frames); page-table indices (256,1,510,255)"
-    //@ obligation C09 C09.set_flags_p2_entry_2mib.shape_any.no_frames_requested_or_zeroed bounded="pool of 7 tables (4 path + 3 allocatable); tree-shaped sparse pre-state (target path, one neighbour word per path table, garbage in allocatable frames); page-table indices (256,1,510,255)"
-    //@ obligation C09 C09.set_flags_p2_entry_2mib.shape_any.no_dangling_table_pointer bounded="pool of 7 tables (4 path + 3 allocatable); tree-shaped sparse pre-state (target path, one neighbour word per path table, garbage in allocatable frames); page-table indices (256,1,510,255)"
+    //@ obligation C02 C02.set_flags_p2_entry_2mib.shape_any.level_above_leaf_does_not_exist_is_error bounded="pool of 7 tables (4 path + 3 allocatable); tree-shaped sparse pre-state (target path, one neighbour word per path table, garbage in allocatable frames); page-table indices (256,0,510,511)"
+    //@ obligation C02 C02.set_flags_p2_entry_2mib.shape_any.error_leaves_every_mapping bounded="pool of 7 tables (4 path + 3 allocatable); tree-shaped sparse pre-state (target path, one neighbour word per path table, garbage in allocatable frames); page-table indices (256,0,510,511)"
+    //@ obligation C09 C09.set_flags_p2_entry_2mib.shape_any.only_dictated_slots_change bounded="pool of 7 tables (4 path + 3 allocatable); tree-shaped sparse pre-state (target path, one neighbour word per path table, garbage in allocatable frames); page-table indices (256,0,510,511)"
+    //@ obligation C09 C09.set_flags_p2_entry_2mib.shape_any.no_frames_requested_or_zeroed bounded="pool of 7 tables (4 path + 3 allocatable); tree-shaped sparse pre-state (target path, one neighbour word per path table, garbage in allocatable frames); page-table indices (256,0,510,511)"
+    //@ obligation C09 C09.set_flags_p2_entry_2mib.shape_any.no_dangling_table_pointer bounded="pool of 7 tables (4 path + 3 allocatable); tree-shaped sparse pre-state (target path, one neighbour word per path table, garbage in allocatable frames); page-table indices (256,0,510,511)"
+    //@ obligation C09 C09.set_flags_p2_entry_2mib.shape_any.no_access_outside_page_tables bounded="pool of 7 tables (4 path + 3 allocatable); tree-shaped sparse pre-state (target path, one neighbour word per path table, garbage in allocatable frames); page-table indices (256,0,510,511)"
     #[kani::proof]
     #[kani::stub(PageTable::zero, zero_stub)]
     fn c02_set_flags_p2_entry_2mib_any_up() {
@@ -1225,11 +1312,12 @@ mod verif_c01_step_flags {
         kani::cover!(true, "c02_set_flags_p2_entry_2mib_any_up: reachable");
     }
 
-    //@ obligation C02 C02.set_flags_p2_entry_1gib.shape_any.level_above_leaf_does_not_exist_is_error tier=thorough bounded="pool of 7 tables (4 path + 3 allocatable); tree-shaped sparse pre-state (target path, one neighbour word per path table, garbage in allocatable frames); page-table indices (0,0,0,0)"
-    //@ obligation C02 C02.set_flags_p2_entry_1gib.shape_any.error_leaves_every_mapping tier=thorough bounded="pool of 7 tables (4 path + 3 allocatable); tree-shaped sparse pre-state (target path, one neighbour word per path table, garbage in allocatable frames); page-table indices (0,0,0,0)"
-    //@ obligation C09 C09.set_flags_p2_entry_1gib.shape_any.only_dictated_slots_change tier=thorough bounded="pool of 7 tables (4 path + 3 allocatable); tree-shaped sparse pre-state (target path, one neighbour word per path table, garbage in allocatable frames); page-table indices (0,0,0,0)"
-    //@ obligation C09 C09.set_flags_p2_entry_1gib.shape_any.no_frames_requested_or_zeroed tier=thorough bounded="pool of 7 tables (4 path + 3 allocatable); tree-shaped sparse pre-state (target path, one neighbour word per path table, garbage in allocatable frames); page-table indices (0,0,0,0)"
-    //@ obligation C09 C09.set_flags_p2_entry_1gib.shape_any.no_dangling_table_pointer tier=thorough bounded="pool of 7 tables (4 path + 3 allocatable); tree-shaped sparse pre-state (target path, one neighbour word per path table, garbage in allocatable frames); page-table indices (0,0,0,0)"
+    //@ obligation C02 C02.set_flags_p2_entry_1gib.shape_any.level_above_leaf_does_not_exist_is_error tier=thorough bounded="pool of 7 tables (4 path + 3 allocatable); tree-shaped sparse pre-state (target path, one neighbour word per path table, garbage in allocatable frames); page-table indices (0,1,511,2)"
+    //@ obligation C02 C02.set_flags_p2_entry_1gib.shape_any.error_leaves_every_mapping tier=thorough bounded="pool of 7 tables (4 path + 3 allocatable); tree-shaped sparse pre-state (target path, one neighbour word per path table, garbage in allocatable frames); page-table indices (0,1,511,2)"
+    //@ obligation C09 C09.set_flags_p2_entry_1gib.shape_any.only_dictated_slots_change tier=thorough bounded="pool of 7 tables (4 path + 3 allocatable); tree-shaped sparse pre-state (target path, one neighbour word per path table, garbage in allocatable frames); page-table indices (0,1,511,2)"
+    //@ obligation C09 C09.set_flags_p2_entry_1gib.shape_any.no_frames_requested_or_zeroed tier=thorough bounded="pool of 7 tables (4 path + 3 allocatable); tree-shaped sparse pre-state (target path, one neighbour word per path table, garbage in allocatable frames); page-table indices (0,1,511,2)"
+    //@ obligation C09 C09.set_flags_p2_entry_1gib.shape_any.no_dangling_table_pointer tier=thorough bounded="pool of 7 tables (4 path + 3 allocatable); tree-shaped sparse pre-state (target path, one neighbour word per path table, garbage in allocatable frames); page-table indices (0,1,511,2)"
+    //@ obligation C09 C09.set_flags_p2_entry_1gib.shape_any.no_access_outside_page_tables tier=thorough bounded="pool of 7 tables (4 path + 3 allocatable); tree-shaped sparse pre-state (target path, one neighbour word per path table, garbage in allocatable frames); page-table indices (0,1,511,2)"
     #[kani::proof]
     #[kani::stub(PageTable::zero, zero_stub)]
     fn c02_set_flags_p2_entry_1gib_any_lo() {
@@ -1237,11 +1325,12 @@ mod verif_c01_step_flags {
         kani::cover!(true, "c02_set_flags_p2_entry_1gib_any_lo: reachable");
     }
 
-    //@ obligation C02 C02.set_flags_p2_entry_1gib.shape_any.level_above_leaf_does_not_exist_is_error tier=thorough bounded="pool of 7 tables (4 path + 3 allocatable); tree-shaped sparse pre-state (target path, one neighbour word per path table, garbage in allocatable frames); page-table indices (511,511,511,511)"
-    //@ obligation C02 C02.set_flags_p2_entry_1gib.shape_any.error_leaves_every_mapping tier=thorough bounded="pool of 7 tables (4 path + 3 allocatable); tree-shaped sparse pre-state (target path, one neighbour word per path table, garbage in allocatable frames); page-table indices (511,511,511,511)"
-    //@ obligation C09 C09.set_flags_p2_entry_1gib.shape_any.only_dictated_slots_change tier=thorough bounded="pool of 7 tables (4 path + 3 allocatable); tree-shaped sparse pre-state (target path, one neighbour word per path table, garbage in allocatable frames); page-table indices (511,511,511,511)"
-    //@ obligation C09 C09.set_flags_p2_entry_1gib.shape_any.no_frames_requested_or_zeroed tier=thorough bounded="pool of 7 tables (4 path + 3 allocatable); tree-shaped sparse pre-state (target path, one neighbour word per path table, garbage in allocatable frames); page-table indices (511,511,511,511)"
-    //@ obligation C09 C09.set_flags_p2_entry_1gib.shape_any.no_dangling_table_pointer tier=thorough bounded="pool of 7 tables (4 path + 3 allocatable); tree-shaped sparse pre-state (target path, one neighbour word per path table, garbage in allocatable frames); page-table indices (511,511,511,511)"
+    //@ obligation C02 C02.set_flags_p2_entry_1gib.shape_any.level_above_leaf_does_not_exist_is_error tier=thorough bounded="pool of 7 tables (4 path + 3 allocatable); tree-shaped sparse pre-state (target path, one neighbour word per path table, garbage in allocatable frames); page-table indices (511,510,1,0)"
+    //@ obligation C02 C02.set_flags_p2_entry_1gib.shape_any.error_leaves_every_mapping tier=thorough bounded="pool of 7 tables (4 path + 3 allocatable); tree-shaped sparse pre-state (target path, one neighbour word per path table, garbage in allocatable frames); page-table indices (511,510,1,0)"
+    //@ obligation C09 C09.set_flags_p2_entry_1gib.shape_any.only_dictated_slots_change tier=thorough bounded="pool of 7 tables (4 path + 3 allocatable); tree-shaped sparse pre-state (target path, one neighbour word per path table, garbage in allocatable frames); page-table indices (511,510,1,0)"
+    //@ obligation C09 C09.set_flags_p2_entry_1gib.shape_any.no_frames_requested_or_zeroed tier=thorough bounded="pool of 7 tables (4 path + 3 allocatable); tree-shaped sparse pre-state (target path, one neighbour word per path table, garbage in allocatable frames); page-table indices (511,510,1,0)"
+    //@ obligation C09 C09.set_flags_p2_entry_1gib.shape_any.no_dangling_table_pointer tier=thorough bounded="pool of 7 tables (4 path + 3 allocatable); tree-shaped sparse pre-state (target path, one neighbour word per path table, garbage in allocatable frames); page-table indices (511,510,1,0)"
+    //@ obligation C09 C09.set_flags_p2_entry_1gib.shape_any.no_access_outside_page_tables tier=thorough bounded="pool of 7 tables (4 path + 3 allocatable); tree-shaped sparse pre-state (target path, one neighbour word per path table, garbage in allocatable frames); page-table indices (511,510,1,0)"
     #[kani::proof]
     #[kani::stub(PageTable::zero, zero_stub)]
     fn c02_set_flags_p2_entry_1gib_any_hi() {
@@ -1249,11 +1338,12 @@ mod verif_c01_step_flags {
         kani::cover!(true, "c02_set_flags_p2_entry_1gib_any_hi: reachable");
     }
 
-    //@ obligation C02 C02.set_flags_p2_entry_1gib.shape_any.level_above_leaf_does_not_exist_is_error tier=thorough bounded="pool of 7 tables (4 path + 3 allocatable); tree-shaped sparse pre-state (target path, one neighbour word per path table, garbage in allocatable frames); page-table indices (255,511,0,1)"
-    //@ obligation C02 C02.set_flags_p2_entry_1gib.shape_any.error_leaves_every_mapping tier=thorough bounded="pool of 7 tables (4 path + 3 allocatable); tree-shaped sparse pre-state (target path, one neighbour word per path table, garbage in allocatable frames); page-table indices (255,511,0,1)"
-    //@ obligation C09 C09.set_flags_p2_entry_1gib.shape_any.only_dictated_slots_change tier=thorough bounded="pool of 7 tables (4 path + 3 allocatable); tree-shaped sparse pre-state (target path, one neighbour word per path table, garbage in allocatable frames); page-table indices (255,511,0,1)"
-    //@ obligation C09 C09.set_flags_p2_entry_1gib.shape_any.no_frames_requested_or_zeroed tier=thorough bounded="pool of 7 tables (4 path + 3 allocatable); tree-shaped sparse pre-state (target path, one neighbour word per path table, garbage in allocatable frames); page-table indices (255,511,0,1)"
-    //@ obligation C09 C09.set_flags_p2_entry_1gib.shape_any.no_dangling_table_pointer tier=thorough bounded="pool of 7 tables (4 path + 3 allocatable); tree-shaped sparse pre-state (target path, one neighbour word per path table, garbage in allocatable frames); page-table indices (255,511,0,1)"
+    //@ obligation C02 C02.set_flags_p2_entry_1gib.shape_any.level_above_leaf_does_not_exist_is_error tier=thorough bounded="pool of 7 tables (4 path + 3 allocatable); tree-shaped sparse pre-state (target path, one neighbour word per path table, garbage in allocatable frames); page-table indices (255,511,0,256)"
+    //@ obligation C02 C02.set_flags_p2_entry_1gib.shape_any.error_leaves_every_mapping tier=thorough bounded="pool of 7 tables (4 path + 3 allocatable); tree-shaped sparse pre-state (target path, one neighbour word per path table, garbage in allocatable frames); page-table indices (255,511,0,256)"
+    //@ obligation C09 C09.set_flags_p2_entry_1gib.shape_any.only_dictated_slots_change tier=thorough bounded="pool of 7 tables (4 path + 3 allocatable); tree-shaped sparse pre-state (target path, one neighbour word per path table, garbage in allocatable frames); page-table indices (255,511,0,256)"
+    //@ obligation C09 C09.set_flags_p2_entry_1gib.shape_any.no_frames_requested_or_zeroed tier=thorough bounded="pool of 7 tables (4 path + 3 allocatable); tree-shaped sparse pre-state (target path, one neighbour word per path table, garbage in allocatable frames); page-table indices (255,511,0,256)"
+    //@ obligation C09 C09.set_flags_p2_entry_1gib.shape_any.no_dangling_table_pointer tier=thorough bounded="pool of 7 tables (4 path + 3 allocatable); tree-shaped sparse pre-state (target path, one neighbour word per path table, garbage in allocatable frames); page-table indices (255,511,0,256)"
+    //@ obligation C09 C09.set_flags_p2_entry_1gib.shape_any.no_access_outside_page_tables tier=thorough bounded="pool of 7 tables (4 path + 3 allocatable); tree-shaped sparse pre-state (target path, one neighbour word per path table, garbage in allocatable frames); page-table indices (255,511,0,256)"
     #[kani::proof]
     #[kani::stub(PageTable::zero, zero_stub)]
     fn c02_set_flags_p2_entry_1gib_any_mid() {
@@ -1261,11 +1351,12 @@ mod verif_c01_step_flags {
         kani::cover!(true, "c02_set_flags_p2_entry_1gib_any_mid: reachable");
     }
 
-    //@ obligation C02 C02.set_flags_p2_entry_1gib.shape_any.level_above_leaf_does_not_exist_is_error tier=thorough bounded="pool of 7 tables (4 path + 3 allocatable); tree-shaped sparse pre-state (target path, one neighbour word per path table, garbage in allocatable frames); page-table indices (256,1,510,255)"
-    //@ obligation C02 C02.set_flags_p2_entry_1gib.shape_any.error_leaves_every_mapping tier=thorough bounded="pool of 7 tables (4 path + 3 allocatable); tree-shaped sparse pre-state (target path, one neighbour word per path table, garbage in allocatable frames); page-table indices (256,1,510,255)"
-    //@ obligation C09 C09.set_flags_p2_entry_1gib.shape_any.only_dictated_slots_change tier=thorough bounded="pool of 7 tables (4 path + 3 allocatable); tree-shaped sparse pre-state (target path, one neighbour word per path table, garbage in allocatable frames); page-table indices (256,1,510,255)"
-    //@ obligation C09 C09.set_flags_p2_entry_1gib.shape_any.no_frames_requested_or_zeroed tier=thorough bounded="pool of 7 tables (4 path + 3 allocatable); tree-shaped sparse pre-state (target path, one neighbour word per path table, garbage in allocatable frames); page-table indices (256,1,510,255)"
-    //@ obligation C09 C09.set_flags_p2_entry_1gib.shape_any.no_dangling_table_pointer tier=thorough bounded="pool of 7 tables (4 path + 3 allocatable); tree-shaped sparse pre-state (target path, one neighbour word per path table, garbage in allocatable frames); page-table indices (256,1,510,255)"
+    //@ obligation C02 C02.set_flags_p2_entry_1gib.shape_any.level_above_leaf_does_not_exist_is_error tier=thorough bounded="pool of 7 tables (4 path + 3 allocatable); tree-shaped sparse pre-state (target path, one neighbour word per path table, garbage in allocatable frames); page-table indices (256,0,510,511)"
+    //@ obligation C02 C02.set_flags_p2_entry_1gib.shape_any.error_leaves_every_mapping tier=thorough bounded="pool of 7 tables (4 path + 3 allocatable); tree-shaped sparse pre-state (target path, one neighbour word per path table, garbage in allocatable frames); page-table indices (256,0,510,511)"
+    //@ obligation C09 C09.set_flags_p2_entry_1gib.shape_any.only_dictated_slots_change tier=thorough bounded="pool of 7 tables (4 path + 3 allocatable); tree-shaped sparse pre-state (target path, one neighbour word per path table, garbage in allocatable frames); page-table indices (256,0,510,511)"
+    //@ obligation C09 C09.set_flags_p2_entry_1gib.shape_any.no_frames_requested_or_zeroed tier=thorough bounded="pool of 7 tables (4 path + 3 allocatable); tree-shaped sparse pre-state (target path, one neighbour word per path table, garbage in allocatable frames); page-table indices (256,0,510,511)"
+    //@ obligation C09 C09.set_flags_p2_entry_1gib.shape_any.no_dangling_table_pointer tier=thorough bounded="pool of 7 tables (4 path + 3 allocatable); tree-shaped sparse pre-state (target path, one neighbour word per path table, garbage in allocatable frames); page-table indices (256,0,510,511)"
+    //@ obligation C09 C09.set_flags_p2_entry_1gib.shape_any.no_access_outside_page_tables tier=thorough bounded="pool of 7 tables (4 path + 3 allocatable); tree-shaped sparse pre-state (target path, one neighbour word per path table, garbage in allocatable frames); page-table indices (256,0,510,511)"
     #[kani::proof]
     #[kani::stub(PageTable::zero, zero_stub)]
     fn c02_set_flags_p2_entry_1gib_any_up() {
